@@ -2,6 +2,7 @@ package main
 
 import (
 	"fmt"
+	"go/constant"
 	"go/token"
 	"go/types"
 	"sort"
@@ -15,29 +16,30 @@ func init() {
 	register(&PropSpec{
 		ID:    "C10",
 		Title: "Every sorted key/value store is a byte-ordered map with atomic batches",
-		Explanation: "Decided (structural necessary conditions, enumerated over every non-test type implementing sorted.KeyValue / sorted.Iterator): " +
-			"V-size — in every declared Set, in every batch type's Set and in every CommitBatch that applies recorded mutations, each hand-over of the value (call argument other than log/fmt, or store outside the function) is dominated by the err==nil edge of sorted.CheckSizes applied to that very key and value (identity of the value followed through conversions, locals, varargs, map/struct literals; for batches through sorted.Mutation.Key/Value on the same mutation or the struct fields the batch's Set recorded into); a batch Set without a guard may only record into the batch object; the oversize edge never returns the CheckSizes error and, inside a batch loop, comes back to the loop header (continue, not return/break); promoted Set/BeginBatch/CommitBatch come from an enumerated implementer or from an embedded interface value; sorted.mutation.Key/Value return the fields (*batch).Set recorded into. " +
-			"V-txn — kvfile: the BeginTransaction error is tested; every path from the successful begin to an exit passes Commit or Rollback on that DB (a deferred literal counts when, under the value the captured bool flag has on that path, all its paths roll back); every kv.DB write and the Commit are on the success edge of the begin; no failure edge of a write reaches Commit; one mutex is held in write mode at begin, writes, Commit and Rollback. sqlkv.CommitBatch: every path that has a batch with a transaction calls exactly one of tx.Commit/tx.Rollback; Commit only where the batch's sticky error field was tested nil; Rollback only where it was tested non-nil, and the sticky error is what is returned afterwards; the *sql.Tx that beginTx stores next to the error of the same BeginTx call is used, anywhere in package sqlkv, only where that error field was tested nil or the pointer tested non-nil (facts come from the dominating test of a load of the field; an assignment to the field between test and use is not modelled). " +
-			"V-buffer-locks — buffer.KeyValue (buf/back identified by the parameter positions of buffer.New): every call on buf/back holds kv.mu — write mode in Flush, read mode elsewhere, with two reasoned exceptions (Find's iterators, the terminal back.Close); kv.buffered is read/written only under kv.bufMu; no method calls a sibling method that locks a mutex the caller holds; Flush commits the delete batch to buf only on the success edge of committing the copy to back, each batch to the store it was begun on, and every key it deletes from buf was put, with the value of the same buf iterator, into back's batch; Delete reaches both stores on every path and a batched delete goes into both batches within the iteration; Get calls back.Get only where buf.Get's error was compared equal to sorted.ErrNotFound. " +
-			"V-iter — buffer.(*iter).Next advances a sub-iterator only on paths where that sub-iterator's eof flag is known false (abstract interpretation over the two flags and the results of subIter.next, whose summary 'false iff it set eof' is itself checked); buffer.(*iter).Close closes both sub-iterators on every path; Close of every sorted.Iterator implementer under pkg/sorted never returns a constant nil; every iterator obtained from Find inside pkg/sorted is closed on every path or stored/returned; for every declared Find, the end parameter is used as a bound only on the end != \"\" edge, or is passed unchanged to another Find, or is stored in an iterator field whose Next compares bytes.Compare(key, end) only under len(end) > 0 and stops exactly for results >= 0 (the branch is evaluated for -1, 0, +1). " +
-			"V-notfound — every declared Get of an implementer has a return yielding sorted.ErrNotFound or returns the error of another Get; where Delete compares the error of a backend delete call with a package-level sentinel (memdb.ErrNotFound, mgo.ErrNotFound), every call of that backend function in CommitBatch compares with the same sentinel (existence of the comparison, not its polarity). " +
-			"V-batch-order — clause 'a committed batch applies its sets and deletes in order', as far as the replay code goes, over every non-test implementer of sorted.BatchMutation and every declared CommitBatch of an implementer of sorted.KeyValue: (3) each batch type's Set and Delete either append (x.f = append(x.f, …), also through one helper) to the END of one and the same slice field, or hand the key synchronously (no go statement) to one common object held in a field of the batch (leveldb.Batch, *sql.Tx) at the time they are called; a method that returns the recorded slice returns it or an exact copy; " +
-			"(1) in CommitBatch (and in module helpers that receive the slice, two levels) the recorded slice and every copy of it (slices.Clone, append(nil/empty, s...), make+copy, local variables) is never handed to sort.Sort/Slice/Strings…, slices.Sort/SortFunc/Reverse/Backward, container/heap, rand.Shuffle, never written by index, and never handed to code the analysis cannot follow (undecided); a STABLE sort (sort.SliceStable, sort.Stable, slices.SortStableFunc) is accepted exactly when its comparator, instruction by instruction, reads nothing of a mutation but its key (Mutation.Key() / the struct field Set and Delete record the key into) and calls nothing but strings/bytes/cmp.Compare — mutations of different keys commute, mutations of one key keep their order; unstable sorts and comparators that read the value or the delete flag are violations; " +
-			"(2) every call or non-local store that receives (something derived from) a mutation sits inside ONE loop over the slice whose counter starts at element 0, advances by exactly one and is tested against len(that slice) (range, counted and range-over-int forms): descending counters, ranging over a map filled from the mutations, two passes, a go statement are violations; sub-slices, rebuilt slices, carried or deferred elements and unrecognised loop shapes are undecided; " +
-			"(4) per underlying store (access path of the receiver, for a batch the store BeginBatch was called on) all mutations travel through one channel — direct calls or one batch — so buffer's buf and back each see their mutations in recording order. " +
-			"NOT decided: that any store behaves as a sorted map for a concrete history; that the engines (leveldb.Batch, SQL transaction, kv.DB, memdb, mongo) apply what they are handed in the order they are handed it; atomicity of mongo/memory batches; byte ordering and the merge order of buffer's iterator (only its eof discipline); the semantics of the engines (leveldb, modernc kv, SQL text and collation, mongo queries); start-bound handling; durability across close/reopen; lock-free consistency of iterators returned by buffer.Find; direct kvfile Set/Delete racing with a transaction; whether CheckSizes' limits are the right ones.",
+		Explanation: "Decided (structural necessary conditions, enumerated over every non-test type implementing sorted.KeyValue / sorted.Iterator). " +
+			"HOW THE RULES LOOK AT CODE: every rule that speaks of a function means its EFFECTIVE BODY — the function plus, four levels deep, the unexported functions/methods of its package and the function literals it calls statically (call or defer; not go), a parameter of such a helper standing for the caller's argument and its results for the call's results; exported functions and interface methods are entry points and are never followed. Anchors are resolved by role (the constructor's parameter positions, field types, what an exported entry point returns), not by the names of internal helpers, types or fields. Path rules are decided by an interpreter that walks every path of the entry function with the helpers' bodies in place and the deferred calls run at the exits, and keeps per path what is known about nil-ness/truth of values (from the branches taken, constants, what helpers return), of local flag variables and of struct fields (constant stores); it does not enter a branch whose condition is known, and splits a path at a call of interest into the world where its error is nil and the world where it is not. Locksets: a helper is entered with the locks its caller holds, what it locks or unlocks counts for the caller; a helper that is only ever called statically from its own package is judged in the context of each of its callers, never on its own. " +
+			"V-size — in the effective body of every declared Set, of every batch type's Set and of every CommitBatch that applies recorded mutations, each hand-over of the value (argument of a call that is not followed, other than log/fmt, or store outside the effective body) is reached only in a world where sorted.CheckSizes over that very key and value has succeeded since that key/value was computed (identity of the value followed through conversions, locals, captured variables, varargs, map/struct literals, helper parameters and results; for batches through sorted.Mutation.Key/Value on the same mutation or the struct fields the batch's Set recorded into) — a guard wrapped in an error- or bool-returning helper, a result hoisted into a local or an inverted test are all the same to the interpreter; a batch Set without a guard may only record into the batch object; in the world where CheckSizes failed the function returns a nil error (direct Set) or comes back to the head of the innermost loop around the guard, wherever in the effective body that loop is (batch: continue, not return/break/error); promoted Set/BeginBatch/CommitBatch come from an enumerated implementer or from an embedded interface value; the Key()/Value() methods of the element type that what sorted.NewBatchMutation returns records return the fields its Set recorded into. " +
+			"V-txn — kvfile (every entry function whose effective body calls (*kv.DB).BeginTransaction): the BeginTransaction error is used; every path from the successful begin to an exit passes Commit or Rollback on that DB (a deferred literal or method, with the value its bool flag — captured or passed by address — has on that path); every kv.DB write and the Commit happen only while that transaction is open (not before the begin, not in the world where it failed, not after the end); no path on which a write failed reaches Commit; one mutex is held in write mode at begin, writes, Commit and Rollback. sqlkv.CommitBatch: every path that has a batch with a transaction calls exactly one of tx.Commit/tx.Rollback; Commit only where the batch's sticky error field is known nil; Rollback only where it is known non-nil, and the function then returns a non-nil error; the *sql.Tx that a constructor stores next to the error of the same call is used, on every path of every entry function of package sqlkv, only where that error field is known nil or the pointer known non-nil (field knowledge comes from tests of loads of the field and constant stores on the path; a field is forgotten when it is assigned or its address is handed to an opaque call, not when the object itself is). " +
+			"V-buffer-locks — buffer.KeyValue (buf/back identified by the parameter positions of buffer.New; the store lock is its sync.RWMutex field, the counter lock its sync.Mutex field, the counter its numeric field written by methods): every call on buf/back holds the store lock — write mode in the effective body of Flush, read mode elsewhere, with two reasoned exceptions (the iterators of Find, the terminal back.Close of Close); the counter is read/written only under the counter lock; no mutex is locked while it is already held, be it directly, in a helper or in a sibling method called with it held; Flush commits the delete batch to buf only in the world where committing the copy to back succeeded, each batch to the store it was begun on, and between two advances of the buf iterator a key is deleted from buf's batch only if back.Set(it.Key(), it.Value()) of the same buf iterator happened too; Delete reaches both stores on every path and a batched delete queued for buf is queued for back before the iteration ends; Get calls back.Get only where buf.Get's error was found equal to sorted.ErrNotFound (==, switch, errors.Is, or a predicate helper all of whose returns are such a test). " +
+			"V-iter — the merge iterator (the concrete type buffer.(*KeyValue).Find returns; sub-iterators = its fields of a struct type embedding sorted.Iterator; eof flag = that struct's bool field): on every path of its Next the underlying Next of a sub-iterator is called only where that sub-iterator's flag is known false and, whenever an underlying Next returned false, the flag is true at the return and is never reset; its Close closes both sub-iterators on every path; Close of every sorted.Iterator implementer under pkg/sorted never returns a constant nil (also not through a helper); every iterator obtained from Find inside pkg/sorted is, in the entry function in whose effective body it is obtained, closed on every path or stored/returned; for every declared Find, the end parameter is used as a bound only where end != \"\" is known (a test in the function or in the callers on the way there), or is passed unchanged to another Find, or is stored in an iterator field whose Next compares bytes.Compare(key, end) only under len(end) > 0 and — interpreted for the results -1, 0, +1 — returns false on every path for results >= 0 and true on some path for -1. " +
+			"V-notfound — every declared Get of an implementer has a return yielding sorted.ErrNotFound or returns the error of another Get; where the effective body of Delete compares the error of a backend delete call with a package-level sentinel (memdb.ErrNotFound, mgo.ErrNotFound), every call of that backend function in the effective body of CommitBatch compares with the same sentinel (existence of the comparison — in the same function, in a helper the error is passed to, or in the caller of the helper that returns it — not its polarity). " +
+			"V-batch-order — clause 'a committed batch applies its sets and deletes in order', as far as the replay code goes, over every non-test implementer of sorted.BatchMutation and every declared CommitBatch of an implementer of sorted.KeyValue: (3) in the effective body of each batch type's Set and Delete the key is either appended (x.f = append(x.f, …)) to the END of one and the same slice field of the batch, or handed synchronously (no go statement) to one common object held in a field of the batch (leveldb.Batch, *sql.Tx) at the time they are called; a method that returns the recorded slice returns it or an exact copy; " +
+			"(1) in CommitBatch (and in module functions that receive the slice, four levels) the recorded slice and every copy of it (slices.Clone, append(nil/empty, s...), make+copy, local variables) is never handed to sort.Sort/Slice/Strings…, slices.Sort/SortFunc/Reverse/Backward, container/heap, rand.Shuffle, never written by index, and never handed to code the analysis cannot follow (undecided); a STABLE sort (sort.SliceStable, sort.Stable, slices.SortStableFunc) is accepted exactly when its comparator, instruction by instruction, reads nothing of a mutation but its key (Mutation.Key() / the struct field Set and Delete record the key into) and calls nothing but strings/bytes/cmp.Compare — mutations of different keys commute, mutations of one key keep their order; unstable sorts and comparators that read the value or the delete flag are violations; " +
+			"(2) every call or non-local store that receives (something derived from) a mutation sits inside ONE loop over the slice whose counter starts at element 0, advances by exactly one and is tested against len(that slice) (range, counted and range-over-int forms), or in a helper of the effective body that this loop hands the mutation to (the helper is then examined the same way: no go statement, no defer, no loop of its own around the hand-over): descending counters, ranging over a map filled from the mutations, two passes, a go statement are violations; sub-slices, rebuilt slices, carried or deferred elements and unrecognised loop shapes are undecided; " +
+			"(4) per underlying store (access path, in the entry function's terms, of the receiver; for a batch the store BeginBatch was called on, also when the batch reaches a helper as a parameter or is created and returned by one) all mutations of the effective body travel through one channel — direct calls or one batch — so buffer's buf and back each see their mutations in recording order. " +
+			"NOT decided: that any store behaves as a sorted map for a concrete history; that the engines (leveldb.Batch, SQL transaction, kv.DB, memdb, mongo) apply what they are handed in the order they are handed it; atomicity of mongo/memory batches; byte ordering and the merge order of buffer's iterator (only its eof discipline); the semantics of the engines (leveldb, modernc kv, SQL text and collation, mongo queries); start-bound handling; durability across close/reopen; lock-free consistency of iterators returned by buffer.Find; direct kvfile Set/Delete racing with a transaction; whether CheckSizes' limits are the right ones; helper chains deeper than four calls, recursive helpers, function values and calls through interfaces are not followed (what is handed to them counts as leaving the function); aliasing of struct fields through a second pointer is not modelled by the interpreter.",
 		RuleDocs: map[string]string{
-			"V-size":         "forward value-flow from key/value (parameters, sorted.Mutation accessors, recorded struct fields) to every call/escaping store; each must be success-dominated by CheckSizes on the same key/value; oversize edge returns nil / continues the batch loop",
-			"V-txn":          "path exploration from (*kv.DB).BeginTransaction to exits with constant propagation of the rollback flag; dominance rules on kvfile writes and on sqlkv.CommitBatch's Commit/Rollback; nil-tx use rule",
-			"V-buffer-locks": "must-hold locksets at every buf/back invoke and every access of buffered in pkg/sorted/buffer; self-deadlock rule; Flush order and move agreement; both-store deletes; Get shadowing",
-			"V-notfound":     "every declared Get yields sorted.ErrNotFound on some return or delegates to a Get that does; a backend not-found sentinel that Delete compares the backend's delete error with is compared the same way on the batch path",
-			"V-batch-order":  "forward value-flow of the recorded mutation slice (field loads, Mutations()) and its copies through every CommitBatch: no reordering library call, no index write, stable sorts only with a comparator proven key-only; induction-variable recognition of the single ascending replay loop (start 0, step 1, bound len); every mutation hand-over inside that loop; one channel per underlying store; Set/Delete of every batch type append to the end of one slice or forward synchronously to one engine batch",
-			"V-iter":         "abstract interpretation of buffer.(*iter).Next over the two eof flags; all-paths close of both sub-iterators; Close error propagation of every sorted.Iterator implementer in pkg/sorted; Find/Close pairing inside pkg/sorted; exclusive end-bound comparison in client-side filters",
+			"V-size":         "forward value-flow from key/value (parameters, sorted.Mutation accessors, recorded struct fields) through the effective body to every call that is not followed and every escaping store; path interpretation split at each CheckSizes call: hand-overs only in the world where it succeeded on the same key/value, the failed world returns nil / continues the batch loop",
+			"V-txn":          "path interpretation of the effective body around (*kv.DB).BeginTransaction (begin/write error worlds, rollback flag followed through captured variables and pointer parameters, deferred calls run at the exits); effective locksets; sqlkv.CommitBatch's Commit/Rollback against the path's knowledge of the sticky error field; nil-tx use rule per path of every entry function of sqlkv",
+			"V-buffer-locks": "effective must-hold locksets at every buf/back invoke and every access of the counter in pkg/sorted/buffer, helpers in the context of each caller; relock/self-deadlock rule; Flush order and move agreement, both-store deletes by path interpretation; Get shadowing by the dominating tests of the effective body",
+			"V-notfound":     "every declared Get yields sorted.ErrNotFound on some return or delegates to a Get that does; a backend not-found sentinel that Delete compares the backend's delete error with is compared the same way in the effective body of the batch path",
+			"V-batch-order":  "forward value-flow of the recorded mutation slice (field loads, Mutations()) and its copies through every CommitBatch and the functions it hands the slice or single mutations to: no reordering library call, no index write, stable sorts only with a comparator proven key-only; induction-variable recognition of the single ascending replay loop (start 0, step 1, bound len); every mutation hand-over inside that loop or in a helper it calls; one channel per underlying store; Set/Delete of every batch type append to the end of one slice or forward synchronously to one engine batch",
+			"V-iter":         "path interpretation of the merge iterator's Next over the eof flags (fields followed through helper receivers) and the results of the underlying Next calls; all-paths close of both sub-iterators; Close error propagation of every sorted.Iterator implementer in pkg/sorted; Find/Close pairing per entry function inside pkg/sorted; exclusive end-bound comparison in client-side filters interpreted for -1/0/+1",
 		},
 		Run:       runC10,
 		DesignRef: "DESIGN.md §4 C10",
-		Technique: "static analysis: forward value-flow + dominance on the CheckSizes success edge, CFG path exploration with flag constant propagation (transactions), must-hold locksets, small abstract interpretation of the merge iterator, sibling comparison over all implementers of sorted.KeyValue/sorted.Iterator/sorted.BatchMutation, forward value-flow of the recorded batch slice with induction-variable recognition of the replay loop and instruction-level whitelisting of sort comparators",
-		LevelText: "Decides structural necessary conditions only: all implementations skip oversize keys/values the same way on the direct and the batch path, kvfile/sqlkv batches end in exactly one of commit/rollback and never commit after a failed write, the write buffer's lock discipline, flush order and double deletes, iterator close/eof/end-bound agreement, and that every batch implementation records mutations at the end of one sequence (or forwards them at once to one engine batch) and every CommitBatch replays that sequence once, first to last, without reordering it (stable key-only sorts excepted) and through one channel per underlying store. Does not decide that any store actually behaves as a sorted map for a concrete history, nor ordering, durability or the storage engines themselves.",
+		Technique: "static analysis over effective bodies (a function with the unexported same-package helpers and literals it calls, parameters mapped to arguments): interprocedural forward value-flow; a path interpreter with helper bodies in place, deferred calls at the exits, per-path knowledge of nil-ness/truth of values, flag variables and struct fields, and world-splitting on the error of selected calls (size guard, transactions, flush order, merge iterator, end bound); effective must-hold locksets; sibling comparison over all implementers of sorted.KeyValue/sorted.Iterator/sorted.BatchMutation; forward value-flow of the recorded batch slice with induction-variable recognition of the replay loop and instruction-level whitelisting of sort comparators",
+		LevelText: "Decides structural necessary conditions only: all implementations skip oversize keys/values the same way on the direct and the batch path, kvfile/sqlkv batches end in exactly one of commit/rollback and never commit after a failed write, the write buffer's lock discipline, flush order and double deletes, iterator close/eof/end-bound agreement, and that every batch implementation records mutations at the end of one sequence (or forwards them at once to one engine batch) and every CommitBatch replays that sequence once, first to last, without reordering it (stable key-only sorts excepted) and through one channel per underlying store. All of it is judged on effective bodies (a function together with the unexported helpers and literals it calls) and, where paths matter, by interpreting those paths, so moving code into or out of helpers, reshaping branches or renaming internals does not change a verdict. Does not decide that any store actually behaves as a sorted map for a concrete history, nor ordering, durability or the storage engines themselves.",
 	})
 }
 
@@ -46,6 +48,9 @@ const c10SortedPath = "perkeep.org/pkg/sorted"
 func runC10(p *Program, r *Reporter) {
 	t0 := time.Now()
 	defer func() { r.Note("C10 rules took %.2fs after loading", time.Since(t0).Seconds()) }()
+	// memo tables are per program: do not keep a loaded program alive after the run
+	c10ReachCache = map[*ssa.Function][][]bool{}
+	defer func() { c10ReachCache = map[*ssa.Function][][]bool{} }()
 	r.Analysed("functions", len(p.FuncsUnder("pkg/sorted")))
 	c10RuleSize(p, r)
 	c10RuleTxn(p, r)
@@ -56,22 +61,1374 @@ func runC10(p *Program, r *Reporter) {
 }
 
 // ===========================================================================
-// forward value-flow ("taint") of keys and values inside one function
+// Effective bodies
+//
+// Every C10 rule that looks for something "in function F" looks in F's
+// EFFECTIVE BODY: F plus, transitively (c10MaxDepth levels), the unexported
+// functions/methods of the same package and the function literals that F
+// calls statically (call or defer; not go). A c10Frame is one activation in
+// that tree; a parameter of a helper stands for the caller's argument
+// (c10Res), and the path interpreter below (c10Walk) executes helper bodies
+// in place, so that ordering, dominance and lock facts carry across calls.
+// Extracting a block into a helper, splitting a function, turning a literal
+// into a method — or the reverse, inlining a helper — therefore leaves what
+// the rules see unchanged. Exported functions and interface methods are never
+// followed: they are entry points with a contract of their own.
 
-// c10Flow propagates labels ("K:<id>" / "V:<id>") from source values to every
-// value derived from them inside fn, through conversions, phis, loads/stores
-// of function-local memory (complits, varargs arrays, spilled variables),
-// map literals and call results. It records where a labelled value leaves the
-// function: as a call argument (sink) or by a store into non-local memory.
-type c10Flow struct {
-	fn      *ssa.Function
-	lab     map[ssa.Value]map[string]bool
-	work    []ssa.Value
-	sinks   []*c10Sink
-	bySink  map[ssa.Instruction]*c10Sink
-	escapes []string // labelled value captured by a closure etc.: cannot follow
+const c10MaxDepth = 4
+
+type c10Frame struct {
+	fn     *ssa.Function
+	parent *c10Frame
+	site   ssa.CallInstruction // the call/defer in parent.fn that enters fn; nil for roots
+	depth  int
+	kids   map[ssa.CallInstruction]*c10Frame
+	// helper calls that were not followed because of the depth limit or recursion (root only)
+	refused []string
+}
+
+func c10NewRoot(fn *ssa.Function) *c10Frame {
+	return &c10Frame{fn: fn, kids: map[ssa.CallInstruction]*c10Frame{}}
+}
+
+func (fr *c10Frame) rootFrame() *c10Frame {
+	for fr.parent != nil {
+		fr = fr.parent
+	}
+	return fr
+}
+
+// c10IsHelper: f is part of the effective body of a function of from's
+// package when called statically: a function literal, or an unexported
+// declared function/method of the same package.
+func c10IsHelper(from, f *ssa.Function) bool {
+	if f == nil || from == nil || len(f.Blocks) == 0 || f.Synthetic != "" {
+		return false
+	}
+	top := TopFunc(f)
+	if top.Pkg == nil || top.Pkg != TopFunc(from).Pkg {
+		return false
+	}
+	if f.Parent() != nil {
+		return true
+	}
+	return !token.IsExported(f.Name())
+}
+
+// child returns the frame of the helper that call instruction ci (of fr.fn)
+// enters, or nil when the callee is not part of the effective body.
+func (fr *c10Frame) child(ci ssa.CallInstruction) *c10Frame {
+	if k, ok := fr.kids[ci]; ok {
+		return k
+	}
+	var k *c10Frame
+	if _, isGo := ci.(*ssa.Go); !isGo {
+		f := CallSite{fr.fn, ci}.Callee()
+		if cc := ci.Common(); f == nil && !cc.IsInvoke() {
+			// the callee is a function value: a literal (or declared function) the caller passed down to this helper
+			switch x := c10Res(fr, cc.Value).v.(type) {
+			case *ssa.MakeClosure:
+				f, _ = x.Fn.(*ssa.Function)
+			case *ssa.Function:
+				f = x
+			}
+		}
+		if c10IsHelper(fr.fn, f) {
+			rec := false
+			for a := fr; a != nil; a = a.parent {
+				if a.fn == f {
+					rec = true
+				}
+			}
+			if !rec && fr.depth < c10MaxDepth {
+				k = &c10Frame{fn: f, parent: fr, site: ci, depth: fr.depth + 1, kids: map[ssa.CallInstruction]*c10Frame{}}
+			} else {
+				r := fr.rootFrame()
+				r.refused = append(r.refused, FuncKey(f))
+			}
+		}
+	}
+	fr.kids[ci] = k
+	return k
+}
+
+// frameOf returns fr or the nearest ancestor that is an activation of f.
+func (fr *c10Frame) frameOf(f *ssa.Function) *c10Frame {
+	for a := fr; a != nil; a = a.parent {
+		if a.fn == f {
+			return a
+		}
+	}
+	return nil
+}
+
+func c10ValueFn(v ssa.Value) *ssa.Function {
+	switch x := v.(type) {
+	case *ssa.Parameter:
+		return x.Parent()
+	case *ssa.FreeVar:
+		return x.Parent()
+	case ssa.Instruction:
+		return x.Parent()
+	}
+	return nil
+}
+
+// frameFor: the frame (fr or an ancestor) value v lives in; fr itself when unknown.
+func (fr *c10Frame) frameFor(v ssa.Value) *c10Frame {
+	if fr == nil {
+		return nil
+	}
+	if f := c10ValueFn(v); f != nil {
+		if a := fr.frameOf(f); a != nil {
+			return a
+		}
+	}
+	return fr
+}
+
+// argFor maps a parameter of a helper activation to the caller's argument.
+func (fr *c10Frame) argFor(p *ssa.Parameter) (*c10Frame, ssa.Value, bool) {
+	if fr == nil {
+		return nil, nil, false
+	}
+	a := fr.frameOf(p.Parent())
+	if a == nil || a.site == nil || a.parent == nil {
+		return nil, nil, false
+	}
+	args := CallSite{a.parent.fn, a.site}.Args()
+	for i, q := range a.fn.Params {
+		if q == p && i < len(args) {
+			return a.parent, args[i], true
+		}
+	}
+	return nil, nil, false
+}
+
+// c10EV is a value in an activation.
+type c10EV struct {
+	fr *c10Frame
+	v  ssa.Value
+}
+
+// c10Res resolves v (in frame fr) through conversions, single-assignment
+// variables and helper parameters to the value it stands for in the
+// outermost activation that defines it.
+func c10Res(fr *c10Frame, v ssa.Value) c10EV {
+	for i := 0; i < 24 && v != nil; i++ {
+		v = originValue(v)
+		p, ok := v.(*ssa.Parameter)
+		if !ok {
+			break
+		}
+		pf, a, ok := fr.argFor(p)
+		if !ok {
+			break
+		}
+		fr, v = pf, a
+	}
+	return c10EV{fr.frameFor(v), v}
+}
+
+// c10Ident is c10Res that also looks through a struct variable that is
+// assigned exactly once as a whole (a by-value parameter or range variable
+// whose fields are read through its address): the identity of the variable
+// is the identity of the value it was given.
+func c10Ident(fr *c10Frame, v ssa.Value) c10EV {
+	e := c10Res(fr, v)
+	for i := 0; i < 4; i++ {
+		if ld, isLoad := e.v.(*ssa.UnOp); isLoad && ld.Op == token.MUL {
+			// the whole variable read back (passed by value to a helper)
+			if al, ok := ld.X.(*ssa.Alloc); ok {
+				e = c10EV{e.fr.frameFor(al), al}
+			}
+		}
+		al, ok := e.v.(*ssa.Alloc)
+		if !ok {
+			break
+		}
+		sts := storesTo(al)
+		if len(sts) != 1 {
+			break
+		}
+		e = c10Res(e.fr.frameFor(sts[0].Val), sts[0].Val)
+	}
+	return e
+}
+
+// c10Same: two values of (possibly different) activations denote the same run-time value.
+func c10Same(a, b c10EV) bool {
+	ra, rb := c10Res(a.fr, a.v), c10Res(b.fr, b.v)
+	if ra.v == rb.v {
+		return ra.fr == rb.fr || ra.fr == nil || rb.fr == nil || c10ValueFn(ra.v) == nil
+	}
+	return ra.fr == rb.fr && sameOrigin(ra.v, rb.v)
+}
+
+// c10PathOf renders the access path of v in the terms of the ROOT activation
+// (like AccessPath, but parameters of helpers are replaced by the arguments).
+func c10PathOf(fr *c10Frame, v ssa.Value) string { return c10PathOfD(fr, v, 0) }
+
+func c10PathOfD(fr *c10Frame, v ssa.Value, depth int) string {
+	if depth > 24 || v == nil {
+		return uniquePath(v)
+	}
+	strip := func(s string) string {
+		if strings.HasPrefix(s, "&") {
+			return s[1:]
+		}
+		return "*" + s
+	}
+	switch x := v.(type) {
+	case *ssa.Parameter:
+		if pf, a, ok := fr.argFor(x); ok {
+			return c10PathOfD(pf, a, depth+1)
+		}
+		return x.Name()
+	case *ssa.FreeVar:
+		if b := bindingOf(x); b != nil {
+			return c10PathOfD(fr.frameFor(b), b, depth+1)
+		}
+		return "&" + x.Name()
+	case *ssa.UnOp:
+		if x.Op == token.MUL {
+			// a spilled parameter (captured by a literal) stands for the parameter
+			if o := originValue(x); o != ssa.Value(x) {
+				if p, ok := o.(*ssa.Parameter); ok {
+					return c10PathOfD(fr.frameFor(p), p, depth+1)
+				}
+			}
+			return strip(c10PathOfD(fr, x.X, depth+1))
+		}
+	case *ssa.FieldAddr:
+		base := c10PathOfD(fr, x.X, depth+1)
+		if strings.HasPrefix(base, "&") {
+			base = base[1:]
+		}
+		return "&" + base + "." + fieldName(x.X.Type(), x.Field)
+	case *ssa.Field:
+		return c10PathOfD(fr, x.X, depth+1) + "." + fieldName(x.X.Type(), x.Field)
+	case *ssa.IndexAddr:
+		base := c10PathOfD(fr, x.X, depth+1)
+		if strings.HasPrefix(base, "&") {
+			base = base[1:]
+		}
+		return "&" + base + "[]"
+	case *ssa.ChangeType:
+		return c10PathOfD(fr, x.X, depth+1)
+	case *ssa.MakeInterface:
+		return c10PathOfD(fr, x.X, depth+1)
+	case *ssa.ChangeInterface:
+		return c10PathOfD(fr, x.X, depth+1)
+	case *ssa.Phi:
+		if o := originValue(x); o != ssa.Value(x) {
+			return c10PathOfD(fr.frameFor(o), o, depth+1)
+		}
+	}
+	return AccessPath(v)
+}
+
+// c10EachInstr visits every instruction of the effective body of root
+// (helpers once per call site that enters them).
+func c10EachInstr(fr *c10Frame, visit func(fr *c10Frame, in ssa.Instruction)) {
+	for _, b := range fr.fn.Blocks {
+		if b == fr.fn.Recover {
+			continue
+		}
+		for _, in := range b.Instrs {
+			visit(fr, in)
+			if ci, ok := in.(ssa.CallInstruction); ok {
+				if k := fr.child(ci); k != nil {
+					c10EachInstr(k, visit)
+				}
+			}
+		}
+	}
+}
+
+// c10ECall is a call in an activation.
+type c10ECall struct {
+	fr *c10Frame
+	CallSite
+}
+
+// c10EffCalls lists the calls of the effective body of root, including the
+// calls that enter helpers (followed == true for those).
+func c10EffCalls(root *c10Frame) []c10ECall {
+	var out []c10ECall
+	c10EachInstr(root, func(fr *c10Frame, in ssa.Instruction) {
+		if ci, ok := in.(ssa.CallInstruction); ok {
+			out = append(out, c10ECall{fr, CallSite{fr.fn, ci}})
+		}
+	})
+	return out
+}
+
+func (c c10ECall) followed() bool { return c.fr.child(c.Instr) != nil }
+
+// c10PureHelper: fn is only ever entered through static calls from its own
+// package (never exported, never used as a value, never the target of an
+// interface call): rules that look at every function of a package analyse it
+// in the context of its callers instead of on its own.
+func c10PureHelper(p *Program, fn *ssa.Function) bool {
+	if fn.Parent() != nil || !c10IsHelper(fn, fn) {
+		return false
+	}
+	callers := p.StaticCallers(fn)
+	if len(callers) == 0 || len(p.FuncValueUses(fn)) > 0 {
+		return false
+	}
+	for _, c := range callers {
+		if c.IsGo() || TopFunc(c.Fn).Pkg != fn.Pkg {
+			return false
+		}
+	}
+	if fn.Signature.Recv() != nil && len(p.InvokeSites(fn)) > 0 {
+		return false
+	}
+	return true
+}
+
+// c10Roots returns the activations from which the functions fns (one
+// package) are analysed: every declared function that is not a pure helper,
+// plus — as contexts of their own, nothing known about their callers — the
+// functions no such root reaches (function literals handed to someone else or
+// started with go, helpers beyond the depth limit).
+func c10Roots(p *Program, fns []*ssa.Function) []*c10Frame {
+	var roots []*c10Frame
+	entered := map[*ssa.Function]bool{}
+	add := func(fn *ssa.Function) {
+		rt := c10NewRoot(fn)
+		roots = append(roots, rt)
+		c10EachInstr(rt, func(fr *c10Frame, in ssa.Instruction) { entered[fr.fn] = true })
+	}
+	for _, fn := range fns {
+		if fn.Parent() == nil && len(fn.Blocks) > 0 && !c10PureHelper(p, fn) {
+			add(fn)
+		}
+	}
+	for _, fn := range fns {
+		if !entered[fn] && len(fn.Blocks) > 0 {
+			add(fn)
+		}
+	}
+	return roots
+}
+
+// ---------------------------------------------------------------------------
+// c10Walk: a small path interpreter over the effective body
+//
+// It explores the paths of the root function instruction by instruction,
+// entering helpers at their call sites and running deferred calls at the
+// exits, and keeps per path what is known about nil-ness/truth of SSA values
+// (learned from the branches taken, from constants, from what helpers
+// return) and of local variables and struct fields (constant stores). Branches
+// whose condition is known are not explored. Rules hook in through Visit
+// (every instruction, in execution order), Fork (split a path into the
+// err==nil / err!=nil worlds of a call) and Exit (the root returns).
+
+type c10K int8
+
+const (
+	c10Unk     c10K = 0
+	c10Zero    c10K = 1 // nil / false
+	c10NonZero c10K = 2 // non-nil / true
+)
+
+func (k c10K) inv() c10K {
+	switch k {
+	case c10Zero:
+		return c10NonZero
+	case c10NonZero:
+		return c10Zero
+	}
+	return c10Unk
+}
+
+type c10Ev struct {
+	fr  *c10Frame
+	in  ssa.Instruction
+	run bool // in is a *ssa.Defer whose call runs now (at the exit of fr.fn)
+}
+
+// A c10Cell is a variable or a (nested) field of one: base is the *ssa.Alloc /
+// *ssa.Global of the variable, or the resolved pointer to the struct; path is
+// the chain of field indices ("" for the variable itself, "1", "1.2", ...).
+type c10Cell struct {
+	base ssa.Value
+	path string
+}
+
+func c10FieldCell(base ssa.Value, idx ...int) c10Cell {
+	var parts []string
+	for _, i := range idx {
+		parts = append(parts, fmt.Sprint(i))
+	}
+	return c10Cell{base, strings.Join(parts, ".")}
+}
+
+// covers: a store to cell c overwrites cell d (d is c or a field inside c).
+func (c c10Cell) covers(d c10Cell) bool {
+	return c.base == d.base && (c.path == "" || c.path == d.path || strings.HasPrefix(d.path, c.path+"."))
+}
+
+type c10Cont struct {
+	fr   *c10Frame
+	b    *ssa.BasicBlock
+	i    int
+	site ssa.CallInstruction // the call whose callee is running; nil for a deferred-calls marker
+	defs []*ssa.Defer        // marker: deferred calls of fr still to run, next first
+}
+
+type c10Def struct {
+	fr *c10Frame
+	d  *ssa.Defer
+}
+
+type c10Path[S any] struct {
+	w      *c10Walk[S]
+	fr     *c10Frame
+	b      *ssa.BasicBlock
+	i      int
+	stack  []c10Cont
+	defers []c10Def
+	known  map[ssa.Value]c10K
+	tuple  map[*ssa.Call][]c10K
+	mem    map[c10Cell]c10K
+	memV   map[c10Cell]c10EV
+	src    map[ssa.Value]c10EV
+	ints   map[ssa.Value]int64 // integer results a rule has assumed (Post hook)
+	St     S
+}
+
+type c10Walk[S any] struct {
+	Clone func(S) S
+	Key   func(S) string
+	// Visit sees every instruction before it takes effect; true ends the path.
+	Visit func(p *c10Path[S], ev c10Ev) bool
+	// Fork may name a value (defined by ev.in) on whose nil-ness/truth the path
+	// is split in two; Forked is then called on each copy.
+	Fork   func(p *c10Path[S], ev c10Ev) ssa.Value
+	Forked func(p *c10Path[S], ev c10Ev, k c10K)
+	// Post runs after the instruction has taken effect (a rule may record an
+	// assumption about the value it defines in p.ints).
+	Post func(p *c10Path[S], ev c10Ev)
+	// Exit: the root function returns (in is the *ssa.Return) or, with Panics, panics.
+	Exit     func(p *c10Path[S], fr *c10Frame, in ssa.Instruction)
+	NoFollow func(fr *c10Frame, ci ssa.CallInstruction) bool
+	Panics   bool
+	Max      int
+	Overflow bool
+	seen     map[string]bool
+	n        int
+}
+
+func (p *c10Path[S]) clone() *c10Path[S] {
+	o := *p
+	o.stack = make([]c10Cont, len(p.stack))
+	for i, c := range p.stack {
+		c.defs = append([]*ssa.Defer(nil), c.defs...)
+		o.stack[i] = c
+	}
+	o.defers = append([]c10Def(nil), p.defers...)
+	o.known = make(map[ssa.Value]c10K, len(p.known))
+	for k, v := range p.known {
+		o.known[k] = v
+	}
+	o.tuple = make(map[*ssa.Call][]c10K, len(p.tuple))
+	for k, v := range p.tuple {
+		o.tuple[k] = v
+	}
+	o.mem = make(map[c10Cell]c10K, len(p.mem))
+	for k, v := range p.mem {
+		o.mem[k] = v
+	}
+	o.memV = make(map[c10Cell]c10EV, len(p.memV))
+	for k, v := range p.memV {
+		o.memV[k] = v
+	}
+	o.src = make(map[ssa.Value]c10EV, len(p.src))
+	for k, v := range p.src {
+		o.src[k] = v
+	}
+	o.ints = make(map[ssa.Value]int64, len(p.ints))
+	for k, v := range p.ints {
+		o.ints[k] = v
+	}
+	if p.w.Clone != nil {
+		o.St = p.w.Clone(p.St)
+	}
+	return &o
+}
+
+func (p *c10Path[S]) key() string {
+	var sb strings.Builder
+	for a := p.fr; a != nil; a = a.parent {
+		fmt.Fprintf(&sb, "%p/", a)
+	}
+	fmt.Fprintf(&sb, "b%d|", p.b.Index)
+	for _, c := range p.stack {
+		fmt.Fprintf(&sb, "%p:%d:%d:%d;", c.fr, c.b.Index, c.i, len(c.defs))
+	}
+	sb.WriteString("|")
+	for _, d := range p.defers {
+		fmt.Fprintf(&sb, "%p;", d.d)
+	}
+	var parts []string
+	for v, k := range p.known {
+		parts = append(parts, fmt.Sprintf("%p=%d", v, k))
+	}
+	for c, t := range p.tuple {
+		parts = append(parts, fmt.Sprintf("t%p=%v", c, t))
+	}
+	for c, k := range p.mem {
+		parts = append(parts, fmt.Sprintf("m%p.%s=%d", c.base, c.path, k))
+	}
+	for v, k := range p.ints {
+		parts = append(parts, fmt.Sprintf("i%p=%d", v, k))
+	}
+	sort.Strings(parts)
+	sb.WriteString("|")
+	sb.WriteString(strings.Join(parts, ","))
+	if p.w.Key != nil {
+		sb.WriteString("|")
+		sb.WriteString(p.w.Key(p.St))
+	}
+	return sb.String()
+}
+
+func c10Nilable(t types.Type) bool {
+	switch t.Underlying().(type) {
+	case *types.Pointer, *types.Interface, *types.Slice, *types.Map, *types.Chan, *types.Signature:
+		return true
+	}
+	return false
+}
+
+func c10IsBool(t types.Type) bool {
+	b, ok := t.Underlying().(*types.Basic)
+	return ok && b.Info()&types.IsBoolean != 0
+}
+
+// cell resolves an address to the variable or (nested) struct field it
+// denotes; field chains are followed through helper parameters (a helper
+// working on &it.buf sees the caller's it.buf).
+func (p *c10Path[S]) cell(fr *c10Frame, addr ssa.Value) (c10Cell, bool) {
+	var idx []int
+	for i := 0; i < 24 && addr != nil; i++ {
+		switch x := addr.(type) {
+		case *ssa.Alloc:
+			return c10FieldCell(x, idx...), true
+		case *ssa.Global:
+			return c10FieldCell(x, idx...), true
+		case *ssa.FreeVar:
+			b := bindingOf(x)
+			if b == nil {
+				return c10Cell{}, false
+			}
+			fr, addr = fr.frameFor(b), b
+		case *ssa.Parameter:
+			pf, a, ok := fr.argFor(x)
+			if !ok {
+				if len(idx) == 0 {
+					return c10Cell{}, false
+				}
+				return c10FieldCell(x, idx...), true
+			}
+			fr, addr = pf, a
+		case *ssa.FieldAddr:
+			idx = append([]int{x.Field}, idx...)
+			addr = x.X
+		case *ssa.ChangeType:
+			addr = x.X
+		case *ssa.Phi:
+			o := originValue(x)
+			if o == ssa.Value(x) {
+				if len(idx) == 0 {
+					return c10Cell{}, false
+				}
+				return c10FieldCell(x, idx...), true
+			}
+			fr, addr = fr.frameFor(o), o
+		case *ssa.UnOp:
+			if x.Op == token.MUL {
+				if o := originValue(x); o != ssa.Value(x) {
+					fr, addr = fr.frameFor(o), o
+					continue
+				}
+			}
+			if len(idx) == 0 {
+				return c10Cell{}, false
+			}
+			return c10FieldCell(x, idx...), true
+		default:
+			if o := originValue(addr); o != addr {
+				fr, addr = fr.frameFor(o), o
+				continue
+			}
+			// a pointer of unknown provenance: its fields are cells of that pointer value
+			if len(idx) == 0 {
+				return c10Cell{}, false
+			}
+			return c10FieldCell(addr, idx...), true
+		}
+	}
+	return c10Cell{}, false
+}
+
+// store: cell c is overwritten; what was known about it and the fields inside it is void.
+func (p *c10Path[S]) kill(c c10Cell) {
+	for d := range p.mem {
+		if c.covers(d) {
+			delete(p.mem, d)
+		}
+	}
+	for d := range p.memV {
+		if c.covers(d) {
+			delete(p.memV, d)
+		}
+	}
+}
+
+// Eval: what this path knows about v (nil-ness of pointers/interfaces, truth of booleans).
+func (p *c10Path[S]) Eval(fr *c10Frame, v ssa.Value) c10K { return p.eval(fr, v, 0) }
+
+func (p *c10Path[S]) eval(fr *c10Frame, v ssa.Value, d int) c10K {
+	if v == nil || d > 12 {
+		return c10Unk
+	}
+	switch x := v.(type) {
+	case *ssa.Const:
+		if x.Value == nil {
+			if c10Nilable(x.Type()) {
+				return c10Zero
+			}
+			return c10Unk
+		}
+		if x.Value.Kind() == constant.Bool {
+			if constant.BoolVal(x.Value) {
+				return c10NonZero
+			}
+			return c10Zero
+		}
+		return c10Unk
+	case *ssa.Parameter:
+		if pf, a, ok := fr.argFor(x); ok {
+			return p.eval(pf, a, d+1)
+		}
+	}
+	if k := p.known[v]; k != c10Unk {
+		return k
+	}
+	switch x := v.(type) {
+	case *ssa.UnOp:
+		switch x.Op {
+		case token.NOT:
+			return p.eval(fr, x.X, d+1).inv()
+		case token.MUL:
+			if c, ok := p.cell(fr, x.X); ok {
+				if k := p.mem[c]; k != c10Unk {
+					return k
+				}
+				if sv, ok := p.memV[c]; ok {
+					return p.eval(sv.fr, sv.v, d+1)
+				}
+				if _, tracked := p.mem[c]; tracked {
+					return c10Unk
+				}
+			}
+			if o := originValue(x); o != ssa.Value(x) {
+				return p.eval(fr.frameFor(o), o, d+1)
+			}
+		}
+	case *ssa.BinOp:
+		if len(p.ints) > 0 {
+			if res, ok := p.intCmp(x); ok {
+				if res {
+					return c10NonZero
+				}
+				return c10Zero
+			}
+		}
+		if x.Op == token.EQL || x.Op == token.NEQ {
+			eq := c10Unk
+			switch {
+			case IsNilConst(x.Y):
+				eq = p.eval(fr, x.X, d+1)
+			case IsNilConst(x.X):
+				eq = p.eval(fr, x.Y, d+1)
+			case c10IsBool(x.X.Type()):
+				kx, ky := p.eval(fr, x.X, d+1), p.eval(fr, x.Y, d+1)
+				if kx != c10Unk && ky != c10Unk {
+					eq = c10NonZero
+					if kx == ky {
+						eq = c10Zero
+					}
+				}
+			}
+			// eq == c10Zero means "operands equal"
+			if eq == c10Unk {
+				return c10Unk
+			}
+			if (eq == c10Zero) == (x.Op == token.EQL) {
+				return c10NonZero
+			}
+			return c10Zero
+		}
+	case *ssa.ChangeType:
+		return p.eval(fr, x.X, d+1)
+	case *ssa.ChangeInterface:
+		return p.eval(fr, x.X, d+1)
+	case *ssa.MakeInterface, *ssa.Alloc, *ssa.FieldAddr, *ssa.IndexAddr, *ssa.MakeClosure, *ssa.MakeMap, *ssa.MakeChan, *ssa.Function, *ssa.Global:
+		return c10NonZero
+	case *ssa.Call:
+		if isErrorType(x.Type()) && isNonNilErrorExpr(x) {
+			return c10NonZero
+		}
+	case *ssa.Phi:
+		var all c10K
+		for _, e := range x.Edges {
+			if e == ssa.Value(x) {
+				continue
+			}
+			k := p.eval(fr, e, d+1)
+			if k == c10Unk || all != c10Unk && k != all {
+				all = c10Unk
+				break
+			}
+			all = k
+		}
+		if all != c10Unk {
+			return all
+		}
+	}
+	if sv, ok := p.src[v]; ok && sv.v != v {
+		return p.eval(sv.fr, sv.v, d+1)
+	}
+	return c10Unk
+}
+
+// intCmp evaluates a comparison one side of which is an assumed integer and the other a constant.
+func (p *c10Path[S]) intCmp(x *ssa.BinOp) (res, ok bool) {
+	if a, okA := p.ints[x.X]; okA {
+		if c, okC := ConstInt(x.Y); okC {
+			return c10EvalCmp(x.Op, a, c)
+		}
+	}
+	if b, okB := p.ints[x.Y]; okB {
+		if c, okC := ConstInt(x.X); okC {
+			return c10EvalCmp(x.Op, c, b)
+		}
+	}
+	return false, false
+}
+
+// Learn records that v is nil/false (c10Zero) or non-nil/true on this path,
+// and what follows from that for the values v was computed from.
+func (p *c10Path[S]) Learn(fr *c10Frame, v ssa.Value, k c10K) { p.learn(fr, v, k, 0) }
+
+func (p *c10Path[S]) learn(fr *c10Frame, v ssa.Value, k c10K, d int) {
+	if v == nil || k == c10Unk || d > 10 {
+		return
+	}
+	switch x := v.(type) {
+	case *ssa.Const:
+		return
+	case *ssa.Parameter:
+		if pf, a, ok := fr.argFor(x); ok {
+			p.learn(pf, a, k, d+1)
+			return
+		}
+	}
+	p.known[v] = k
+	switch x := v.(type) {
+	case *ssa.UnOp:
+		switch x.Op {
+		case token.NOT:
+			p.learn(fr, x.X, k.inv(), d+1)
+		case token.MUL:
+			if c, ok := p.cell(fr, x.X); ok {
+				p.mem[c] = k
+			}
+		}
+	case *ssa.BinOp:
+		if x.Op == token.EQL || x.Op == token.NEQ {
+			equal := (k == c10NonZero) == (x.Op == token.EQL)
+			ek := c10NonZero
+			if equal {
+				ek = c10Zero
+			}
+			switch {
+			case IsNilConst(x.Y):
+				p.learn(fr, x.X, ek, d+1)
+			case IsNilConst(x.X):
+				p.learn(fr, x.Y, ek, d+1)
+			case c10IsBool(x.X.Type()):
+				if ky := p.eval(fr, x.Y, 0); ky != c10Unk {
+					if equal {
+						p.learn(fr, x.X, ky, d+1)
+					} else {
+						p.learn(fr, x.X, ky.inv(), d+1)
+					}
+				} else if kx := p.eval(fr, x.X, 0); kx != c10Unk {
+					if equal {
+						p.learn(fr, x.Y, kx, d+1)
+					} else {
+						p.learn(fr, x.Y, kx.inv(), d+1)
+					}
+				}
+			}
+		}
+	case *ssa.ChangeType:
+		p.learn(fr, x.X, k, d+1)
+	case *ssa.ChangeInterface:
+		p.learn(fr, x.X, k, d+1)
+	}
+	if sv, ok := p.src[v]; ok && sv.v != v {
+		p.learn(sv.fr, sv.v, k, d+1)
+	}
+}
+
+func (p *c10Path[S]) forget(v ssa.Value) {
+	delete(p.known, v)
+	delete(p.src, v)
+	delete(p.ints, v)
+	if c, ok := v.(*ssa.Call); ok {
+		delete(p.tuple, c)
+	}
+}
+
+// effects applies what instruction in does to the path's knowledge.
+func (p *c10Path[S]) effects(fr *c10Frame, in ssa.Instruction) {
+	if v, ok := in.(ssa.Value); ok {
+		if _, isPhi := in.(*ssa.Phi); !isPhi {
+			p.forget(v)
+		}
+	}
+	switch x := in.(type) {
+	case *ssa.Alloc:
+		c := c10Cell{x, ""}
+		p.kill(c)
+		t := x.Type().(*types.Pointer).Elem()
+		if c10Nilable(t) || c10IsBool(t) {
+			p.mem[c] = c10Zero
+		} else if st, ok := t.Underlying().(*types.Struct); ok {
+			// a fresh struct: its fields are zero
+			for i := 0; i < st.NumFields(); i++ {
+				if ft := st.Field(i).Type(); c10Nilable(ft) || c10IsBool(ft) {
+					p.mem[c10FieldCell(x, i)] = c10Zero
+				}
+			}
+		}
+	case *ssa.Store:
+		if c, ok := p.cell(fr, x.Addr); ok {
+			p.kill(c)
+			t := x.Val.Type()
+			if c10Nilable(t) || c10IsBool(t) {
+				p.mem[c] = p.eval(fr, x.Val, 0)
+				p.memV[c] = c10EV{fr, x.Val}
+			}
+		}
+	case *ssa.UnOp:
+		if x.Op == token.MUL {
+			if c, ok := p.cell(fr, x.X); ok {
+				if k, tracked := p.mem[c]; tracked {
+					if k != c10Unk {
+						p.known[x] = k
+					}
+					if sv, ok := p.memV[c]; ok {
+						p.src[x] = sv
+					}
+				}
+			}
+		}
+	case *ssa.Extract:
+		if c, ok := x.Tuple.(*ssa.Call); ok {
+			if t := p.tuple[c]; x.Index < len(t) && t[x.Index] != c10Unk {
+				p.known[x] = t[x.Index]
+			}
+		}
+	}
+}
+
+// clobber: an opaque call may write through the addresses it is given.
+func (p *c10Path[S]) clobber(fr *c10Frame, ci ssa.CallInstruction) {
+	c := CallSite{fr.fn, ci}
+	for _, a := range c.Args() {
+		if _, isPtr := a.Type().Underlying().(*types.Pointer); isPtr {
+			if cl, ok := p.cell(fr, a); ok {
+				p.kill(cl)
+			}
+		}
+		if mc, ok := originValue(a).(*ssa.MakeClosure); ok {
+			for _, b := range mc.Bindings {
+				if cl, ok := p.cell(fr, b); ok {
+					p.kill(cl)
+				}
+			}
+		}
+	}
+}
+
+// prune drops knowledge that cannot matter any more: values of functions
+// that are not active, and values of the current function without a use
+// reachable from block b.
+func (p *c10Path[S]) prune() {
+	active := map[*ssa.Function]bool{}
+	for a := p.fr; a != nil; a = a.parent {
+		active[a.fn] = true
+		for f := a.fn.Parent(); f != nil; f = f.Parent() {
+			active[f] = true
+		}
+	}
+	reach := c10Reach(p.fr.fn)
+	live := func(v ssa.Value) bool {
+		f := c10ValueFn(v)
+		if f == nil {
+			return true
+		}
+		if !active[f] {
+			return false
+		}
+		if f != p.fr.fn {
+			return true
+		}
+		refs := v.Referrers()
+		if refs == nil {
+			return true
+		}
+		for _, r := range *refs {
+			if r.Parent() != f {
+				return true
+			}
+			if rb := r.Block(); rb == p.b || reach[p.b.Index][rb.Index] {
+				return true
+			}
+		}
+		return false
+	}
+	for v := range p.known {
+		if !live(v) {
+			p.forget(v)
+		}
+	}
+	for v := range p.src {
+		if !live(v) {
+			delete(p.src, v)
+		}
+	}
+	for c := range p.tuple {
+		if !live(c) {
+			delete(p.tuple, c)
+		}
+	}
+	for v := range p.ints {
+		if !live(v) {
+			delete(p.ints, v)
+		}
+	}
+	for c := range p.mem {
+		if f := c10ValueFn(c.base); f != nil && !active[f] {
+			delete(p.mem, c)
+			delete(p.memV, c)
+		}
+	}
+}
+
+var c10ReachCache = map[*ssa.Function][][]bool{}
+
+// c10Reach[b][c]: block c is reachable from block b through at least one edge.
+func c10Reach(fn *ssa.Function) [][]bool {
+	if r, ok := c10ReachCache[fn]; ok {
+		return r
+	}
+	n := len(fn.Blocks)
+	r := make([][]bool, n)
+	for i, b := range fn.Blocks {
+		r[i] = make([]bool, n)
+		var stack []*ssa.BasicBlock
+		stack = append(stack, b.Succs...)
+		for len(stack) > 0 {
+			x := stack[len(stack)-1]
+			stack = stack[:len(stack)-1]
+			if r[i][x.Index] {
+				continue
+			}
+			r[i][x.Index] = true
+			stack = append(stack, x.Succs...)
+		}
+	}
+	c10ReachCache[fn] = r
+	return r
+}
+
+func (w *c10Walk[S]) newPath(root *c10Frame, st S) *c10Path[S] {
+	return &c10Path[S]{w: w, fr: root, b: root.fn.Blocks[0], known: map[ssa.Value]c10K{}, tuple: map[*ssa.Call][]c10K{},
+		mem: map[c10Cell]c10K{}, memV: map[c10Cell]c10EV{}, src: map[ssa.Value]c10EV{}, ints: map[ssa.Value]int64{}, St: st}
+}
+
+// Run explores every path of root's effective body from its entry.
+func (w *c10Walk[S]) Run(root *c10Frame, st S) {
+	if w.Max == 0 {
+		w.Max = 40000
+	}
+	w.seen = map[string]bool{}
+	if len(root.fn.Blocks) == 0 {
+		return
+	}
+	w.run(w.newPath(root, st))
+}
+
+// enter moves the path to block to (coming from block from of the same function).
+func (p *c10Path[S]) enter(from, to *ssa.BasicBlock) {
+	idx := -1
+	for i, pr := range to.Preds {
+		if pr == from {
+			idx = i
+			break
+		}
+	}
+	if idx >= 0 {
+		type upd struct {
+			ph *ssa.Phi
+			k  c10K
+			e  ssa.Value
+		}
+		var us []upd
+		for _, in := range to.Instrs {
+			ph, ok := in.(*ssa.Phi)
+			if !ok {
+				break
+			}
+			us = append(us, upd{ph, p.eval(p.fr, ph.Edges[idx], 0), ph.Edges[idx]})
+		}
+		for _, u := range us {
+			p.forget(u.ph)
+			if u.k != c10Unk {
+				p.known[u.ph] = u.k
+			}
+			p.src[u.ph] = c10EV{p.fr, u.e}
+		}
+	}
+	p.b, p.i = to, 0
+}
+
+func (w *c10Walk[S]) run(p *c10Path[S]) {
+	for {
+		if w.Overflow {
+			return
+		}
+		if p.i == 0 {
+			p.prune()
+			k := p.key()
+			if w.seen[k] {
+				return
+			}
+			w.seen[k] = true
+			w.n++
+			if w.n > w.Max {
+				w.Overflow = true
+				return
+			}
+		}
+		if p.i >= len(p.b.Instrs) {
+			return
+		}
+		in := p.b.Instrs[p.i]
+		ev := c10Ev{fr: p.fr, in: in}
+		if _, isPhi := in.(*ssa.Phi); !isPhi && w.Visit != nil && w.Visit(p, ev) {
+			return
+		}
+		p.effects(p.fr, in)
+		if w.Post != nil {
+			w.Post(p, ev)
+		}
+		switch x := in.(type) {
+		case *ssa.If:
+			k := p.eval(p.fr, x.Cond, 0)
+			from := p.b
+			if k != c10Unk {
+				s := from.Succs[1]
+				if k == c10NonZero {
+					s = from.Succs[0]
+				}
+				p.enter(from, s)
+				continue
+			}
+			q := p.clone()
+			q.learn(q.fr, x.Cond, c10NonZero, 0)
+			q.enter(from, from.Succs[0])
+			w.run(q)
+			p.learn(p.fr, x.Cond, c10Zero, 0)
+			p.enter(from, from.Succs[1])
+			continue
+		case *ssa.Jump:
+			p.enter(p.b, p.b.Succs[0])
+			continue
+		case *ssa.Panic:
+			if w.Panics && w.Exit != nil {
+				w.Exit(p, p.fr, in)
+			}
+			return
+		case *ssa.RunDefers:
+			var mine []*ssa.Defer
+			rest := p.defers[:0:0]
+			for _, d := range p.defers {
+				if d.fr == p.fr {
+					mine = append(mine, d.d)
+				} else {
+					rest = append(rest, d)
+				}
+			}
+			p.defers = rest
+			if len(mine) > 0 {
+				for i, j := 0, len(mine)-1; i < j; i, j = i+1, j-1 {
+					mine[i], mine[j] = mine[j], mine[i]
+				}
+				p.stack = append(p.stack, c10Cont{fr: p.fr, b: p.b, i: p.i + 1, defs: mine})
+				if !w.nextDeferred(p) {
+					return
+				}
+				continue
+			}
+		case *ssa.Return:
+			if len(p.stack) == 0 {
+				if w.Exit != nil {
+					w.Exit(p, p.fr, in)
+				}
+				return
+			}
+			top := p.stack[len(p.stack)-1]
+			if top.site == nil {
+				// a deferred callee returned: on with the next deferred call
+				p.fr = top.fr
+				if !w.nextDeferred(p) {
+					return
+				}
+				continue
+			}
+			p.stack = p.stack[:len(p.stack)-1]
+			call, isCall := top.site.(*ssa.Call)
+			if isCall {
+				ks := make([]c10K, len(x.Results))
+				for i, r := range x.Results {
+					ks[i] = p.eval(p.fr, r, 0)
+				}
+				callee := p.fr
+				p.forget(call)
+				if len(ks) == 1 {
+					if ks[0] != c10Unk {
+						p.known[call] = ks[0]
+					}
+					p.src[call] = c10EV{callee, x.Results[0]}
+				} else if len(ks) > 1 {
+					p.tuple[call] = ks
+				}
+			}
+			p.fr, p.b, p.i = top.fr, top.b, top.i
+			if isCall && w.Fork != nil && p.known[call] == c10Unk {
+				cev := c10Ev{fr: p.fr, in: call}
+				if fv := w.Fork(p, cev); fv != nil && fv == ssa.Value(call) {
+					w.fork(p, cev, fv)
+				}
+			}
+			continue
+		case *ssa.Defer:
+			dup := false
+			for _, d := range p.defers {
+				if d.d == x && d.fr == p.fr {
+					dup = true
+				}
+			}
+			if !dup {
+				p.defers = append(p.defers, c10Def{p.fr, x})
+			}
+		case *ssa.Call:
+			if k := p.fr.child(x); k != nil && (w.NoFollow == nil || !w.NoFollow(p.fr, x)) {
+				// the helper's body runs in place; a Fork on its result happens when it returns
+				p.stack = append(p.stack, c10Cont{fr: p.fr, b: p.b, i: p.i + 1, site: x})
+				p.fr, p.b, p.i = k, k.fn.Blocks[0], 0
+				continue
+			}
+			p.clobber(p.fr, x)
+			if w.Fork != nil {
+				if fv := w.Fork(p, ev); fv != nil && fv == ssa.Value(x) {
+					p.i++
+					w.fork(p, ev, fv)
+					continue
+				}
+			}
+		case *ssa.Extract:
+			if w.Fork != nil && p.known[x] == c10Unk {
+				if fv := w.Fork(p, ev); fv != nil && fv == ssa.Value(x) {
+					p.i++
+					w.fork(p, ev, fv)
+					continue
+				}
+			}
+		}
+		p.i++
+	}
+}
+
+// fork splits path p (already positioned after the instruction that defines
+// fv) into the world where fv is non-nil/true (explored now) and the world
+// where it is nil/false (p goes on with it).
+func (w *c10Walk[S]) fork(p *c10Path[S], ev c10Ev, fv ssa.Value) {
+	q := p.clone()
+	q.learn(ev.fr, fv, c10NonZero, 0)
+	if w.Forked != nil {
+		w.Forked(q, ev, c10NonZero)
+	}
+	w.run(q)
+	p.learn(ev.fr, fv, c10Zero, 0)
+	if w.Forked != nil {
+		w.Forked(p, ev, c10Zero)
+	}
+}
+
+// nextDeferred runs the next deferred call of the marker on top of the stack
+// (or resumes after the RunDefers when none is left). false ends the path.
+func (w *c10Walk[S]) nextDeferred(p *c10Path[S]) bool {
+	for {
+		top := &p.stack[len(p.stack)-1]
+		if len(top.defs) == 0 {
+			p.fr, p.b, p.i = top.fr, top.b, top.i
+			p.stack = p.stack[:len(p.stack)-1]
+			return true
+		}
+		d := top.defs[0]
+		top.defs = top.defs[1:]
+		fr := top.fr
+		if w.Visit != nil && w.Visit(p, c10Ev{fr: fr, in: d, run: true}) {
+			return false
+		}
+		if k := fr.child(d); k != nil && (w.NoFollow == nil || !w.NoFollow(fr, d)) {
+			p.fr, p.b, p.i = k, k.fn.Blocks[0], 0
+			return true
+		}
+		p.clobber(fr, d)
+	}
+}
+
+// ===========================================================================
+// effective must-hold locksets (c10Walk with the lockset as path state)
+
+type c10EI struct {
+	fr  *c10Frame
+	in  ssa.Instruction
+	run bool
+}
+
+type c10LockRes struct {
+	held     map[c10EI]LockSet
+	overflow bool
+}
+
+// c10MutexOp: a sync.Mutex / sync.RWMutex operation and the mutex it acts on.
+func c10MutexOp(c CallSite) (kind string, mu ssa.Value, ok bool) {
+	for _, m := range []string{"Lock", "Unlock", "RLock", "RUnlock"} {
+		if c.IsStatic("sync", "Mutex", m) || c.IsStatic("sync", "RWMutex", m) {
+			return m, c.Args()[0], true
+		}
+	}
+	return "", nil, false
+}
+
+// c10Locks computes, for every instruction of root's effective body, the
+// locks (paths in root's terms, 'R'/'W') held on every path that reaches it:
+// locks taken by a caller are held inside the helper, locks a helper takes or
+// releases are taken or released for its caller, deferred unlocks run at the
+// exit of the function that deferred them.
+func c10Locks(root *c10Frame) *c10LockRes {
+	res := &c10LockRes{held: map[c10EI]LockSet{}}
+	w := &c10Walk[LockSet]{
+		Clone: func(l LockSet) LockSet { return l.clone() },
+		Key:   func(l LockSet) string { return l.String() },
+	}
+	w.Visit = func(p *c10Path[LockSet], ev c10Ev) bool {
+		ei := c10EI{ev.fr, ev.in, ev.run}
+		if cur, ok := res.held[ei]; ok {
+			res.held[ei] = meet(cur, p.St)
+		} else {
+			res.held[ei] = p.St.clone()
+		}
+		ci, ok := ev.in.(ssa.CallInstruction)
+		if !ok {
+			return false
+		}
+		if _, isGo := ci.(*ssa.Go); isGo {
+			return false
+		}
+		if _, isDefer := ci.(*ssa.Defer); isDefer && !ev.run {
+			return false
+		}
+		if kind, mu, ok := c10MutexOp(CallSite{ev.fr.fn, ci}); ok {
+			path := c10PathOf(ev.fr, mu)
+			switch kind {
+			case "Lock":
+				p.St[path] = 'W'
+			case "RLock":
+				p.St[path] = 'R'
+			default:
+				delete(p.St, path)
+			}
+		}
+		return false
+	}
+	w.Run(root, LockSet{})
+	res.overflow = w.Overflow
+	return res
+}
+
+// HeldAt: the locks held whenever instruction in of activation fr executes
+// (for a *ssa.Defer: when it is registered); ok=false when no explored path reaches it.
+func (l *c10LockRes) HeldAt(fr *c10Frame, in ssa.Instruction) (LockSet, bool) {
+	ls, ok := l.held[c10EI{fr, in, false}]
+	if !ok {
+		return LockSet{}, false
+	}
+	return ls, true
+}
+
+func c10Holds(ls LockSet, path string, mode byte) bool {
+	m, ok := ls[path]
+	return ok && (mode == 'R' || m == 'W')
+}
+
+// ===========================================================================
+// forward value-flow ("taint") of keys and values through an effective body
+
+// A c10FlowSet propagates labels ("K:<id>" / "V:<id>") from source values to
+// every value derived from them in the effective body of a function: through
+// conversions, phis, loads/stores of function-local memory (complits, varargs
+// arrays, spilled and captured variables), map literals, call results, and —
+// one c10Flow per activation — into the parameters and out of the results of
+// the helpers it calls. It records where a labelled value leaves the
+// effective body: as an argument of a call that is not followed (sink) or by
+// a store into non-local memory.
+type c10FlowSet struct {
+	root    *c10Flow
+	flows   []*c10Flow
+	byFrame map[*c10Frame]*c10Flow
+	work    []c10FlowItem
 	// direct stores of a source into a struct field: (named struct, field index) -> label kinds
 	fieldStores map[c10FieldKey]map[byte]bool
+}
+
+type c10FlowItem struct {
+	f *c10Flow
+	v ssa.Value
+}
+
+type c10Flow struct {
+	set     *c10FlowSet
+	fr      *c10Frame
+	fn      *ssa.Function
+	lab     map[ssa.Value]map[string]bool
+	sinks   []*c10Sink
+	bySink  map[ssa.Instruction]*c10Sink
+	escapes []string // labelled value captured by a closure that is not called here etc.: cannot follow
 }
 
 type c10FieldKey struct {
@@ -80,14 +1437,42 @@ type c10FieldKey struct {
 }
 
 type c10Sink struct {
+	fl     *c10Flow
 	instr  ssa.Instruction
 	call   *CallSite // nil for stores
 	labels map[string]bool
 	what   string
+	root   c10EV // stores: the resolved root of the address written through
 }
 
-func c10NewFlow(fn *ssa.Function) *c10Flow {
-	return &c10Flow{fn: fn, lab: map[ssa.Value]map[string]bool{}, bySink: map[ssa.Instruction]*c10Sink{}, fieldStores: map[c10FieldKey]map[byte]bool{}}
+func c10NewFlowSet(root *c10Frame) *c10FlowSet {
+	fs := &c10FlowSet{byFrame: map[*c10Frame]*c10Flow{}, fieldStores: map[c10FieldKey]map[byte]bool{}}
+	var mk func(fr *c10Frame) *c10Flow
+	mk = func(fr *c10Frame) *c10Flow {
+		f := &c10Flow{set: fs, fr: fr, fn: fr.fn, lab: map[ssa.Value]map[string]bool{}, bySink: map[ssa.Instruction]*c10Sink{}}
+		fs.flows = append(fs.flows, f)
+		fs.byFrame[fr] = f
+		for _, b := range fr.fn.Blocks {
+			for _, in := range b.Instrs {
+				if ci, ok := in.(ssa.CallInstruction); ok {
+					if k := fr.child(ci); k != nil {
+						mk(k)
+					}
+				}
+			}
+		}
+		return f
+	}
+	fs.root = mk(root)
+	return fs
+}
+
+func (fs *c10FlowSet) allSinks() []*c10Sink {
+	var out []*c10Sink
+	for _, f := range fs.flows {
+		out = append(out, f.sinks...)
+	}
+	return out
 }
 
 func (f *c10Flow) add(v ssa.Value, labels map[string]bool) {
@@ -107,7 +1492,7 @@ func (f *c10Flow) add(v ssa.Value, labels map[string]bool) {
 		}
 	}
 	if grew {
-		f.work = append(f.work, v)
+		f.set.work = append(f.set.work, c10FlowItem{f, v})
 	}
 }
 
@@ -128,103 +1513,179 @@ func c10RootCell(addr ssa.Value) ssa.Value {
 	return addr
 }
 
-func (f *c10Flow) sink(in ssa.Instruction, c *CallSite, labels map[string]bool, what string) {
+func (f *c10Flow) sink(in ssa.Instruction, c *CallSite, labels map[string]bool, what string) *c10Sink {
 	s := f.bySink[in]
 	if s == nil {
-		s = &c10Sink{instr: in, call: c, labels: map[string]bool{}, what: what}
+		s = &c10Sink{fl: f, instr: in, call: c, labels: map[string]bool{}, what: what}
 		f.bySink[in] = s
 		f.sinks = append(f.sinks, s)
 	}
 	for l := range labels {
 		s.labels[l] = true
 	}
+	return s
 }
 
-func (f *c10Flow) run() {
-	for len(f.work) > 0 {
-		v := f.work[len(f.work)-1]
-		f.work = f.work[:len(f.work)-1]
-		labels := f.lab[v]
-		refs := v.Referrers()
-		if refs == nil {
+// localCell: the address root (a base address in f's function) denotes memory
+// that is local to the effective body — a variable of this activation or,
+// through a captured variable or a pointer parameter, of an enclosing one.
+func (f *c10Flow) localCell(root ssa.Value) (*c10Flow, ssa.Value, bool) {
+	fr := f.fr
+	for i := 0; i < 12 && root != nil; i++ {
+		switch x := root.(type) {
+		case *ssa.Alloc:
+			if a := fr.frameOf(x.Parent()); a != nil {
+				if fl := f.set.byFrame[a]; fl != nil {
+					return fl, x, true
+				}
+			}
+			return nil, nil, false
+		case *ssa.FreeVar:
+			b := bindingOf(x)
+			if b == nil {
+				return nil, nil, false
+			}
+			fr, root = fr.frameFor(b), c10RootCell(b)
+		case *ssa.Parameter:
+			pf, a, ok := fr.argFor(x)
+			if !ok {
+				return nil, nil, false
+			}
+			fr, root = pf, c10RootCell(a)
+		default:
+			return nil, nil, false
+		}
+	}
+	return nil, nil, false
+}
+
+func (fs *c10FlowSet) run() {
+	for len(fs.work) > 0 {
+		it := fs.work[len(fs.work)-1]
+		fs.work = fs.work[:len(fs.work)-1]
+		it.f.step(it.v)
+	}
+}
+
+func (f *c10Flow) step(v ssa.Value) {
+	labels := f.lab[v]
+	refs := v.Referrers()
+	if refs == nil {
+		return
+	}
+	for _, r := range *refs {
+		if r.Parent() != f.fn {
 			continue
 		}
-		for _, r := range *refs {
-			if r.Parent() != f.fn {
+		switch x := r.(type) {
+		case *ssa.Store:
+			if x.Val != v {
+				continue // v is the address being written through
+			}
+			root := c10RootCell(x.Addr)
+			if fa, ok := x.Addr.(*ssa.FieldAddr); ok && c10IsBytesCarrier(x.Val.Type()) {
+				if n := NamedOf(fa.X.Type()); n != nil {
+					k := c10FieldKey{n, fa.Field}
+					if f.set.fieldStores[k] == nil {
+						f.set.fieldStores[k] = map[byte]bool{}
+					}
+					for l := range labels {
+						f.set.fieldStores[k][l[0]] = true
+					}
+				}
+			}
+			if fl, cell, ok := f.localCell(root); ok {
+				fl.add(cell, labels)
+			} else {
+				s := f.sink(x, nil, labels, "store:"+c10PathOf(f.fr, x.Addr))
+				s.root = c10Res(f.fr, root)
+			}
+		case *ssa.MapUpdate:
+			if x.Key != v && x.Value != v {
 				continue
 			}
-			switch x := r.(type) {
-			case *ssa.Store:
-				if x.Val != v {
-					continue // v is the address being written through
+			if mk, ok := originValue(x.Map).(*ssa.MakeMap); ok && mk.Parent() == f.fn {
+				f.add(mk, labels)
+				if x.Map != ssa.Value(mk) {
+					f.add(x.Map, labels)
 				}
-				root := c10RootCell(x.Addr)
-				if fa, ok := x.Addr.(*ssa.FieldAddr); ok && c10IsBytesCarrier(x.Val.Type()) {
-					if n := NamedOf(fa.X.Type()); n != nil {
-						k := c10FieldKey{n, fa.Field}
-						if f.fieldStores[k] == nil {
-							f.fieldStores[k] = map[byte]bool{}
-						}
-						for l := range labels {
-							f.fieldStores[k][l[0]] = true
-						}
-					}
-				}
-				if al, ok := root.(*ssa.Alloc); ok && al.Parent() == f.fn {
-					f.add(al, labels)
-				} else {
-					f.sink(x, nil, labels, "store:"+AccessPath(x.Addr))
-				}
-			case *ssa.MapUpdate:
-				if x.Key != v && x.Value != v {
-					continue
-				}
-				if mk, ok := originValue(x.Map).(*ssa.MakeMap); ok && mk.Parent() == f.fn {
-					f.add(mk, labels)
-					if x.Map != ssa.Value(mk) {
-						f.add(x.Map, labels)
-					}
-				} else {
-					f.sink(x, nil, labels, "mapstore:"+AccessPath(x.Map))
-				}
-			case *ssa.MakeClosure:
-				f.escapes = append(f.escapes, "captured by function literal "+x.Fn.Name())
-			case ssa.CallInstruction:
-				c := CallSite{f.fn, x}
-				cc := c.Common()
-				if b, ok := cc.Value.(*ssa.Builtin); ok {
-					switch b.Name() {
-					case "append":
-						if call, ok := x.(*ssa.Call); ok {
-							f.add(call, labels)
-						}
-					case "copy":
-						if len(cc.Args) == 2 && cc.Args[1] == v {
-							root := c10RootCell(originValue(cc.Args[0]))
-							f.add(root, labels)
-						}
-					}
-					continue
-				}
-				f.sink(x, &c, labels, c.CalleeKey())
-				if call, ok := x.(*ssa.Call); ok {
-					f.add(call, labels)
-				}
-			case *ssa.Return, *ssa.If, *ssa.DebugRef, *ssa.Panic, *ssa.RunDefers, *ssa.Jump:
-			case *ssa.Send:
-				f.sink(x, nil, labels, "send")
-			case ssa.Value:
-				// Convert, ChangeType, MakeInterface, Phi, BinOp, UnOp (load of a
-				// labelled cell), FieldAddr/IndexAddr into labelled memory, Field,
-				// Index, Slice, Extract, TypeAssert, Lookup, Range, Next ...
-				if bo, ok := x.(*ssa.BinOp); ok {
-					switch bo.Op {
-					case token.EQL, token.NEQ, token.LSS, token.LEQ, token.GTR, token.GEQ:
-						continue // a comparison yields no key/value bytes
-					}
-				}
-				f.add(x, labels)
+			} else {
+				f.sink(x, nil, labels, "mapstore:"+c10PathOf(f.fr, x.Map))
 			}
+		case *ssa.MakeClosure:
+			lit, _ := x.Fn.(*ssa.Function)
+			entered := false
+			for _, kf := range f.set.flows {
+				kid := kf.fr
+				if kid.fn != lit || kid.parent == nil || kid.site == nil {
+					continue
+				}
+				if cv := kid.site.Common().Value; c10Res(kid.parent, cv).v != ssa.Value(x) {
+					continue
+				}
+				for j, b := range x.Bindings {
+					if b == v && j < len(lit.FreeVars) {
+						kf.add(lit.FreeVars[j], labels)
+						entered = true
+					}
+				}
+			}
+			if !entered {
+				f.escapes = append(f.escapes, "captured by function literal "+x.Fn.Name()+", which is not called in this function")
+			}
+		case ssa.CallInstruction:
+			c := CallSite{f.fn, x}
+			cc := c.Common()
+			if b, ok := cc.Value.(*ssa.Builtin); ok {
+				switch b.Name() {
+				case "append":
+					if call, ok := x.(*ssa.Call); ok {
+						f.add(call, labels)
+					}
+				case "copy":
+					if len(cc.Args) == 2 && cc.Args[1] == v {
+						root := c10RootCell(originValue(cc.Args[0]))
+						f.add(root, labels)
+					}
+				}
+				continue
+			}
+			if kid := f.fr.child(x); kid != nil {
+				// the helper's body is part of the effective body: the labels go to its parameters
+				if kf := f.set.byFrame[kid]; kf != nil {
+					for i, a := range c.Args() {
+						if a == v && i < len(kid.fn.Params) {
+							kf.add(kid.fn.Params[i], labels)
+						}
+					}
+					continue
+				}
+			}
+			f.sink(x, &c, labels, c.CalleeKey())
+			if call, ok := x.(*ssa.Call); ok {
+				f.add(call, labels)
+			}
+		case *ssa.Return:
+			// what a helper returns is what its call yields
+			if call, ok := f.fr.site.(*ssa.Call); ok && f.fr.parent != nil {
+				if pf := f.set.byFrame[f.fr.parent]; pf != nil {
+					pf.add(call, labels)
+				}
+			}
+		case *ssa.If, *ssa.DebugRef, *ssa.Panic, *ssa.RunDefers, *ssa.Jump:
+		case *ssa.Send:
+			f.sink(x, nil, labels, "send")
+		case ssa.Value:
+			// Convert, ChangeType, MakeInterface, Phi, BinOp, UnOp (load of a
+			// labelled cell), FieldAddr/IndexAddr into labelled memory, Field,
+			// Index, Slice, Extract, TypeAssert, Lookup, Range, Next ...
+			if bo, ok := x.(*ssa.BinOp); ok {
+				switch bo.Op {
+				case token.EQL, token.NEQ, token.LSS, token.LEQ, token.GTR, token.GEQ:
+					continue // a comparison yields no key/value bytes
+				}
+			}
+			f.add(x, labels)
 		}
 	}
 }
@@ -309,181 +1770,293 @@ func c10Harmless(c CallSite) bool {
 // ===========================================================================
 // V-size
 
+// A c10Guard is one call of sorted.CheckSizes in the effective body.
 type c10Guard struct {
+	fl     *c10Flow
 	call   *ssa.Call
 	k, v   string // the single K / V label of its arguments ("" when not determinable)
 	reason string
+	// instructions that compute the guard's key/value: when one of them runs
+	// again (next mutation of a batch), the verdict of the guard is void
+	srcs map[ssa.Instruction]bool
+	// the innermost loop of the effective body the guard sits in (nil: none)
+	loopFr *c10Frame
+	loopH  *ssa.BasicBlock
 }
 
-func c10Guards(f *c10Flow) []c10Guard {
-	var out []c10Guard
-	for _, c := range CallsIn(f.fn, false) {
-		if !c10IsCheckSizes(c) || c.Value() == nil {
-			continue
+func c10Guards(fs *c10FlowSet) []*c10Guard {
+	var out []*c10Guard
+	for _, f := range fs.flows {
+		for _, c := range CallsIn(f.fn, false) {
+			if !c10IsCheckSizes(c) || c.Value() == nil {
+				continue
+			}
+			g := &c10Guard{fl: f, call: c.Value(), srcs: map[ssa.Instruction]bool{}}
+			a := c.Args()
+			la, lb := f.lab[a[0]], f.lab[a[1]]
+			ka, va := c10Kinds(la, 'K'), c10Kinds(la, 'V')
+			kb, vb := c10Kinds(lb, 'K'), c10Kinds(lb, 'V')
+			switch {
+			case len(ka) == 1 && len(va) == 0 && len(vb) == 1 && len(kb) == 0:
+				g.k, g.v = ka[0], vb[0]
+			default:
+				g.reason = fmt.Sprintf("CheckSizes arguments are not (one key, one value): arg0 carries %v, arg1 carries %v", append(ka, va...), append(kb, vb...))
+			}
+			// backward slice of the two arguments inside this function
+			var slice func(v ssa.Value, d int)
+			slice = func(v ssa.Value, d int) {
+				in, ok := v.(ssa.Instruction)
+				if !ok || d > 8 || g.srcs[in] || in.Parent() != f.fn {
+					return
+				}
+				if _, isAlloc := v.(*ssa.Alloc); isAlloc {
+					return
+				}
+				g.srcs[in] = true
+				for _, op := range in.Operands(nil) {
+					if *op != nil {
+						slice(*op, d+1)
+					}
+				}
+			}
+			slice(a[0], 0)
+			slice(a[1], 0)
+			// innermost enclosing loop, looking outwards through the call sites
+			fr, blk := f.fr, g.call.Block()
+			for fr != nil {
+				if h := c10LoopHeader(blk); h != nil {
+					g.loopFr, g.loopH = fr, h
+					break
+				}
+				if fr.site == nil || fr.parent == nil {
+					break
+				}
+				blk, fr = fr.site.Block(), fr.parent
+			}
+			out = append(out, g)
 		}
-		g := c10Guard{call: c.Value()}
-		a := c.Args()
-		la, lb := f.lab[a[0]], f.lab[a[1]]
-		ka, va := c10Kinds(la, 'K'), c10Kinds(la, 'V')
-		kb, vb := c10Kinds(lb, 'K'), c10Kinds(lb, 'V')
-		switch {
-		case len(ka) == 1 && len(va) == 0 && len(vb) == 1 && len(kb) == 0:
-			g.k, g.v = ka[0], vb[0]
-		default:
-			g.reason = fmt.Sprintf("CheckSizes arguments are not (one key, one value): arg0 carries %v, arg1 carries %v", append(ka, va...), append(kb, vb...))
-		}
-		out = append(out, g)
 	}
 	return out
 }
 
-// c10CheckSinks applies the guard rule to every value hand-over in f.fn and
-// returns the number of obligations it produced.
-func c10CheckSinks(p *Program, r *Reporter, f *c10Flow, role string) (n int, guards []c10Guard) {
-	fn := f.fn
-	guards = c10Guards(f)
-	for _, e := range f.escapes {
-		r.Undecided("V-size", FuncKey(fn)+"#flow", p.Pos(fn.Pos()), "cannot follow the key/value in "+role+": "+e)
-		n++
+// c10FirstInstr: the first non-phi instruction of b.
+func c10FirstInstr(b *ssa.BasicBlock) ssa.Instruction {
+	for _, in := range b.Instrs {
+		if _, isPhi := in.(*ssa.Phi); !isPhi {
+			return in
+		}
 	}
-	for _, s := range f.sinks {
-		vs := c10Kinds(s.labels, 'V')
-		if len(vs) == 0 {
+	return nil
+}
+
+const (
+	c10gNotRun = 0
+	c10gOK     = 1
+	c10gFailed = 2
+)
+
+// c10SizeCheck decides, by interpreting the paths of the effective body, the
+// guard rule for every value hand-over (sink) and the oversize-edge rule for
+// every guard. The interpreter splits each path at every CheckSizes call into
+// the world where it succeeded and the world where it failed:
+//   - a sink must be reached only in a world where a CheckSizes call over the
+//     same key and value has succeeded since that key/value was computed;
+//   - in the failed world the function must not hand the value over, must
+//     return a nil error (outside a batch loop) or come back to the head of
+//     the batch loop (inside one) — it must not leave the loop.
+//
+// Returns the number of sink obligations and of guard obligations.
+func c10SizeCheck(p *Program, r *Reporter, fs *c10FlowSet, role string) (nSinks, nGuards int) {
+	rootFn := fs.root.fn
+	guards := c10Guards(fs)
+	for _, f := range fs.flows {
+		for _, e := range f.escapes {
+			r.Undecided("V-size", FuncKey(f.fn)+"#flow", p.Pos(f.fn.Pos()), "cannot follow the key/value in "+role+": "+e)
+			nSinks++
+		}
+	}
+	type sinkKey struct {
+		fr *c10Frame
+		in ssa.Instruction
+	}
+	var sinks []*c10Sink
+	sinkAt := map[sinkKey]*c10Sink{}
+	for _, s := range fs.allSinks() {
+		if len(c10Kinds(s.labels, 'V')) == 0 {
 			continue // only the key travels here (reads, deletes)
 		}
 		if s.call != nil && (c10IsCheckSizes(*s.call) || c10Harmless(*s.call)) {
 			continue
 		}
-		ks := c10Kinds(s.labels, 'K')
-		construct := FuncKey(fn) + "#" + s.what
+		sinks = append(sinks, s)
+		sinkAt[sinkKey{s.fl.fr, s.instr}] = s
+	}
+	// which guards speak for which sink
+	match := map[*c10Sink][]int{}
+	whyNo := map[*c10Sink]string{}
+	for _, s := range sinks {
+		vs, ks := c10Kinds(s.labels, 'V'), c10Kinds(s.labels, 'K')
+		why := "no sorted.CheckSizes call in this function"
+		for gi, g := range guards {
+			switch {
+			case g.reason != "":
+				why = g.reason
+			case len(vs) != 1 || vs[0] != g.v:
+				why = fmt.Sprintf("the value handed over (%v) is not the value CheckSizes looked at (%s)", vs, g.v)
+			case len(ks) > 1 || len(ks) == 1 && ks[0] != g.k:
+				why = fmt.Sprintf("the key handed over (%v) is not the key CheckSizes looked at (%s)", ks, g.k)
+			default:
+				match[s] = append(match[s], gi)
+			}
+		}
+		whyNo[s] = why
+	}
+	// reset points: (activation, first instruction of a continue-point block) -> guards of that loop
+	type at struct {
+		fr *c10Frame
+		in ssa.Instruction
+	}
+	contAt := map[at][]int{}
+	guardAt := map[at]int{}
+	for gi, g := range guards {
+		guardAt[at{g.fl.fr, g.call}] = gi
+		if g.loopH != nil {
+			for b := range c10ContinuePoints(g.loopH) {
+				if in := c10FirstInstr(b); in != nil {
+					contAt[at{g.loopFr, in}] = append(contAt[at{g.loopFr, in}], gi)
+				}
+			}
+		}
+	}
+	sinkBad := map[*c10Sink]string{}
+	sinkSeen := map[*c10Sink]bool{}
+	edgeBad := map[int]string{}
+	edgeUnd := map[int]string{}
+	line := func(pos token.Pos) int { return p.Fset.Position(pos).Line }
+	w := &c10Walk[[]int8]{
+		Clone: func(s []int8) []int8 { return append([]int8(nil), s...) },
+		Key:   func(s []int8) string { return fmt.Sprint(s) },
+	}
+	w.Visit = func(pa *c10Path[[]int8], ev c10Ev) bool {
+		if ev.run {
+			return false
+		}
+		here := at{ev.fr, ev.in}
+		for _, gi := range contAt[here] {
+			if pa.St[gi] == c10gFailed {
+				pa.St[gi] = c10gNotRun // skipped: on with the next mutation
+			}
+		}
+		for gi, g := range guards {
+			if g.fl.fr == ev.fr && g.srcs[ev.in] && ev.in != ssa.Instruction(g.call) {
+				pa.St[gi] = c10gNotRun
+			}
+		}
+		if s := sinkAt[sinkKey{ev.fr, ev.in}]; s != nil {
+			sinkSeen[s] = true
+			ok, failed := false, false
+			for _, gi := range match[s] {
+				switch pa.St[gi] {
+				case c10gOK:
+					ok = true
+				case c10gFailed:
+					failed = true
+				}
+			}
+			if !ok && sinkBad[s] == "" {
+				switch {
+				case len(match[s]) == 0:
+					sinkBad[s] = whyNo[s]
+				case failed:
+					sinkBad[s] = "CheckSizes on this key/value exists but the value is handed over also where it reported an oversize key/value (the site is not on its err==nil edge)"
+				default:
+					sinkBad[s] = "CheckSizes on this key/value exists but some path reaches the hand-over without passing it first (call does not dominate the site)"
+				}
+			}
+		}
+		return false
+	}
+	w.Fork = func(pa *c10Path[[]int8], ev c10Ev) ssa.Value {
+		if _, ok := guardAt[at{ev.fr, ev.in}]; ok {
+			return ev.in.(ssa.Value)
+		}
+		return nil
+	}
+	w.Forked = func(pa *c10Path[[]int8], ev c10Ev, k c10K) {
+		gi := guardAt[at{ev.fr, ev.in}]
+		if k == c10Zero {
+			pa.St[gi] = c10gOK
+		} else {
+			pa.St[gi] = c10gFailed
+		}
+	}
+	errIdx := ErrResultIndex(rootFn)
+	w.Exit = func(pa *c10Path[[]int8], fr *c10Frame, in ssa.Instruction) {
+		ret, ok := in.(*ssa.Return)
+		if !ok {
+			return
+		}
+		for gi, g := range guards {
+			if pa.St[gi] != c10gFailed || edgeBad[gi] != "" {
+				continue
+			}
+			if g.loopH != nil {
+				edgeBad[gi] = fmt.Sprintf("on the oversize edge the batch loop is left (exit at line %d) instead of continuing with the next mutation: the rest of the batch would be dropped", line(ret.Pos()))
+				continue
+			}
+			if errIdx < 0 {
+				continue
+			}
+			switch pa.Eval(fr, ret.Results[errIdx]) {
+			case c10Zero:
+			case c10NonZero:
+				edgeBad[gi] = fmt.Sprintf("the return at line %d yields an error on the oversize edge (the CheckSizes error or one made from it): oversize keys/values must be skipped silently (return nil), as every sibling does", line(ret.Pos()))
+			default:
+				if edgeUnd[gi] == "" {
+					edgeUnd[gi] = fmt.Sprintf("cannot tell whether the return at line %d yields nil on the oversize edge", line(ret.Pos()))
+				}
+			}
+		}
+	}
+	w.Run(fs.root.fr, make([]int8, len(guards)))
+	for _, s := range sinks {
+		construct := FuncKey(s.fl.fn) + "#" + s.what
 		site := p.Pos(s.instr.Pos())
 		if s.call != nil {
 			site = p.Pos(s.call.Pos())
 		}
-		n++
-		okG, why := false, "no sorted.CheckSizes call in this function"
-		for _, g := range guards {
-			if g.reason != "" {
-				why = g.reason
-				continue
-			}
-			if len(vs) != 1 || vs[0] != g.v {
-				why = fmt.Sprintf("the value handed over (%v) is not the value CheckSizes looked at (%s)", vs, g.v)
-				continue
-			}
-			if len(ks) > 1 || len(ks) == 1 && ks[0] != g.k {
-				why = fmt.Sprintf("the key handed over (%v) is not the key CheckSizes looked at (%s)", ks, g.k)
-				continue
-			}
-			if ok, w := SuccessDominates(g.call, s.instr); !ok {
-				why = "CheckSizes on this key/value exists but " + w
-				continue
-			}
-			okG = true
-			break
+		nSinks++
+		switch {
+		case w.Overflow:
+			r.Undecided("V-size", construct, site, role+": too many paths through "+FuncKey(rootFn)+" to interpret")
+		case !sinkSeen[s] && len(match[s]) == 0:
+			r.Violation("V-size", construct, site, role+": value reaches "+s.what+" without a dominating successful sorted.CheckSizes on that key/value ("+whyNo[s]+"): an oversize key/value would be written by this implementation while its siblings skip it")
+		default:
+			r.Check(sinkBad[s] == "", "V-size", construct, site,
+				role+": value reaches "+s.what+" only on the err==nil edge of sorted.CheckSizes(key, value) over the same key and value",
+				role+": value reaches "+s.what+" without a dominating successful sorted.CheckSizes on that key/value ("+sinkBad[s]+"): an oversize key/value would be written by this implementation while its siblings skip it")
 		}
-		r.Check(okG, "V-size", construct, site,
-			role+": value reaches "+s.what+" only on the err==nil edge of sorted.CheckSizes(key, value) over the same key and value",
-			role+": value reaches "+s.what+" without a dominating successful sorted.CheckSizes on that key/value ("+why+"): an oversize key/value would be written by this implementation while its siblings skip it")
 	}
-	return n, guards
-}
-
-// c10OversizeEdge checks what happens on the failure edge of each guard: the
-// CheckSizes error is never returned, and inside a loop the next mutation is
-// still processed.
-func c10OversizeEdge(p *Program, r *Reporter, fn *ssa.Function, guards []c10Guard) int {
-	n := 0
-	for _, g := range guards {
-		ev, _, discarded := ErrValue(g.call)
-		construct := FuncKey(fn) + "#oversize-edge"
+	for gi, g := range guards {
+		construct := FuncKey(g.fl.fn) + "#oversize-edge"
 		site := p.Pos(g.call.Pos())
-		n++
-		if discarded {
+		nGuards++
+		if _, _, discarded := ErrValue(g.call); discarded {
 			r.Violation("V-size", construct, site, "the result of sorted.CheckSizes is discarded: nothing is skipped")
 			continue
 		}
-		bad := ""
-		if ErrResultIndex(fn) >= 0 {
-			idx := ErrResultIndex(fn)
-			for _, ri := range Returns(fn) {
-				if c10MayYield(ri.Results[idx], ev, ri.Ret.Block(), 0) {
-					bad = fmt.Sprintf("the return at line %d can yield the CheckSizes error: oversize keys/values must be skipped silently (return nil), as every sibling does", p.Fset.Position(ri.Ret.Pos()).Line)
-				}
-			}
-		}
-		// inside a loop: the failure edge must come back to the loop header
-		if bad == "" {
-			if fail := c10FailSucc(ev); fail != nil {
-				if h := c10LoopHeader(g.call.Block()); h != nil {
-					if ex := c10ReachesExitAvoiding(fail, c10ContinuePoints(h)); ex != nil {
-						bad = fmt.Sprintf("on the oversize edge the batch loop is left (exit at line %d) instead of continuing with the next mutation: the rest of the batch would be dropped", p.Fset.Position(ex.Pos()).Line)
-					}
-				}
-			} else {
-				r.Undecided("V-size", construct, site, "cannot find the branch on the CheckSizes result")
-				continue
-			}
-		}
-		r.Check(bad == "", "V-size", construct, site, "the oversize edge never returns the CheckSizes error and (in a batch loop) continues with the next mutation", bad)
-	}
-	return n
-}
-
-// c10MayYield: can value v (an error operand of a return in block at) be ev
-// while ev is non-nil?
-func c10MayYield(v, ev ssa.Value, at *ssa.BasicBlock, depth int) bool {
-	if v == nil || IsNilConst(v) {
-		return false
-	}
-	if ph, ok := v.(*ssa.Phi); ok && depth < 6 {
-		for i, e := range ph.Edges {
-			if c10MayYield(e, ev, ph.Block().Preds[i], depth+1) {
-				return true
-			}
-		}
-		return false
-	}
-	if v == ev || originValue(v) == originValue(ev) {
-		if k, isNil := NilFact(at, ev); k && isNil {
-			return false
-		}
-		// the block itself may end with the test (phi predecessor)
-		return true
-	}
-	return false
-}
-
-// c10FailSucc returns the successor block taken when ev != nil, from the If
-// that tests ev.
-func c10FailSucc(ev ssa.Value) *ssa.BasicBlock {
-	refs := ev.Referrers()
-	if refs == nil {
-		return nil
-	}
-	for _, u := range *refs {
-		bo, ok := u.(*ssa.BinOp)
-		if !ok || (bo.Op != token.NEQ && bo.Op != token.EQL) {
-			continue
-		}
-		if !(IsNilConst(bo.X) || IsNilConst(bo.Y)) {
-			continue
-		}
-		br := bo.Referrers()
-		if br == nil {
-			continue
-		}
-		for _, bu := range *br {
-			if ifi, ok := bu.(*ssa.If); ok {
-				b := ifi.Block()
-				if bo.Op == token.NEQ {
-					return b.Succs[0]
-				}
-				return b.Succs[1]
-			}
+		switch {
+		case w.Overflow:
+			r.Undecided("V-size", construct, site, "too many paths through "+FuncKey(rootFn)+" to interpret")
+		case edgeBad[gi] != "":
+			r.Violation("V-size", construct, site, edgeBad[gi])
+		case edgeUnd[gi] != "":
+			r.Undecided("V-size", construct, site, edgeUnd[gi])
+		default:
+			r.OK("V-size", construct, site, "on the oversize edge the function returns a nil error and (in a batch loop) continues with the next mutation")
 		}
 	}
-	return nil
+	return nSinks, nGuards
 }
 
 // c10LoopHeader returns the innermost natural-loop header dominating b whose
@@ -522,37 +2095,6 @@ func c10Reaches(a, b, avoid *ssa.BasicBlock) bool {
 		return false
 	}
 	return walk(a)
-}
-
-// c10ReachesExitAvoiding returns a Return reachable from block from without
-// entering block avoid (nil if none).
-func c10ReachesExitAvoiding(from *ssa.BasicBlock, avoid map[*ssa.BasicBlock]bool) ssa.Instruction {
-	if avoid[from] {
-		return nil
-	}
-	seen := map[*ssa.BasicBlock]bool{from: true}
-	var found ssa.Instruction
-	var walk func(x *ssa.BasicBlock)
-	walk = func(x *ssa.BasicBlock) {
-		if found != nil {
-			return
-		}
-		if len(x.Instrs) > 0 {
-			if ret, ok := x.Instrs[len(x.Instrs)-1].(*ssa.Return); ok {
-				found = ret
-				return
-			}
-		}
-		for _, s := range x.Succs {
-			if avoid[s] || seen[s] {
-				continue
-			}
-			seen[s] = true
-			walk(s)
-		}
-	}
-	walk(from)
-	return found
 }
 
 // c10ContinuePoints: the blocks at which "the loop goes on with the next
@@ -633,39 +2175,48 @@ func c10MutationAccessor(c CallSite) (kind byte, ok bool) {
 	return 0, false
 }
 
-// c10SeedRecorded seeds a flow over a CommitBatch-like function with the
-// places recorded keys/values come back out: sorted.Mutation accessors and
-// loads of the struct fields the batch type's Set stored them into.
-func c10SeedRecorded(f *c10Flow, fields map[c10FieldKey]map[byte]bool) (nV int) {
-	for _, b := range f.fn.Blocks {
-		for _, in := range b.Instrs {
-			switch x := in.(type) {
-			case *ssa.Call:
-				if k, ok := c10MutationAccessor(CallSite{f.fn, x}); ok {
-					f.source(x, fmt.Sprintf("%c:acc@%p", k, originValue(x.Call.Value)))
-					if k == 'V' {
-						nV++
-					}
-				}
-			case *ssa.Field:
-				if n := NamedOf(x.X.Type()); n != nil {
-					for kind := range fields[c10FieldKey{n, x.Field}] {
-						f.source(x, fmt.Sprintf("%c:fld@%p", kind, originValue(x.X)))
-						if kind == 'V' {
+// c10SeedRecorded seeds the flows over the effective body of a
+// CommitBatch-like function with the places recorded keys/values come back
+// out: sorted.Mutation accessors and loads of the struct fields the batch
+// type's Set stored them into. The identity of the mutation (the part of the
+// label after '@') is the resolved receiver, so that an accessor called in a
+// helper on a parameter names the same mutation as one called in the caller.
+func c10SeedRecorded(fs *c10FlowSet, fields map[c10FieldKey]map[byte]bool) (nV int) {
+	for _, f := range fs.flows {
+		id := func(v ssa.Value) string {
+			e := c10Ident(f.fr, v)
+			return fmt.Sprintf("%p/%p", e.fr, e.v)
+		}
+		for _, b := range f.fn.Blocks {
+			for _, in := range b.Instrs {
+				switch x := in.(type) {
+				case *ssa.Call:
+					if k, ok := c10MutationAccessor(CallSite{f.fn, x}); ok {
+						f.source(x, fmt.Sprintf("%c:acc@%s", k, id(x.Call.Value)))
+						if k == 'V' {
 							nV++
 						}
 					}
-				}
-			case *ssa.UnOp:
-				if x.Op != token.MUL {
-					continue
-				}
-				if fa, ok := x.X.(*ssa.FieldAddr); ok {
-					if n := NamedOf(fa.X.Type()); n != nil {
-						for kind := range fields[c10FieldKey{n, fa.Field}] {
-							f.source(x, fmt.Sprintf("%c:fld@%p", kind, originValue(fa.X)))
+				case *ssa.Field:
+					if n := NamedOf(x.X.Type()); n != nil {
+						for kind := range fields[c10FieldKey{n, x.Field}] {
+							f.source(x, fmt.Sprintf("%c:fld@%s", kind, id(x.X)))
 							if kind == 'V' {
 								nV++
+							}
+						}
+					}
+				case *ssa.UnOp:
+					if x.Op != token.MUL {
+						continue
+					}
+					if fa, ok := x.X.(*ssa.FieldAddr); ok {
+						if n := NamedOf(fa.X.Type()); n != nil {
+							for kind := range fields[c10FieldKey{n, fa.Field}] {
+								f.source(x, fmt.Sprintf("%c:fld@%s", kind, id(fa.X)))
+								if kind == 'V' {
+									nV++
+								}
 							}
 						}
 					}
@@ -690,6 +2241,15 @@ func c10PromotedFrom(n *types.Named, name string) (field types.Type, ok bool) {
 		return st.Field(index[0]).Type(), true
 	}
 	return nil, false
+}
+
+// c10KVFlowSet: the flow set over the effective body of a (key, value) method, sources at the parameters.
+func c10KVFlowSet(fn *ssa.Function) *c10FlowSet {
+	fs := c10NewFlowSet(c10NewRoot(fn))
+	fs.root.source(fn.Params[1], "K:param")
+	fs.root.source(fn.Params[2], "V:param")
+	fs.run()
+	return fs
 }
 
 func c10RuleSize(p *Program, r *Reporter) {
@@ -733,15 +2293,12 @@ func c10RuleSize(p *Program, r *Reporter) {
 			if len(fn.Params) != 3 {
 				brokenf("anchor unresolved: %s does not have (recv, key, value) parameters", FuncKey(fn))
 			}
-			f := c10NewFlow(fn)
-			f.source(fn.Params[1], "K:param")
-			f.source(fn.Params[2], "V:param")
-			f.run()
-			cnt, guards := c10CheckSinks(p, r, f, "Set")
+			fs := c10KVFlowSet(fn)
+			cnt, ng := c10SizeCheck(p, r, fs, "Set")
 			if cnt == 0 {
 				r.Violation("V-size", FuncKey(fn)+"#no-write", p.Pos(fn.Pos()), "Set hands its value to nothing: the implementation would drop every write (or the value flow could not be followed)")
 			}
-			nGuards += c10OversizeEdge(p, r, fn, guards)
+			nGuards += ng
 		}
 		// --- batch path
 		bb, cb := declared["BeginBatch"], declared["CommitBatch"]
@@ -763,27 +2320,25 @@ func c10RuleSize(p *Program, r *Reporter) {
 			continue
 		}
 		if _, seen := doneBatch[bt]; !seen {
-			f := c10NewFlow(bset)
-			f.source(bset.Params[1], "K:param")
-			f.source(bset.Params[2], "V:param")
-			f.run()
-			guards := c10Guards(f)
-			if len(guards) > 0 {
-				cnt, gs := c10CheckSinks(p, r, f, "batch Set (guards for itself)")
+			fs := c10KVFlowSet(bset)
+			if len(c10Guards(fs)) > 0 {
+				cnt, ng := c10SizeCheck(p, r, fs, "batch Set (guards for itself)")
 				if cnt == 0 {
 					r.Violation("V-size", FuncKey(bset)+"#no-write", p.Pos(bset.Pos()), "batch Set hands its value to nothing")
 				}
-				nGuards += c10OversizeEdge(p, r, bset, gs)
+				nGuards += ng
 				batchGuarding[bt] = true
 				doneBatch[bt] = nil
 			} else {
 				// recording batch: the value may only be stored into the batch itself
 				bad := ""
-				for _, e := range f.escapes {
-					bad = "cannot follow the value: " + e
+				for _, f := range fs.flows {
+					for _, e := range f.escapes {
+						bad = "cannot follow the value: " + e
+					}
 				}
 				nStores := 0
-				for _, s := range f.sinks {
+				for _, s := range fs.allSinks() {
 					if len(c10Kinds(s.labels, 'V')) == 0 {
 						continue
 					}
@@ -794,7 +2349,7 @@ func c10RuleSize(p *Program, r *Reporter) {
 						bad = "hands the value to " + s.what + " without sorted.CheckSizes"
 						continue
 					}
-					if !strings.HasPrefix(s.what, "store:&"+bset.Params[0].Name()+".") {
+					if _, isStore := s.instr.(*ssa.Store); !isStore || s.root.v != ssa.Value(bset.Params[0]) {
 						bad = "stores the value outside the batch object (" + s.what + ") without sorted.CheckSizes"
 						continue
 					}
@@ -806,7 +2361,7 @@ func c10RuleSize(p *Program, r *Reporter) {
 				r.Check(bad == "", "V-size", FuncKey(bset)+"#records", p.Pos(bset.Pos()),
 					"batch Set only records key/value inside the batch object; the size guard is owed by every CommitBatch that applies such a batch",
 					"batch Set has no size guard and "+bad)
-				doneBatch[bt] = f.fieldStores
+				doneBatch[bt] = fs.fieldStores
 			}
 		}
 		if batchGuarding[bt] {
@@ -814,18 +2369,18 @@ func c10RuleSize(p *Program, r *Reporter) {
 			continue
 		}
 		// CommitBatch applies recorded mutations: every value it hands over must be guarded
-		f := c10NewFlow(cb)
-		nV := c10SeedRecorded(f, doneBatch[bt])
-		f.run()
+		fs := c10NewFlowSet(c10NewRoot(cb))
+		nV := c10SeedRecorded(fs, doneBatch[bt])
+		fs.run()
 		if nV == 0 {
-			r.Undecided("V-size", FuncKey(cb)+"#batch", p.Pos(cb.Pos()), "batch type "+typeKey(bt)+" records values without a guard, but CommitBatch reads no recorded value (neither sorted.Mutation.Value nor a recorded field): cannot find where the batch is applied")
+			r.Undecided("V-size", FuncKey(cb)+"#batch", p.Pos(cb.Pos()), "batch type "+typeKey(bt)+" records values without a guard, but CommitBatch (with the helpers it calls) reads no recorded value (neither sorted.Mutation.Value nor a recorded field): cannot find where the batch is applied")
 			continue
 		}
-		cnt, guards := c10CheckSinks(p, r, f, "CommitBatch (applies recorded mutations)")
+		cnt, ng := c10SizeCheck(p, r, fs, "CommitBatch (applies recorded mutations)")
 		if cnt == 0 {
 			r.Violation("V-size", FuncKey(cb)+"#no-write", p.Pos(cb.Pos()), "CommitBatch reads recorded values but hands them to nothing")
 		}
-		nGuards += c10OversizeEdge(p, r, cb, guards)
+		nGuards += ng
 	}
 	// accessor agreement: sorted.mutation.Key/Value return the fields sorted.batch.Set stored key/value into
 	c10AccessorAgreement(p, r)
@@ -836,20 +2391,41 @@ func c10RuleSize(p *Program, r *Reporter) {
 	r.Floor("V-size", 40)
 }
 
-// c10AccessorAgreement: the generic batch records (key,value) into fields that
-// mutation.Key()/Value() read back — CommitBatch implementations rely on it.
+// c10AccessorAgreement: the generic batch (what sorted.NewBatchMutation
+// returns) records (key,value) into fields that the Key()/Value() methods of
+// the recorded element type read back — CommitBatch implementations rely on it.
 func c10AccessorAgreement(p *Program, r *Reporter) {
-	bset := p.Func("pkg/sorted", "batch", "Set")
-	f := c10NewFlow(bset)
-	f.source(bset.Params[1], "K:param")
-	f.source(bset.Params[2], "V:param")
-	f.run()
-	mut := p.NamedType("pkg/sorted", "mutation")
+	ctor := p.Func("pkg/sorted", "", "NewBatchMutation")
+	bt := NamedOf(c10BatchConcrete(ctor, 0))
+	if bt == nil {
+		brokenf("anchor unresolved: concrete type returned by sorted.NewBatchMutation")
+	}
+	bset, decl := c10Method(p, bt, "Set")
+	if bset == nil || !decl || len(bset.Params) != 3 {
+		brokenf("anchor unresolved: Set(key, value) of %s", typeKey(bt))
+	}
+	fs := c10KVFlowSet(bset)
+	// the element type: the named struct the key is stored into
+	var mut *types.Named
+	for k, kinds := range fs.fieldStores {
+		if kinds['K'] || kinds['V'] {
+			if mut != nil && mut != k.typ {
+				brokenf("anchor unresolved: %s stores key and value into different struct types", FuncKey(bset))
+			}
+			mut = k.typ
+		}
+	}
+	if mut == nil {
+		brokenf("anchor unresolved: %s stores its key/value into no struct field", FuncKey(bset))
+	}
 	for _, acc := range []struct {
 		name string
 		kind byte
 	}{{"Key", 'K'}, {"Value", 'V'}} {
-		fn := p.Func("pkg/sorted", "mutation", acc.name)
+		fn, decl := c10Method(p, mut, acc.name)
+		if fn == nil || !decl {
+			brokenf("anchor unresolved: method %s of %s", acc.name, typeKey(mut))
+		}
 		ok := false
 		rets := Returns(fn)
 		for _, ri := range rets {
@@ -866,7 +2442,7 @@ func c10AccessorAgreement(p *Program, r *Reporter) {
 					key = c10FieldKey{NamedOf(fa.X.Type()), fa.Field}
 				}
 			}
-			kinds := f.fieldStores[key]
+			kinds := fs.fieldStores[key]
 			ok = key.typ == mut && len(kinds) == 1 && kinds[acc.kind]
 			if !ok {
 				break
@@ -900,16 +2476,19 @@ func c10IsSQLTx(c CallSite, names ...string) bool {
 }
 
 func c10RuleTxn(p *Program, r *Reporter) {
-	p.Func("pkg/sorted/kvfile", "kvis", "CommitBatch")
 	n := 0
+	var fns []*ssa.Function
 	for _, fn := range p.FuncsUnder("pkg/sorted") {
-		if fn.Parent() != nil || IsTestSupportPkg(RelPkg(fn.Pkg.Pkg)) {
-			continue
+		if top := TopFunc(fn); top.Pkg != nil && !IsTestSupportPkg(RelPkg(top.Pkg.Pkg)) {
+			fns = append(fns, fn)
 		}
-		for _, c := range CallsIn(fn, false) {
-			if c10IsKVDB(c, "BeginTransaction") && c.Value() != nil {
+	}
+	// helpers are looked at as part of the effective body of their callers
+	for _, root := range c10Roots(p, fns) {
+		for _, c := range c10EffCalls(root) {
+			if c10IsKVDB(c.CallSite, "BeginTransaction") && c.Value() != nil {
 				n++
-				c10CheckKVTxn(p, r, fn, c)
+				c10CheckKVTxn(p, r, root, c)
 			}
 		}
 	}
@@ -922,226 +2501,199 @@ func c10RuleTxn(p *Program, r *Reporter) {
 	r.Floor("V-txn", 14)
 }
 
-type c10TxnState struct {
-	begun, done bool
-	flags       map[*ssa.Alloc]int8 // 0 false, 1 true, -1 unknown
-	defers      []*ssa.Defer
+type c10At struct {
+	fr *c10Frame
+	in ssa.Instruction
 }
 
-func (s c10TxnState) key(b *ssa.BasicBlock) string {
-	var fl []string
-	for a, v := range s.flags {
-		fl = append(fl, fmt.Sprintf("%p=%d", a, v))
+// c10ErrDef: the instruction that defines the error result of call (the call
+// itself or the Extract of its last result); nil when the error is discarded.
+func c10ErrDef(call *ssa.Call) ssa.Instruction {
+	ev, hasErr, discarded := ErrValue(call)
+	if !hasErr || discarded || ev == nil {
+		return nil
 	}
-	sort.Strings(fl)
-	return fmt.Sprintf("%d|%v|%v|%s|%d", b.Index, s.begun, s.done, strings.Join(fl, ","), len(s.defers))
+	in, _ := ev.(ssa.Instruction)
+	return in
 }
 
-func (s c10TxnState) clone() c10TxnState {
-	o := c10TxnState{begun: s.begun, done: s.done, flags: map[*ssa.Alloc]int8{}}
-	for k, v := range s.flags {
-		o.flags[k] = v
-	}
-	o.defers = append([]*ssa.Defer(nil), s.defers...)
-	return o
+type c10TxnSt struct {
+	phase int8 // 0 no transaction yet, 1 open, 2 begin failed, 3 ended (Commit/Rollback)
+	dirty int  // 1+index of the first write whose failure this path has seen
 }
 
-// c10ClosureEnds reports whether every path through literal cl calls
-// Commit/Rollback on a kv.DB, given the known values of captured bool flags.
-func c10ClosureEnds(cl *ssa.Function, flags map[*ssa.Alloc]int8) bool {
-	if cl == nil || len(cl.Blocks) == 0 || len(cl.Blocks[0].Instrs) == 0 {
-		return false
-	}
-	stop := func(in ssa.Instruction) bool {
-		ci, ok := in.(ssa.CallInstruction)
-		return ok && c10IsKVDB(CallSite{cl, ci}, "Commit", "Rollback")
-	}
-	first := cl.Blocks[0].Instrs[0]
-	if stop(first) {
-		return true
-	}
-	assume := func(cond ssa.Value) (bool, bool) {
-		neg := false
-		for {
-			if u, ok := cond.(*ssa.UnOp); ok && u.Op == token.NOT {
-				cond, neg = u.X, !neg
-				continue
-			}
-			break
-		}
-		ld, ok := cond.(*ssa.UnOp)
-		if !ok || ld.Op != token.MUL {
-			return false, false
-		}
-		cell, ok := varOf(ld.X)
-		if !ok {
-			return false, false
-		}
-		al, ok := cell.(*ssa.Alloc)
-		if !ok {
-			return false, false
-		}
-		// the literal itself must not assign the flag
-		for _, st := range storesTo(al) {
-			if st.Parent() == cl {
-				return false, false
-			}
-		}
-		v, ok := flags[al]
-		if !ok || v < 0 {
-			return false, false
-		}
-		return true, (v == 1) != neg
-	}
-	return len(LeakingExits(PathQuery{Start: first, Stop: stop, Assume: assume, IgnorePanics: true})) == 0
-}
-
-func c10CheckKVTxn(p *Program, r *Reporter, fn *ssa.Function, begin CallSite) {
+// c10CheckKVTxn interprets the paths of root's effective body (helpers in
+// place, deferred calls at the exits, the value of flag variables followed)
+// around one (*kv.DB).BeginTransaction call.
+func c10CheckKVTxn(p *Program, r *Reporter, root *c10Frame, begin c10ECall) {
+	fn := root.fn
 	key := FuncKey(fn) + "#BeginTransaction"
 	site := p.Pos(begin.Pos())
-	ev, _, discarded := ErrValue(begin.Value())
-	fail := (*ssa.BasicBlock)(nil)
-	if !discarded {
-		fail = c10FailSucc(ev)
-	}
-	if fail == nil {
+	beginDef := c10ErrDef(begin.Value())
+	if beginDef == nil {
 		r.Violation("V-txn", key+"#checked", site, "the error of BeginTransaction is not tested: after a failed begin the mutations would be applied outside any transaction")
 		return
 	}
-	dbPath := AccessPath(begin.Args()[0])
-	// (a) every path from the successful begin ends in Commit or Rollback
-	var leaks []string
-	seen := map[string]bool{}
-	var walk func(b *ssa.BasicBlock, from int, st c10TxnState)
-	walk = func(b *ssa.BasicBlock, from int, st c10TxnState) {
-		if from == 0 {
-			k := st.key(b)
-			if seen[k] {
-				return
+	dbPath := c10PathOf(begin.fr, begin.Args()[0])
+	line := func(pos token.Pos) int { return p.Fset.Position(pos).Line }
+	// the events
+	type wr struct {
+		c   c10ECall
+		def ssa.Instruction
+	}
+	var writes []wr
+	var ends []c10ECall // Commit / Rollback
+	writeAt := map[c10At]int{}
+	writeDef := map[c10At]int{}
+	endAt := map[c10At]int{}
+	for _, c := range c10EffCalls(root) {
+		switch {
+		case c10IsKVDB(c.CallSite, "Set", "Delete", "Put", "Inc") && c.Value() != nil:
+			w := wr{c, c10ErrDef(c.Value())}
+			writeAt[c10At{c.fr, c.Instr}] = len(writes)
+			if w.def != nil {
+				writeDef[c10At{c.fr, w.def}] = len(writes)
 			}
-			seen[k] = true
-		}
-		st = st.clone()
-		for i := from; i < len(b.Instrs); i++ {
-			switch x := b.Instrs[i].(type) {
-			case *ssa.Store:
-				if cell, ok := varOf(x.Addr); ok {
-					if al, ok := cell.(*ssa.Alloc); ok {
-						if bt, ok := al.Type().(*types.Pointer).Elem().Underlying().(*types.Basic); ok && bt.Kind() == types.Bool {
-							st.flags[al] = -1
-							if c, ok := x.Val.(*ssa.Const); ok && c.Value != nil {
-								if c.Value.String() == "true" {
-									st.flags[al] = 1
-								} else {
-									st.flags[al] = 0
-								}
-							}
-						}
-					}
-				}
-			case *ssa.Defer:
-				st.defers = append(st.defers, x)
-			case *ssa.Call:
-				c := CallSite{fn, x}
-				if x == begin.Value() {
-					st.begun, st.done = true, false
-				} else if c10IsKVDB(c, "Commit", "Rollback") && AccessPath(c.Args()[0]) == dbPath {
-					st.done = true
-				}
-			case *ssa.If:
-				// the test of the begin error: no transaction is open on the failure edge
-				if bo, ok := x.Cond.(*ssa.BinOp); ok && (bo.X == ev || bo.Y == ev) && (IsNilConst(bo.X) || IsNilConst(bo.Y)) {
-					for _, s := range b.Succs {
-						ns := st.clone()
-						if s == fail {
-							ns.begun = false
-						}
-						walk(s, 0, ns)
-					}
-					return
-				}
-			case *ssa.Return:
-				if !st.begun || st.done {
-					return
-				}
-				for _, d := range st.defers {
-					dc := CallSite{fn, d}
-					if c10IsKVDB(dc, "Commit", "Rollback") {
-						return
-					}
-					if cl := ClosureOf(dc); cl != nil && c10ClosureEnds(cl, st.flags) {
-						return
-					}
-				}
-				leaks = append(leaks, fmt.Sprintf("line %d", p.Fset.Position(x.Pos()).Line))
-				return
-			case *ssa.Panic:
-				return
-			}
-		}
-		for _, s := range b.Succs {
-			walk(s, 0, st)
+			writes = append(writes, w)
+		case c10IsKVDB(c.CallSite, "Commit", "Rollback") && !c.IsGo():
+			endAt[c10At{c.fr, c.Instr}] = len(ends)
+			ends = append(ends, c)
 		}
 	}
-	walk(fn.Blocks[0], 0, c10TxnState{flags: map[*ssa.Alloc]int8{}})
+	var leaks []string
+	insideBad := map[c10At]string{}
+	failBad := map[int]string{}
+	w := &c10Walk[c10TxnSt]{
+		Clone: func(s c10TxnSt) c10TxnSt { return s },
+		Key:   func(s c10TxnSt) string { return fmt.Sprintf("%d/%d", s.phase, s.dirty) },
+	}
+	phaseWhy := func(ph int8) string {
+		switch ph {
+		case 0:
+			return "it can run before BeginTransaction (call does not dominate the site)"
+		case 2:
+			return "it is reached although BeginTransaction failed (site is not on the err==nil edge of the call)"
+		case 3:
+			return "it can run after the transaction was committed or rolled back"
+		}
+		return ""
+	}
+	w.Visit = func(pa *c10Path[c10TxnSt], ev c10Ev) bool {
+		ci, ok := ev.in.(ssa.CallInstruction)
+		if !ok {
+			return false
+		}
+		if _, isDefer := ci.(*ssa.Defer); isDefer && !ev.run {
+			return false
+		}
+		here := c10At{ev.fr, ev.in}
+		if wi, ok := writeAt[here]; ok {
+			if pa.St.phase != 1 && insideBad[here] == "" {
+				insideBad[here] = phaseWhy(pa.St.phase)
+			}
+			_ = wi
+			return false
+		}
+		if ei, ok := endAt[here]; ok {
+			c := ends[ei]
+			if c10PathOf(c.fr, c.Args()[0]) != dbPath {
+				return false
+			}
+			if c.MethodName() == "Commit" {
+				if pa.St.phase != 1 && insideBad[here] == "" {
+					insideBad[here] = phaseWhy(pa.St.phase)
+				}
+				if d := pa.St.dirty; d > 0 && failBad[d-1] == "" {
+					failBad[d-1] = fmt.Sprintf("a path on which this write failed reaches Commit at line %d: a partially applied batch would be committed", line(c.Pos()))
+				}
+			}
+			if pa.St.phase == 1 {
+				pa.St.phase = 3
+			}
+		}
+		return false
+	}
+	w.Fork = func(pa *c10Path[c10TxnSt], ev c10Ev) ssa.Value {
+		here := c10At{ev.fr, ev.in}
+		if ev.fr == begin.fr && ev.in == beginDef {
+			return ev.in.(ssa.Value)
+		}
+		if _, ok := writeDef[here]; ok {
+			return ev.in.(ssa.Value)
+		}
+		return nil
+	}
+	w.Forked = func(pa *c10Path[c10TxnSt], ev c10Ev, k c10K) {
+		here := c10At{ev.fr, ev.in}
+		if ev.fr == begin.fr && ev.in == beginDef {
+			if k == c10Zero {
+				pa.St.phase = 1
+			} else {
+				pa.St.phase = 2
+			}
+			return
+		}
+		if wi, ok := writeDef[here]; ok && k == c10NonZero && pa.St.dirty == 0 {
+			pa.St.dirty = wi + 1
+		}
+	}
+	w.Exit = func(pa *c10Path[c10TxnSt], fr *c10Frame, in ssa.Instruction) {
+		if pa.St.phase == 1 {
+			leaks = append(leaks, fmt.Sprintf("line %d", line(in.Pos())))
+		}
+	}
+	w.Run(root, c10TxnSt{})
+	if w.Overflow {
+		r.Undecided("V-txn", key+"#paired", site, "too many paths through "+FuncKey(fn)+" to interpret")
+		return
+	}
 	r.Check(len(leaks) == 0, "V-txn", key+"#paired", site,
-		"every path from the successful BeginTransaction to an exit passes Commit or Rollback on the same DB (deferred flag-guarded rollback evaluated with the flag's value on that path)",
+		"every path from the successful BeginTransaction to an exit passes Commit or Rollback on the same DB (helpers interpreted in place, deferred calls run at the exit with the value the rollback flag has on that path)",
 		"transaction left open (neither Commit nor Rollback) on the exit(s) at "+strings.Join(dedupe(leaks), ", ")+": the kv file stays inside a transaction and later writes are swallowed by it")
 
-	// (b) writes and the commit happen only on the success edge of the begin
-	// (c) no failure edge of a write reaches Commit
-	var commits []CallSite
-	for _, c := range CallsIn(fn, true) {
-		if c10IsKVDB(c, "Commit") {
-			commits = append(commits, c)
-		}
-	}
+	// (b) writes and the commit happen only inside the open transaction
+	// (c) no path on which a write failed reaches Commit
 	nw := 0
-	for _, c := range CallsIn(fn, false) {
-		if !c10IsKVDB(c, "Set", "Delete", "Put", "Inc", "Commit") || c.Value() == nil {
-			continue
-		}
+	for wi, wr := range writes {
+		c := wr.c
 		nw++
 		ck := key + "#" + c.MethodName()
-		if ok, why := SuccessDominates(begin.Value(), c.Instr); !ok {
-			r.Violation("V-txn", ck+"#inside", p.Pos(c.Pos()), "write is not on the success edge of BeginTransaction ("+why+"): it would be applied outside the transaction and survive a rollback")
-		} else {
-			r.OK("V-txn", ck+"#inside", p.Pos(c.Pos()), "on the success edge of BeginTransaction")
-		}
-		if c.MethodName() == "Commit" {
-			continue
-		}
-		wev, _, wdisc := ErrValue(c.Value())
-		wfail := (*ssa.BasicBlock)(nil)
-		if !wdisc {
-			wfail = c10FailSucc(wev)
-		}
-		if wfail == nil {
+		here := c10At{c.fr, c.Instr}
+		r.Check(insideBad[here] == "", "V-txn", ck+"#inside", p.Pos(c.Pos()), "reached only while the transaction begun by the successful BeginTransaction is open",
+			"write is not inside the transaction ("+insideBad[here]+"): it would be applied outside the transaction and survive a rollback")
+		if wr.def == nil {
 			r.Violation("V-txn", ck+"#failure-not-committed", p.Pos(c.Pos()), "the error of this write is not tested: a batch whose write failed would still be committed, partially applied")
 			continue
 		}
-		reach := BlocksFrom(wfail)
-		bad := ""
-		for _, cm := range commits {
-			if cm.Fn == fn && reach[cm.Block()] {
-				bad = fmt.Sprintf("the failure edge of this write reaches Commit at line %d: a partially applied batch would be committed", p.Fset.Position(cm.Pos()).Line)
-			}
-		}
-		r.Check(bad == "", "V-txn", ck+"#failure-not-committed", p.Pos(c.Pos()), "no path from the failure edge of this write reaches Commit", bad)
+		r.Check(failBad[wi] == "", "V-txn", ck+"#failure-not-committed", p.Pos(c.Pos()), "no path on which this write failed reaches Commit", failBad[wi])
 	}
-	if nw < 2 {
+	nCommit := 0
+	for _, c := range ends {
+		if c.MethodName() != "Commit" || c10PathOf(c.fr, c.Args()[0]) != dbPath {
+			continue
+		}
+		nCommit++
+		here := c10At{c.fr, c.Instr}
+		r.Check(insideBad[here] == "", "V-txn", key+"#Commit#inside", p.Pos(c.Pos()), "reached only while the transaction begun by the successful BeginTransaction is open",
+			"Commit is not inside the transaction ("+insideBad[here]+")")
+	}
+	if nw == 0 || nCommit == 0 {
 		r.Violation("V-txn", key+"#writes", site, "no write and commit found after BeginTransaction")
 	}
 	// (e) one write-mode mutex is held from the begin to every commit/rollback
-	li := AnalyzeLocks(fn, LockSet{})
+	locks := c10Locks(root)
 	var common LockSet
 	first := true
-	for _, c := range CallsIn(fn, true) {
-		if !c10IsKVDB(c, "BeginTransaction", "Set", "Delete", "Commit", "Rollback") {
-			continue
+	see := func(c c10ECall) {
+		ls, ok := locks.HeldAt(c.fr, c.Instr)
+		if c.IsDefer() {
+			ls, ok = locks.held[c10EI{c.fr, c.Instr, true}]
+		}
+		if !ok {
+			return // never reached
 		}
 		held := LockSet{}
-		for k, v := range li.HeldAt(c.Instr) {
+		for k, v := range ls {
 			if v == 'W' {
 				held[k] = v
 			}
@@ -1152,7 +2704,16 @@ func c10CheckKVTxn(p *Program, r *Reporter, fn *ssa.Function, begin CallSite) {
 			common = meet(common, held)
 		}
 	}
-	r.Check(len(common) > 0, "V-txn", key+"#serialized", site,
+	see(begin)
+	for _, wr := range writes {
+		see(wr.c)
+	}
+	for _, c := range ends {
+		if c10PathOf(c.fr, c.Args()[0]) == dbPath {
+			see(c)
+		}
+	}
+	r.Check(len(common) > 0 && !locks.overflow, "V-txn", key+"#serialized", site,
 		"a mutex is held in write mode at BeginTransaction, every write, Commit and Rollback: "+common.String(),
 		"no single mutex is held from BeginTransaction to Commit/Rollback: kv.DB transactions are per database, so two concurrent batches would nest and one's rollback would undo the other")
 }
@@ -1203,117 +2764,145 @@ func c10FieldLoad(v ssa.Value) (base ssa.Value, idx int, ok bool) {
 	return nil, 0, false
 }
 
+type c10SQLSt struct {
+	n       int8 // Commit/Rollback calls so far (capped at 2)
+	rolled  bool
+	noBatch bool // the batch's comma-ok type assertion failed on this path
+}
+
+// c10CheckSQLCommit interprets the paths of sqlkv's CommitBatch (helpers in place).
 func c10CheckSQLCommit(p *Program, r *Reporter) {
 	fn := p.Func("pkg/sorted/sqlkv", "KeyValue", "CommitBatch")
 	key := FuncKey(fn)
-	var ends []CallSite
-	for _, c := range CallsIn(fn, false) {
-		if c10IsSQLTx(c, "Commit", "Rollback") && !c.IsDefer() && !c.IsGo() {
+	root := c10NewRoot(fn)
+	line := func(pos token.Pos) int { return p.Fset.Position(pos).Line }
+	var ends []c10ECall
+	endAt := map[c10At]int{}
+	for _, c := range c10EffCalls(root) {
+		if c10IsSQLTx(c.CallSite, "Commit", "Rollback") && !c.IsGo() {
+			endAt[c10At{c.fr, c.Instr}] = len(ends)
 			ends = append(ends, c)
 		}
 	}
-	isEnd := map[ssa.Instruction]bool{}
-	for _, c := range ends {
-		isEnd[c.Instr] = true
+	// the cells holding the transaction pointer and the sticky error
+	type cells struct {
+		tx, err c10Cell
+		ok      bool
+		why     string
 	}
-	// s1: exactly one of Commit/Rollback on every path that has a batch with a transaction
-	type st struct {
-		b    *ssa.BasicBlock
-		n    int
-		noTx bool
-	}
-	isTxLoad := func(v ssa.Value) bool {
-		_, _, ok := c10FieldLoad(v)
-		return ok && IsNamed(v.Type(), "database/sql", "Tx")
-	}
-	seen := map[st]bool{}
-	var bad []string
-	var walk func(b *ssa.BasicBlock, n int, noTx bool)
-	walk = func(b *ssa.BasicBlock, n int, noTx bool) {
-		if seen[st{b, n, noTx}] {
-			return
-		}
-		seen[st{b, n, noTx}] = true
-		for _, in := range b.Instrs {
-			if isEnd[in] {
-				n++
-			}
-			if ifi, ok := in.(*ssa.If); ok {
-				// `if bt.tx != nil`: on the nil edge there is no transaction to end
-				if bo, ok := ifi.Cond.(*ssa.BinOp); ok && (bo.Op == token.EQL || bo.Op == token.NEQ) &&
-					(IsNilConst(bo.Y) && isTxLoad(bo.X) || IsNilConst(bo.X) && isTxLoad(bo.Y)) {
-					nilSucc := 0
-					if bo.Op == token.NEQ {
-						nilSucc = 1
-					}
-					for i, s := range b.Succs {
-						walk(s, n, noTx || i == nilSucc)
-					}
-					return
-				}
-			}
-			if ret, ok := in.(*ssa.Return); ok {
-				switch {
-				case n == 1:
-				case n == 0 && (noTx || c10OnAssertFailEdge(b)):
-				case n == 0:
-					bad = append(bad, fmt.Sprintf("neither Commit nor Rollback before the return at line %d: the transaction (and its connection) stays open", p.Fset.Position(ret.Pos()).Line))
-				default:
-					bad = append(bad, fmt.Sprintf("both/several Commit/Rollback calls before the return at line %d", p.Fset.Position(ret.Pos()).Line))
-				}
-				return
-			}
-		}
-		for _, s := range b.Succs {
-			walk(s, n, noTx)
-		}
-	}
-	walk(fn.Blocks[0], 0, false)
-	r.Check(len(bad) == 0 && len(ends) >= 2, "V-txn", key+"#commit-xor-rollback", p.Pos(fn.Pos()),
-		"every path that holds a *batchTx ends the sql transaction exactly once (Commit or Rollback)", strings.Join(dedupe(bad), "; ")+c10If(len(ends) < 2, " CommitBatch no longer contains both a Commit and a Rollback", ""))
-	for _, c := range ends {
-		base, _, ok := c10FieldLoad(c.Args()[0])
+	info := make([]cells, len(ends))
+	for i, c := range ends {
+		base, idx, ok := c10FieldLoad(c.Args()[0])
 		if !ok {
-			r.Undecided("V-txn", key+"#"+c.MethodName(), p.Pos(c.Pos()), "the *sql.Tx is not loaded from a field of the batch object")
+			info[i].why = "the *sql.Tx is not loaded from a field of the batch object"
 			continue
 		}
 		errIdx := c10ErrField(base.Type())
 		if errIdx < 0 {
-			r.Undecided("V-txn", key+"#"+c.MethodName(), p.Pos(c.Pos()), "the batch type has no single error field")
+			info[i].why = "the batch type has no single error field"
 			continue
 		}
-		k, isNil := c10FieldNilFact(c.Block(), base, errIdx)
+		b := c10Res(c.fr, base).v
+		info[i] = cells{tx: c10FieldCell(b, idx), err: c10FieldCell(b, errIdx), ok: true}
+	}
+	var bad []string
+	endBad := map[int]string{}
+	errIdx := ErrResultIndex(fn)
+	w := &c10Walk[c10SQLSt]{
+		Clone: func(s c10SQLSt) c10SQLSt { return s },
+		Key:   func(s c10SQLSt) string { return fmt.Sprint(s) },
+	}
+	w.Visit = func(pa *c10Path[c10SQLSt], ev c10Ev) bool {
+		ci, ok := ev.in.(ssa.CallInstruction)
+		if !ok {
+			return false
+		}
+		if _, isDefer := ci.(*ssa.Defer); isDefer && !ev.run {
+			return false
+		}
+		ei, ok := endAt[c10At{ev.fr, ev.in}]
+		if !ok {
+			return false
+		}
+		if pa.St.n < 2 {
+			pa.St.n++
+		}
+		c := ends[ei]
+		if !info[ei].ok {
+			return false
+		}
+		k := pa.mem[info[ei].err]
 		if c.MethodName() == "Commit" {
-			r.Check(k && isNil, "V-txn", key+"#Commit", p.Pos(c.Pos()),
-				"Commit is reached only where the batch's sticky error is known nil",
-				"Commit is not dominated by the test that the batch's sticky error is nil: a batch one of whose statements failed would be committed, partially applied")
-			continue
-		}
-		// Rollback: must be on the error edge, and the function must then return the sticky error
-		okR := k && !isNil
-		why := "Rollback is not on the sticky-error edge"
-		if okR {
-			idx := ErrResultIndex(fn)
-			// every return that can FOLLOW the Rollback (reachable from it), not only
-			// those its block dominates: with `if bt.tx != nil { Rollback }; return
-			// bt.err` the return is shared with the no-transaction path
-			after := ReachableFrom(c.Instr, nil)
-			for _, ri := range Returns(fn) {
-				if !after[ri.Ret] {
-					continue
-				}
-				v := ri.Results[idx]
-				b2, i2, isLoad := c10FieldLoad(v)
-				if isLoad && i2 == errIdx && sameOrigin(b2, base) {
-					continue
-				}
-				if !IsNilConst(v) && isNonNilErrorExpr(v) {
-					continue
-				}
-				okR, why = false, fmt.Sprintf("after Rollback the return at line %d does not yield the batch's error: the caller would take a rolled-back batch for a committed one", p.Fset.Position(ri.Ret.Pos()).Line)
+			if k != c10Zero && endBad[ei] == "" {
+				endBad[ei] = "Commit is not dominated by the test that the batch's sticky error is nil: a batch one of whose statements failed would be committed, partially applied"
+			}
+		} else {
+			pa.St.rolled = true
+			if k != c10NonZero && endBad[ei] == "" {
+				endBad[ei] = "Rollback is not on the sticky-error edge"
 			}
 		}
-		r.Check(okR, "V-txn", key+"#Rollback", p.Pos(c.Pos()), "Rollback only on the sticky-error edge, and the sticky error is returned afterwards", why)
+		return false
+	}
+	w.Fork = func(pa *c10Path[c10SQLSt], ev c10Ev) ssa.Value {
+		if ex, ok := ev.in.(*ssa.Extract); ok && ex.Index == 1 {
+			if ta, ok := ex.Tuple.(*ssa.TypeAssert); ok && ta.CommaOk {
+				return ex
+			}
+		}
+		return nil
+	}
+	w.Forked = func(pa *c10Path[c10SQLSt], ev c10Ev, k c10K) {
+		if k == c10Zero {
+			pa.St.noBatch = true
+		}
+	}
+	w.Exit = func(pa *c10Path[c10SQLSt], fr *c10Frame, in ssa.Instruction) {
+		ret, ok := in.(*ssa.Return)
+		if !ok {
+			return
+		}
+		switch {
+		case pa.St.n == 1:
+		case pa.St.n == 0:
+			noTx := pa.St.noBatch
+			for _, ci := range info {
+				if ci.ok && pa.mem[ci.tx] == c10Zero {
+					noTx = true
+				}
+			}
+			if !noTx {
+				bad = append(bad, fmt.Sprintf("neither Commit nor Rollback before the return at line %d: the transaction (and its connection) stays open", line(ret.Pos())))
+			}
+		default:
+			bad = append(bad, fmt.Sprintf("both/several Commit/Rollback calls before the return at line %d", line(ret.Pos())))
+		}
+		if pa.St.rolled && errIdx >= 0 && pa.Eval(fr, ret.Results[errIdx]) != c10NonZero {
+			for ei, c := range ends {
+				if c.MethodName() == "Rollback" && endBad[ei] == "" {
+					endBad[ei] = fmt.Sprintf("after Rollback the return at line %d does not yield the batch's (non-nil) error: the caller would take a rolled-back batch for a committed one", line(ret.Pos()))
+				}
+			}
+		}
+	}
+	w.Run(root, c10SQLSt{})
+	if w.Overflow {
+		r.Undecided("V-txn", key+"#commit-xor-rollback", p.Pos(fn.Pos()), "too many paths through CommitBatch to interpret")
+		return
+	}
+	r.Check(len(bad) == 0 && len(ends) >= 2, "V-txn", key+"#commit-xor-rollback", p.Pos(fn.Pos()),
+		"every path that holds a *batchTx ends the sql transaction exactly once (Commit or Rollback)", strings.Join(dedupe(bad), "; ")+c10If(len(ends) < 2, " CommitBatch no longer contains both a Commit and a Rollback", ""))
+	for ei, c := range ends {
+		name := c.MethodName()
+		if !info[ei].ok {
+			r.Undecided("V-txn", key+"#"+name, p.Pos(c.Pos()), info[ei].why)
+			continue
+		}
+		if name == "Commit" {
+			r.Check(endBad[ei] == "", "V-txn", key+"#Commit", p.Pos(c.Pos()), "Commit is reached only where the batch's sticky error is known nil", endBad[ei])
+		} else {
+			r.Check(endBad[ei] == "", "V-txn", key+"#Rollback", p.Pos(c.Pos()), "Rollback only on the sticky-error edge, and the sticky error is returned afterwards", endBad[ei])
+		}
 	}
 }
 
@@ -1322,19 +2911,6 @@ func c10If(c bool, a, b string) string {
 		return a
 	}
 	return b
-}
-
-// c10OnAssertFailEdge: block b is dominated by the ok==false edge of a
-// comma-ok type assertion.
-func c10OnAssertFailEdge(b *ssa.BasicBlock) bool {
-	for _, f := range FactsAt(b) {
-		if ex, ok := f.Cond.(*ssa.Extract); ok && ex.Index == 1 && !f.Val {
-			if ta, ok := ex.Tuple.(*ssa.TypeAssert); ok && ta.CommaOk {
-				return true
-			}
-		}
-	}
-	return false
 }
 
 // c10ErrField returns the index of the only field of type error in the struct
@@ -1362,7 +2938,8 @@ func c10ErrField(t types.Type) int {
 // c10CheckNilTx: a pointer stored into a struct field together with the error
 // it was co-returned with (beginTx: batchTx{tx: tx, err: err}) may be nil
 // whenever that error field is non-nil; it may be used only where the error
-// field is known nil or the pointer itself known non-nil.
+// field is known nil or the pointer itself known non-nil. Decided per path of
+// every entry function of the package (helpers in the context of each caller).
 func c10CheckNilTx(p *Program, r *Reporter) {
 	const rel = "pkg/sorted/sqlkv"
 	fns := p.FuncsIn(rel)
@@ -1413,8 +2990,18 @@ func c10CheckNilTx(p *Program, r *Reporter) {
 		r.Violation("V-txn", rel+"#nil-tx#constructor", rel, "no constructor stores a (*sql.Tx, error) pair into a batch object any more; the nil-tx rule has nothing to stand on")
 		return
 	}
+	line := func(pos token.Pos) int { return p.Fset.Position(pos).Line }
 	n := 0
 	for _, pr := range pairs {
+		// the loads of the pointer field and the instructions that use them
+		type ldInfo struct {
+			fn   *ssa.Function
+			ld   *ssa.UnOp
+			base ssa.Value
+			uses []ssa.Instruction
+		}
+		var loads []*ldInfo
+		useOf := map[ssa.Instruction][]*ldInfo{}
 		for _, fn := range fns {
 			for _, b := range fn.Blocks {
 				for _, in := range b.Instrs {
@@ -1430,27 +3017,71 @@ func c10CheckNilTx(p *Program, r *Reporter) {
 					if len(uses) == 0 {
 						continue
 					}
-					n++
-					construct := FuncKey(fn) + "#nil-tx"
-					bad := ""
+					li := &ldInfo{fn, ld, fa.X, uses}
+					loads = append(loads, li)
 					for _, u := range uses {
-						if k, isNil := c10FieldNilFact(u.Block(), fa.X, pr.errI); k && isNil {
-							continue
-						}
-						if k, isNil := c10FieldNilFact(u.Block(), fa.X, pr.ptr); k && !isNil {
-							continue
-						}
-						if k, isNil := NilFact(u.Block(), ld); k && !isNil {
-							continue
-						}
-						bad = fmt.Sprintf("%s.%s is used at line %d where %s is not known nil; %s stores both from one failing call, so the pointer is nil there (nil-pointer panic instead of an error)",
-							pr.typ.Obj().Name(), fieldName(fa.X.Type(), pr.ptr), p.Fset.Position(u.Pos()).Line, fieldName(fa.X.Type(), pr.errI), FuncKey(pr.where))
-						break
+						useOf[u] = append(useOf[u], li)
 					}
-					r.Check(bad == "", "V-txn", construct, p.Pos(ld.Pos()),
-						fmt.Sprintf("%d use(s) of the co-stored pointer, all where the error field is known nil or the pointer known non-nil", len(uses)), bad)
 				}
 			}
+		}
+		bad := map[*ldInfo]string{}
+		seen := map[*ldInfo]bool{}
+		for _, root := range c10Roots(p, fns) {
+			fn := root.fn
+			w := &c10Walk[struct{}]{}
+			w.Visit = func(pa *c10Path[struct{}], ev c10Ev) bool {
+				if _, isDefer := ev.in.(*ssa.Defer); isDefer && !ev.run {
+					return false
+				}
+				for _, li := range useOf[ev.in] {
+					seen[li] = true
+					if bad[li] != "" {
+						continue
+					}
+					if pa.Eval(ev.fr, li.ld) == c10NonZero {
+						continue
+					}
+					b := c10Res(ev.fr, li.base).v
+					if pa.mem[c10FieldCell(b, pr.errI)] == c10Zero || pa.mem[c10FieldCell(b, pr.ptr)] == c10NonZero {
+						continue
+					}
+					bad[li] = fmt.Sprintf("%s.%s is used at line %d where %s is not known nil (entered through %s); %s stores both from one failing call, so the pointer is nil there (nil-pointer panic instead of an error)",
+						pr.typ.Obj().Name(), fieldName(li.base.Type(), pr.ptr), line(ev.in.Pos()), fieldName(li.base.Type(), pr.errI), FuncKey(fn), FuncKey(pr.where))
+				}
+				return false
+			}
+			w.Run(root, struct{}{})
+			if w.Overflow {
+				for _, li := range loads {
+					if bad[li] == "" && TopFunc(li.fn) == fn {
+						bad[li] = "too many paths through " + FuncKey(fn) + " to interpret"
+					}
+				}
+			}
+		}
+		for _, li := range loads {
+			n++
+			construct := FuncKey(li.fn) + "#nil-tx"
+			if !seen[li] {
+				// not on any interpreted path (function literal handed to someone else, go statement): dominating tests of the same function
+				for _, u := range li.uses {
+					if k, isNil := c10FieldNilFact(u.Block(), li.base, pr.errI); k && isNil {
+						continue
+					}
+					if k, isNil := c10FieldNilFact(u.Block(), li.base, pr.ptr); k && !isNil {
+						continue
+					}
+					if k, isNil := NilFact(u.Block(), li.ld); k && !isNil {
+						continue
+					}
+					bad[li] = fmt.Sprintf("%s.%s is used at line %d where %s is not known nil; %s stores both from one failing call, so the pointer is nil there (nil-pointer panic instead of an error)",
+						pr.typ.Obj().Name(), fieldName(li.base.Type(), pr.ptr), line(u.Pos()), fieldName(li.base.Type(), pr.errI), FuncKey(pr.where))
+					break
+				}
+			}
+			r.Check(bad[li] == "", "V-txn", construct, p.Pos(li.ld.Pos()),
+				fmt.Sprintf("%d use(s) of the co-stored pointer, all where the error field is known nil or the pointer known non-nil", len(li.uses)), bad[li])
 		}
 	}
 	if n < 6 {
@@ -1518,13 +3149,17 @@ func c10FieldChain(v ssa.Value) (root ssa.Value, idx []int) {
 type c10BufInfo struct {
 	typ           *types.Named
 	bufIdx, backI int
+	muIdx         int   // the sync.RWMutex field ("mu")
+	bufMuIdx      int   // the sync.Mutex field ("bufMu")
+	counters      []int // numeric fields written outside the constructor ("buffered")
 }
 
 // role of a store value: "buf" / "back" / "" — by the constructor's parameter
-// positions (New(buffer, backing, ...)), not by field names.
-func (bi *c10BufInfo) role(fn *ssa.Function, v ssa.Value) string {
-	root, idx := c10FieldChain(v)
-	if len(idx) != 1 || len(fn.Params) == 0 || NamedOf(root.Type()) != bi.typ {
+// positions (New(buffer, backing, ...)), not by field names. v is a value of
+// activation fr (a parameter of a helper stands for the caller's argument).
+func (bi *c10BufInfo) role(fr *c10Frame, v ssa.Value) string {
+	root, idx := c10FieldChain(c10Res(fr, v).v)
+	if len(idx) != 1 || NamedOf(root.Type()) != bi.typ {
 		return ""
 	}
 	switch idx[0] {
@@ -1536,43 +3171,106 @@ func (bi *c10BufInfo) role(fn *ssa.Function, v ssa.Value) string {
 	return ""
 }
 
-// batchRole: the store a batch value was begun on ("" when unknown or mixed).
-func (bi *c10BufInfo) batchRole(fn *ssa.Function, v ssa.Value, depth int) string {
-	roles := map[string]bool{}
-	seen := map[ssa.Value]bool{}
-	var walk func(v ssa.Value)
-	walk = func(v ssa.Value) {
-		if v == nil || seen[v] || IsNilConst(v) {
+// owner: the *KeyValue value whose buf/back field v is loaded from.
+func (bi *c10BufInfo) owner(fr *c10Frame, v ssa.Value) c10EV {
+	e := c10Res(fr, v)
+	root, _ := c10FieldChain(e.v)
+	return c10EV{e.fr.frameFor(root), root}
+}
+
+// c10Origins expands v into the values it may stand for: through phis,
+// local variables (every store), conversions, helper parameters (the caller's
+// argument) and the results of helpers that are part of the effective body
+// (what they return). nil constants are dropped.
+func c10Origins(fr *c10Frame, v ssa.Value) []c10EV {
+	var out []c10EV
+	type key struct {
+		fr *c10Frame
+		v  ssa.Value
+	}
+	seen := map[key]bool{}
+	var walk func(fr *c10Frame, v ssa.Value, d int)
+	walk = func(fr *c10Frame, v ssa.Value, d int) {
+		if v == nil || IsNilConst(v) || seen[key{fr, v}] {
 			return
 		}
-		seen[v] = true
+		seen[key{fr, v}] = true
+		if d > 16 {
+			out = append(out, c10EV{fr, v})
+			return
+		}
 		switch x := v.(type) {
-		case *ssa.Call:
-			if x.Call.IsInvoke() && x.Call.Method.Name() == "BeginBatch" {
-				roles[bi.role(fn, x.Call.Value)] = true
-				return
-			}
 		case *ssa.Phi:
 			for _, e := range x.Edges {
-				walk(e)
+				walk(fr, e, d+1)
 			}
 			return
+		case *ssa.ChangeInterface:
+			walk(fr, x.X, d+1)
+			return
+		case *ssa.MakeInterface:
+			walk(fr, x.X, d+1)
+			return
+		case *ssa.ChangeType:
+			walk(fr, x.X, d+1)
+			return
+		case *ssa.Parameter:
+			if pf, a, ok := fr.argFor(x); ok {
+				walk(pf, a, d+1)
+				return
+			}
 		case *ssa.UnOp:
 			if x.Op == token.MUL {
 				if cell, ok := varOf(x.X); ok {
-					sts := storesTo(cell)
-					for _, st := range sts {
-						walk(st.Val)
+					if sts := storesTo(cell); len(sts) > 0 {
+						for _, st := range sts {
+							walk(fr.frameFor(st.Val), st.Val, d+1)
+						}
+						return
 					}
-					if len(sts) > 0 {
+				}
+			}
+		case *ssa.Call:
+			if fr != nil {
+				if k := fr.child(x); k != nil {
+					rets := Returns(k.fn)
+					if len(rets) > 0 && len(rets[0].Results) == 1 {
+						for _, ri := range rets {
+							walk(k, ri.Results[0], d+1)
+						}
+						return
+					}
+				}
+			}
+		case *ssa.Extract:
+			if call, ok := x.Tuple.(*ssa.Call); ok && fr != nil {
+				if k := fr.child(call); k != nil {
+					rets := Returns(k.fn)
+					if len(rets) > 0 && x.Index < len(rets[0].Results) {
+						for _, ri := range rets {
+							walk(k, ri.Results[x.Index], d+1)
+						}
 						return
 					}
 				}
 			}
 		}
-		roles["?"] = true
+		out = append(out, c10EV{fr, v})
 	}
-	walk(v)
+	walk(fr, v, 0)
+	return out
+}
+
+// batchRole: the store a batch value was begun on ("" when unknown or mixed).
+func (bi *c10BufInfo) batchRole(fr *c10Frame, v ssa.Value) string {
+	roles := map[string]bool{}
+	for _, o := range c10Origins(fr, v) {
+		if call, ok := o.v.(*ssa.Call); ok && call.Call.IsInvoke() && call.Call.Method.Name() == "BeginBatch" {
+			roles[bi.role(o.fr, call.Call.Value)] = true
+		} else {
+			roles["?"] = true
+		}
+	}
 	if len(roles) != 1 {
 		return ""
 	}
@@ -1584,17 +3282,36 @@ func (bi *c10BufInfo) batchRole(fn *ssa.Function, v ssa.Value, depth int) string
 	return ""
 }
 
-// exceptions: accesses to buf/back that deliberately happen without kv.mu.
-var c10BufLockExceptions = map[string]string{
-	"pkg/sorted/buffer.(*KeyValue).Find#buf.Find":    "iterators outlive the call; holding the read lock for an iterator's life would block Flush indefinitely (source TODO: 'hold read lock while iterating?') — accepted, and excluded from what this rule decides",
-	"pkg/sorted/buffer.(*KeyValue).Find#back.Find":   "same as buf.Find",
-	"pkg/sorted/buffer.(*KeyValue).Close#back.Close": "terminal call after Flush released mu; using a store concurrently with its Close is the caller's error for every sorted.KeyValue",
+// c10EffLoop: the innermost loop of the effective body that contains block
+// blk of activation fr, looking outwards through the call sites.
+func c10EffLoop(fr *c10Frame, blk *ssa.BasicBlock) (*c10Frame, *ssa.BasicBlock) {
+	for fr != nil {
+		if h := c10LoopHeader(blk); h != nil {
+			return fr, h
+		}
+		if fr.site == nil || fr.parent == nil {
+			break
+		}
+		blk, fr = fr.site.Block(), fr.parent
+	}
+	return nil, nil
 }
+
+// exceptions: accesses to buf/back that deliberately happen without kv.mu,
+// keyed by the entry method in whose effective body they happen.
+var c10BufLockExceptions = map[string]string{
+	"Find#buf.Find":    "iterators outlive the call; holding the read lock for an iterator's life would block Flush indefinitely (source TODO: 'hold read lock while iterating?') — accepted, and excluded from what this rule decides",
+	"Find#back.Find":   "same as buf.Find",
+	"Close#back.Close": "terminal call after Flush released mu; using a store concurrently with its Close is the caller's error for every sorted.KeyValue",
+}
+
+func c10IsSyncType(t types.Type, name string) bool { return IsNamed(t, "sync", name) }
 
 func c10RuleBuffer(p *Program, r *Reporter) {
 	typ := p.NamedType(c10BufRel, "KeyValue")
 	ctor := p.Func(c10BufRel, "", "New")
-	bi := &c10BufInfo{typ: typ, bufIdx: -1, backI: -1}
+	bi := &c10BufInfo{typ: typ, bufIdx: -1, backI: -1, muIdx: -1, bufMuIdx: -1}
+	ctorStores := map[int]bool{}
 	for _, b := range ctor.Blocks {
 		for _, in := range b.Instrs {
 			st, ok := in.(*ssa.Store)
@@ -1605,6 +3322,7 @@ func c10RuleBuffer(p *Program, r *Reporter) {
 			if !ok || NamedOf(fa.X.Type()) != typ {
 				continue
 			}
+			ctorStores[fa.Field] = true
 			if len(ctor.Params) >= 2 && st.Val == ssa.Value(ctor.Params[0]) {
 				bi.bufIdx = fa.Field
 			}
@@ -1616,91 +3334,211 @@ func c10RuleBuffer(p *Program, r *Reporter) {
 	if bi.bufIdx < 0 || bi.backI < 0 {
 		brokenf("anchor unresolved: buffer.New no longer stores its (buffer, backing) parameters into fields of KeyValue")
 	}
-	flush := p.Func(c10BufRel, "KeyValue", "Flush")
-	var methods []*ssa.Function
-	for _, fn := range p.FuncsIn(c10BufRel) {
-		if fn.Parent() == nil && fn.Signature.Recv() != nil && NamedOf(fn.Signature.Recv().Type()) == typ {
-			methods = append(methods, fn)
+	// the locks and the mutable counter by role: the RWMutex, the Mutex, the
+	// numeric field(s) that methods write
+	st, _ := typ.Underlying().(*types.Struct)
+	if st == nil {
+		brokenf("anchor unresolved: buffer.KeyValue is not a struct")
+	}
+	for i := 0; i < st.NumFields(); i++ {
+		switch t := st.Field(i).Type(); {
+		case c10IsSyncType(t, "RWMutex"):
+			if bi.muIdx >= 0 {
+				brokenf("anchor unresolved: buffer.KeyValue has two sync.RWMutex fields")
+			}
+			bi.muIdx = i
+		case c10IsSyncType(t, "Mutex"):
+			if bi.bufMuIdx >= 0 {
+				brokenf("anchor unresolved: buffer.KeyValue has two sync.Mutex fields")
+			}
+			bi.bufMuIdx = i
 		}
 	}
-	muPath := func(fn *ssa.Function, field string) string { return "&" + fn.Params[0].Name() + "." + field }
-	nAcc := 0
-	usedExc := map[string]bool{}
-	locksTaken := map[*ssa.Function][]string{} // receiver-relative lock paths a method acquires itself
-	for _, fn := range methods {
-		for _, c := range CallsIn(fn, false) {
-			if k, pth, ok := mutexOp(c); ok && (k == "Lock" || k == "RLock") && !c.IsDefer() {
-				locksTaken[fn] = append(locksTaken[fn], pth)
-			}
-		}
+	if bi.muIdx < 0 || bi.bufMuIdx < 0 {
+		brokenf("anchor unresolved: buffer.KeyValue no longer has one sync.RWMutex (store lock) and one sync.Mutex (counter lock)")
 	}
-	for _, fn := range methods {
-		li := AnalyzeLocks(fn, LockSet{})
-		for _, c := range CallsIn(fn, true) {
-			// L1: buf/back accesses
-			if c.Common().IsInvoke() {
-				role := bi.role(c.Fn, c.Common().Value)
-				if role == "" {
-					continue
-				}
-				nAcc++
-				what := role + "." + c.MethodName()
-				construct := FuncKey(fn) + "#" + what
-				site := p.Pos(c.Pos())
-				need := byte('R')
-				if fn == flush {
-					need = 'W'
-				}
-				if li.Holds(c.Instr, muPath(fn, "mu"), need) {
-					r.OK("V-buffer-locks", construct, site, fmt.Sprintf("kv.mu held (%c needed) at the access: %s", need, li.HeldAt(c.Instr)))
-					continue
-				}
-				if why, ok := c10BufLockExceptions[construct]; ok {
-					usedExc[construct] = true
-					r.OKTable("V-buffer-locks", construct, site, "exception: "+why)
-					continue
-				}
-				mode := "read"
-				if need == 'W' {
-					mode = "write"
-				}
-				r.Violation("V-buffer-locks", construct, site, fmt.Sprintf("%s is called without kv.mu held for %s (held: %s): a Flush moving keys from buf to back can interleave, so the key is seen in neither store or a write is deleted by the flush", what, mode, li.HeldAt(c.Instr)))
-				continue
-			}
-			// L3: no call of a sibling method that takes a lock the caller holds
-			if f := c.Callee(); f != nil && len(locksTaken[f]) > 0 && len(c.Args()) > 0 && !c.IsGo() {
-				for _, lp := range locksTaken[f] {
-					tp, ok := TranslatePath(c, f, lp)
-					if !ok {
-						continue
-					}
-					held := li.HeldAt(c.Instr)
-					if c.IsDefer() {
-						continue
-					}
-					_, isHeld := held[tp]
-					r.Check(!isHeld, "V-buffer-locks", FuncKey(fn)+"#calls-"+f.Name()+"#"+lp, p.Pos(c.Pos()),
-						"calls "+f.Name()+" (which takes "+lp+") without holding that lock",
-						"calls "+f.Name()+", which locks "+tp+", while already holding it ("+held.String()+"): sync mutexes are not reentrant — self-deadlock")
-				}
-			}
+	pkgFns := p.FuncsIn(c10BufRel)
+	isCounter := map[int]bool{}
+	for _, fn := range pkgFns {
+		if fn == ctor {
+			continue
 		}
-		// L2: buffered only under bufMu
 		for _, b := range fn.Blocks {
 			for _, in := range b.Instrs {
-				fa, ok := in.(*ssa.FieldAddr)
-				if !ok || NamedOf(fa.X.Type()) != typ || fieldName(fa.X.Type(), fa.Field) != "buffered" {
-					continue
+				if s, ok := in.(*ssa.Store); ok {
+					if fa, ok := s.Addr.(*ssa.FieldAddr); ok && NamedOf(fa.X.Type()) == typ {
+						if bt, ok := st.Field(fa.Field).Type().Underlying().(*types.Basic); ok && bt.Info()&types.IsNumeric != 0 && !isCounter[fa.Field] {
+							isCounter[fa.Field] = true
+							bi.counters = append(bi.counters, fa.Field)
+						}
+					}
 				}
-				for _, u := range *fa.Referrers() {
+			}
+		}
+	}
+	muName, bufMuName := st.Field(bi.muIdx).Name(), st.Field(bi.bufMuIdx).Name()
+	flush := p.Func(c10BufRel, "KeyValue", "Flush")
+	// entry functions: everything that is not only ever called as a helper
+	roots := c10Roots(p, pkgFns)
+	// locks a function's effective body takes itself, relative to its parameters
+	locksTaken := map[*ssa.Function][]string{}
+	for _, fn := range pkgFns {
+		if fn.Parent() != nil || len(fn.Blocks) == 0 {
+			continue
+		}
+		seen := map[string]bool{}
+		for _, c := range c10EffCalls(c10NewRoot(fn)) {
+			if k, mu, ok := c10MutexOp(c.CallSite); ok && (k == "Lock" || k == "RLock") && !c.IsDefer() && !c.IsGo() {
+				if pth := c10PathOf(c.fr, mu); !seen[pth] {
+					seen[pth] = true
+					locksTaken[fn] = append(locksTaken[fn], pth)
+				}
+			}
+		}
+	}
+	nAcc := 0
+	usedExc := map[string]bool{}
+	type verdict struct {
+		site    string
+		ok      bool
+		table   bool
+		detail  string
+		present bool
+	}
+	var order []string
+	verdicts := map[string]*verdict{}
+	report := func(construct, site string, ok, table bool, detail string) {
+		v := verdicts[construct+"@"+site]
+		if v == nil {
+			v = &verdict{site: site, ok: true}
+			verdicts[construct+"@"+site] = v
+			order = append(order, construct+"@"+site)
+		}
+		if !v.present || v.ok && !ok {
+			v.ok, v.table, v.detail = ok, table, detail
+		}
+		v.present = true
+	}
+	for _, rt := range roots {
+		locks := c10Locks(rt)
+		rootName := ""
+		if rt.fn.Signature.Recv() != nil && NamedOf(rt.fn.Signature.Recv().Type()) == typ {
+			rootName = rt.fn.Name()
+		}
+		heldAt := func(c c10ECall) LockSet {
+			if c.IsDefer() {
+				if ls, ok := locks.held[c10EI{c.fr, c.Instr, true}]; ok {
+					return ls
+				}
+				return LockSet{}
+			}
+			ls, _ := locks.HeldAt(c.fr, c.Instr)
+			return ls
+		}
+		ownerPath := func(e c10EV, field string) string {
+			base := c10PathOf(e.fr, e.v)
+			base = strings.TrimPrefix(base, "&")
+			return "&" + base + "." + field
+		}
+		c10EachInstr(rt, func(fr *c10Frame, in ssa.Instruction) {
+			switch x := in.(type) {
+			case ssa.CallInstruction:
+				c := c10ECall{fr, CallSite{fr.fn, x}}
+				if c.IsGo() {
+					return
+				}
+				// L1: buf/back accesses
+				if c.Common().IsInvoke() {
+					role := bi.role(fr, c.Common().Value)
+					if role == "" {
+						return
+					}
+					nAcc++
+					what := role + "." + c.MethodName()
+					construct := FuncKey(fr.fn) + "#" + what
+					site := p.Pos(c.Pos())
+					need := byte('R')
+					if rt.fn == flush {
+						need = 'W'
+					}
+					held := heldAt(c)
+					mu := ownerPath(bi.owner(fr, c.Common().Value), muName)
+					if locks.overflow {
+						report(construct, site, false, false, "too many paths through "+FuncKey(rt.fn)+" to interpret")
+						return
+					}
+					if c10Holds(held, mu, need) {
+						report(construct, site, true, false, fmt.Sprintf("kv.%s held (%c needed) at the access: %s", muName, need, held))
+						return
+					}
+					if why, ok := c10BufLockExceptions[rootName+"#"+what]; ok {
+						usedExc[rootName+"#"+what] = true
+						report(construct, site, true, true, "exception: "+why)
+						return
+					}
+					mode := "read"
+					if need == 'W' {
+						mode = "write"
+					}
+					report(construct, site, false, false, fmt.Sprintf("%s is called (entered through %s) without kv.%s held for %s (held: %s): a Flush moving keys from buf to back can interleave, so the key is seen in neither store or a write is deleted by the flush", what, FuncKey(rt.fn), muName, mode, held))
+					return
+				}
+				// L3: no mutex is taken (directly, in a helper, or by a sibling method) while it is already held
+				if c.IsDefer() {
+					return
+				}
+				if k, muv, ok := c10MutexOp(c.CallSite); ok && (k == "Lock" || k == "RLock") {
+					pth := c10PathOf(fr, muv)
+					held := heldAt(c)
+					if _, isHeld := held[pth]; isHeld {
+						report(FuncKey(fr.fn)+"#relock#"+pth, p.Pos(c.Pos()), false, false, "locks "+pth+" while the caller ("+FuncKey(rt.fn)+") already holds it ("+held.String()+"): sync mutexes are not reentrant — self-deadlock")
+					}
+					return
+				}
+				if f := c.Callee(); f != nil && fr.child(x) == nil && len(locksTaken[f]) > 0 && len(c.Args()) > 0 {
+					for _, lp := range locksTaken[f] {
+						tp, ok := c10Translate(fr, c.CallSite, f, lp)
+						if !ok {
+							continue
+						}
+						held := heldAt(c)
+						_, isHeld := held[tp]
+						report(FuncKey(fr.fn)+"#calls-"+f.Name()+"#"+lp, p.Pos(c.Pos()), !isHeld, false,
+							c10If(!isHeld, "calls "+f.Name()+" (which takes "+lp+") without holding that lock",
+								"calls "+f.Name()+", which locks "+tp+", while already holding it ("+held.String()+"): sync mutexes are not reentrant — self-deadlock"))
+					}
+				}
+			case *ssa.FieldAddr:
+				// L2: the counter only under the counter lock
+				if NamedOf(x.X.Type()) != typ || !isCounter[x.Field] {
+					return
+				}
+				for _, u := range *x.Referrers() {
 					switch u.(type) {
 					case *ssa.Store, *ssa.UnOp:
 						nAcc++
-						r.Check(li.Holds(u, muPath(fn, "bufMu"), 'W'), "V-buffer-locks", FuncKey(fn)+"#buffered", p.Pos(u.Pos()),
-							"kv.buffered accessed under kv.bufMu", "kv.buffered accessed without kv.bufMu (held: "+li.HeldAt(u).String()+"): concurrent Sets race on the byte count that triggers the automatic flush")
+						held, _ := locks.HeldAt(fr, u)
+						own := c10Res(fr, x.X)
+						lockPath := ownerPath(c10EV{own.fr, own.v}, bufMuName)
+						name := st.Field(x.Field).Name()
+						report(FuncKey(fr.fn)+"#"+name, p.Pos(u.Pos()), c10Holds(held, lockPath, 'W') && !locks.overflow, false,
+							c10If(c10Holds(held, lockPath, 'W'), "kv."+name+" accessed under kv."+bufMuName,
+								"kv."+name+" accessed without kv."+bufMuName+" (held: "+held.String()+"): concurrent Sets race on the byte count that triggers the automatic flush"))
 					}
 				}
 			}
+		})
+	}
+	for _, k := range order {
+		v := verdicts[k]
+		construct := k[:strings.LastIndex(k, "@")]
+		switch {
+		case !v.ok:
+			r.Violation("V-buffer-locks", construct, v.site, v.detail)
+		case v.table:
+			r.OKTable("V-buffer-locks", construct, v.site, v.detail)
+		default:
+			r.OK("V-buffer-locks", construct, v.site, v.detail)
 		}
 	}
 	for k := range c10BufLockExceptions {
@@ -1719,171 +3557,344 @@ func c10RuleBuffer(p *Program, r *Reporter) {
 	r.Floor("V-buffer-locks", 30)
 }
 
+// c10Translate rewrites a path rooted at a parameter of callee into the
+// terms of the root activation, using the arguments of call c in activation fr.
+func c10Translate(fr *c10Frame, c CallSite, callee *ssa.Function, path string) (string, bool) {
+	pre := ""
+	for strings.HasPrefix(path, "&") || strings.HasPrefix(path, "*") {
+		pre, path = pre+path[:1], path[1:]
+	}
+	args := c.Args()
+	for i, prm := range callee.Params {
+		if i >= len(args) {
+			break
+		}
+		name := prm.Name()
+		if path == name || strings.HasPrefix(path, name+".") || strings.HasPrefix(path, name+"[") {
+			ap := c10PathOf(fr, args[i])
+			if strings.HasPrefix(ap, "&") || strings.HasPrefix(ap, "*") || strings.HasPrefix(ap, "?") {
+				if path != name {
+					if strings.HasPrefix(ap, "&") {
+						ap = ap[1:]
+					} else {
+						return "", false
+					}
+				}
+			}
+			return pre + ap + path[len(name):], true
+		}
+	}
+	return "", false
+}
+
+type c10FlushSt struct {
+	back     int8 // commit of the copy to back: 0 not run, 1 succeeded, 2 failed
+	set, del bool // this iteration of the buf iterator: put into back's batch / deleted from buf's batch
+}
+
 func c10FlushOrder(p *Program, r *Reporter, bi *c10BufInfo, flush *ssa.Function) {
-	var backCommit, bufCommit *ssa.Call
-	for _, c := range CallsIn(flush, false) {
+	root := c10NewRoot(flush)
+	calls := c10EffCalls(root)
+	var backCommit, bufCommit *c10ECall
+	for i := range calls {
+		c := calls[i]
 		if !c.Common().IsInvoke() || c.MethodName() != "CommitBatch" || c.Value() == nil {
 			continue
 		}
-		role := bi.role(flush, c.Common().Value)
-		brole := bi.batchRole(flush, c.Common().Args[0], 0)
+		role := bi.role(c.fr, c.Common().Value)
+		brole := bi.batchRole(c.fr, c.Common().Args[0])
 		if role != brole {
 			r.Violation("V-buffer-locks", FuncKey(flush)+"#commit-"+role, p.Pos(c.Pos()), fmt.Sprintf("a batch begun on %q is committed to %q: every sorted.KeyValue rejects foreign batch types", brole, role))
 			continue
 		}
 		switch role {
 		case "back":
-			backCommit = c.Value()
+			backCommit = &calls[i]
 		case "buf":
-			bufCommit = c.Value()
+			bufCommit = &calls[i]
 		}
 	}
 	if backCommit == nil || bufCommit == nil {
 		r.Violation("V-buffer-locks", FuncKey(flush)+"#flush-order", p.Pos(flush.Pos()), "Flush no longer commits one batch to back and one to buf")
 		return
 	}
-	ok, why := SuccessDominates(backCommit, bufCommit)
-	r.Check(ok, "V-buffer-locks", FuncKey(flush)+"#flush-order", p.Pos(bufCommit.Pos()),
-		"the delete batch is committed to buf only on the success edge of committing the copy to back",
-		"the delete batch is committed to buf although the copy to back has not (successfully) been committed ("+why+"): a failing backing store loses the buffered writes")
-	// L5: every key deleted from buf was copied (key and value of the same iterator) to back
-	n := 0
-	for _, c := range CallsIn(flush, false) {
-		if !c.Common().IsInvoke() || c.MethodName() != "Delete" || bi.batchRole(flush, c.Common().Value, 0) != "buf" {
-			continue
-		}
-		n++
-		kIt := c10IterAccessor(c.Common().Args[0], "Key")
-		okMove := false
-		if kIt != nil {
-			for _, s := range CallsIn(flush, false) {
-				if !s.Common().IsInvoke() || s.MethodName() != "Set" || bi.batchRole(flush, s.Common().Value, 0) != "back" {
-					continue
-				}
-				sk, sv := c10IterAccessor(s.Common().Args[0], "Key"), c10IterAccessor(s.Common().Args[1], "Value")
-				if sk == kIt && sv == kIt && (Precedes(s.Instr, c.Instr) || Precedes(c.Instr, s.Instr)) && c10IsFindOn(bi, flush, kIt, "buf") {
-					okMove = true
-				}
-			}
-		}
-		r.Check(okMove, "V-buffer-locks", FuncKey(flush)+"#move", p.Pos(c.Pos()),
-			"each key deleted from buf is, in the same iteration, also put into back's batch as back.Set(it.Key(), it.Value()) of the same buf iterator",
-			"a key is deleted from buf without its key/value from the same buf iterator having been put into the back batch: the flush would drop the entry")
+	backDef := c10ErrDef(backCommit.Value())
+	// the events of the move: deletes queued for buf, sets queued for back, advances of the buf iterator
+	type moveEv struct {
+		kind byte // 'd' delete from buf's batch, 's' set into back's batch, 'n' Next of the buf iterator
+		it   ssa.Value
 	}
-	if n == 0 {
-		r.Violation("V-buffer-locks", FuncKey(flush)+"#move", p.Pos(flush.Pos()), "Flush deletes nothing from buf: flushed entries would be copied again and shadow later deletes")
-	}
-}
-
-// c10IterAccessor: v is `it.<name>()` invoked on a sorted.Iterator; returns the
-// iterator value (origin) or nil.
-func c10IterAccessor(v ssa.Value, name string) ssa.Value {
-	call, ok := v.(*ssa.Call)
-	if !ok || !call.Call.IsInvoke() || call.Call.Method.Name() != name || !IsNamed(call.Call.Value.Type(), c10SortedPath, "Iterator") {
+	events := map[c10At]moveEv{}
+	nDel := 0
+	var delSite token.Pos
+	isBufIter := func(fr *c10Frame, v ssa.Value) ssa.Value {
+		e := c10Res(fr, v)
+		call, ok := e.v.(*ssa.Call)
+		if ok && call.Call.IsInvoke() && call.Call.Method.Name() == "Find" && bi.role(e.fr, call.Call.Value) == "buf" {
+			return call
+		}
 		return nil
 	}
-	return originValue(call.Call.Value)
-}
-
-func c10IsFindOn(bi *c10BufInfo, fn *ssa.Function, it ssa.Value, role string) bool {
-	call, ok := it.(*ssa.Call)
-	return ok && call.Call.IsInvoke() && call.Call.Method.Name() == "Find" && bi.role(fn, call.Call.Value) == role
-}
-
-// c10PassesBefore: every path from (after) start reaches an instruction
-// satisfying stop before it reaches a Return or block `limit` (the loop header).
-func c10PassesBefore(start ssa.Instruction, stop func(ssa.Instruction) bool, limit *ssa.BasicBlock) bool {
-	ok := true
-	seen := map[*ssa.BasicBlock]bool{}
-	var walk func(b *ssa.BasicBlock, from int)
-	walk = func(b *ssa.BasicBlock, from int) {
-		for i := from; i < len(b.Instrs); i++ {
-			in := b.Instrs[i]
-			if stop(in) {
-				return
-			}
-			if _, isRet := in.(*ssa.Return); isRet {
-				ok = false
-				return
-			}
-			if _, isPanic := in.(*ssa.Panic); isPanic {
-				return
-			}
+	for _, c := range calls {
+		cc := c.Common()
+		if !cc.IsInvoke() {
+			continue
 		}
-		for _, s := range b.Succs {
-			if s == limit {
-				ok = false
-				continue
+		here := c10At{c.fr, c.Instr}
+		switch {
+		case c.MethodName() == "Delete" && bi.batchRole(c.fr, cc.Value) == "buf":
+			nDel++
+			delSite = c.Pos()
+			var it ssa.Value
+			if kIt := c10IterAccessorE(c.fr, cc.Args[0], "Key"); kIt.v != nil {
+				it = isBufIter(kIt.fr, kIt.v)
 			}
-			if !seen[s] {
-				seen[s] = true
-				walk(s, 0)
+			events[here] = moveEv{'d', it}
+		case c.MethodName() == "Set" && bi.batchRole(c.fr, cc.Value) == "back":
+			sk, sv := c10IterAccessorE(c.fr, cc.Args[0], "Key"), c10IterAccessorE(c.fr, cc.Args[1], "Value")
+			if sk.v != nil && sv.v != nil {
+				if a, b := isBufIter(sk.fr, sk.v), isBufIter(sv.fr, sv.v); a != nil && a == b {
+					events[here] = moveEv{'s', a}
+				}
+			}
+		case c.MethodName() == "Next" && IsNamed(cc.Value.Type(), c10SortedPath, "Iterator"):
+			if it := isBufIter(c.fr, cc.Value); it != nil {
+				events[here] = moveEv{'n', it}
 			}
 		}
 	}
-	walk(start.Block(), instrIndex(start)+1)
-	return ok
+	orderBad, moveBad := "", ""
+	w := &c10Walk[c10FlushSt]{
+		Clone: func(s c10FlushSt) c10FlushSt { return s },
+		Key:   func(s c10FlushSt) string { return fmt.Sprint(s) },
+	}
+	endIter := func(pa *c10Path[c10FlushSt]) {
+		if pa.St.del && !pa.St.set && moveBad == "" {
+			moveBad = "a key is deleted from buf without its key/value from the same buf iterator having been put into the back batch: the flush would drop the entry"
+		}
+		pa.St.set, pa.St.del = false, false
+	}
+	w.Visit = func(pa *c10Path[c10FlushSt], ev c10Ev) bool {
+		if _, isDefer := ev.in.(*ssa.Defer); isDefer && !ev.run {
+			return false
+		}
+		here := c10At{ev.fr, ev.in}
+		if me, ok := events[here]; ok {
+			switch me.kind {
+			case 'n':
+				endIter(pa)
+			case 's':
+				pa.St.set = true
+			case 'd':
+				if me.it == nil && moveBad == "" {
+					moveBad = "the key deleted from buf is not the Key() of an iterator over buf"
+				}
+				pa.St.del = true
+			}
+		}
+		if ev.fr == bufCommit.fr && ev.in == ssa.Instruction(bufCommit.Value()) && pa.St.back != 1 && orderBad == "" {
+			if pa.St.back == 0 {
+				orderBad = "call does not dominate the site"
+			} else {
+				orderBad = "site is not on the err==nil edge of the call"
+			}
+		}
+		return false
+	}
+	w.Fork = func(pa *c10Path[c10FlushSt], ev c10Ev) ssa.Value {
+		if backDef != nil && ev.fr == backCommit.fr && ev.in == backDef {
+			return ev.in.(ssa.Value)
+		}
+		return nil
+	}
+	w.Forked = func(pa *c10Path[c10FlushSt], ev c10Ev, k c10K) {
+		if k == c10Zero {
+			pa.St.back = 1
+		} else {
+			pa.St.back = 2
+		}
+	}
+	w.Exit = func(pa *c10Path[c10FlushSt], fr *c10Frame, in ssa.Instruction) { endIter(pa) }
+	w.Run(root, c10FlushSt{})
+	if backDef == nil {
+		orderBad = "error result of the call is discarded"
+	}
+	if w.Overflow {
+		r.Undecided("V-buffer-locks", FuncKey(flush)+"#flush-order", p.Pos(bufCommit.Pos()), "too many paths through Flush to interpret")
+		return
+	}
+	r.Check(orderBad == "", "V-buffer-locks", FuncKey(flush)+"#flush-order", p.Pos(bufCommit.Pos()),
+		"the delete batch is committed to buf only on the success edge of committing the copy to back",
+		"the delete batch is committed to buf although the copy to back has not (successfully) been committed ("+orderBad+"): a failing backing store loses the buffered writes")
+	// L5: every key deleted from buf was copied (key and value of the same iterator) to back
+	if nDel == 0 {
+		r.Violation("V-buffer-locks", FuncKey(flush)+"#move", p.Pos(flush.Pos()), "Flush deletes nothing from buf: flushed entries would be copied again and shadow later deletes")
+		return
+	}
+	r.Check(moveBad == "", "V-buffer-locks", FuncKey(flush)+"#move", p.Pos(delSite),
+		"each key deleted from buf is, between two advances of the buf iterator, also put into back's batch as back.Set(it.Key(), it.Value()) of the same buf iterator",
+		moveBad)
+}
+
+// c10IterAccessorE: v (in activation fr) is `it.<name>()` invoked on a
+// sorted.Iterator; returns the iterator value, or a zero c10EV.
+func c10IterAccessorE(fr *c10Frame, v ssa.Value, name string) c10EV {
+	e := c10Res(fr, v)
+	call, ok := e.v.(*ssa.Call)
+	if !ok || !call.Call.IsInvoke() || call.Call.Method.Name() != name || !IsNamed(call.Call.Value.Type(), c10SortedPath, "Iterator") {
+		return c10EV{}
+	}
+	return c10EV{e.fr, call.Call.Value}
+}
+
+type c10DelSt struct {
+	buf, back bool
+	pending   string // key of a batched delete queued for buf but not yet for back
 }
 
 func c10BothDeletes(p *Program, r *Reporter, bi *c10BufInfo) {
 	// direct Delete
 	del := p.Func(c10BufRel, "KeyValue", "Delete")
+	root := c10NewRoot(del)
+	delAt := map[c10At]string{}
+	sites := map[string]token.Pos{}
+	for _, c := range c10EffCalls(root) {
+		cc := c.Common()
+		if !cc.IsInvoke() || cc.Method.Name() != "Delete" || len(cc.Args) != 1 || c.IsGo() {
+			continue
+		}
+		role := bi.role(c.fr, cc.Value)
+		if role == "" || c10Res(c.fr, cc.Args[0]).v != ssa.Value(del.Params[1]) {
+			continue
+		}
+		delAt[c10At{c.fr, c.Instr}] = role
+		sites[role] = c.Pos()
+	}
+	missing := map[string]bool{}
+	w := &c10Walk[c10DelSt]{
+		Clone: func(s c10DelSt) c10DelSt { return s },
+		Key:   func(s c10DelSt) string { return fmt.Sprint(s) },
+	}
+	w.Visit = func(pa *c10Path[c10DelSt], ev c10Ev) bool {
+		if _, isDefer := ev.in.(*ssa.Defer); isDefer && !ev.run {
+			return false
+		}
+		switch delAt[c10At{ev.fr, ev.in}] {
+		case "buf":
+			pa.St.buf = true
+		case "back":
+			pa.St.back = true
+		}
+		return false
+	}
+	w.Exit = func(pa *c10Path[c10DelSt], fr *c10Frame, in ssa.Instruction) {
+		if !pa.St.buf {
+			missing["buf"] = true
+		}
+		if !pa.St.back {
+			missing["back"] = true
+		}
+	}
+	w.Run(root, c10DelSt{})
 	for _, role := range []string{"buf", "back"} {
-		var site ssa.Instruction
-		isDel := func(in ssa.Instruction) bool {
-			ci, ok := in.(*ssa.Call)
-			if !ok || !ci.Call.IsInvoke() || ci.Call.Method.Name() != "Delete" || bi.role(del, ci.Call.Value) != role {
-				return false
-			}
-			return len(ci.Call.Args) == 1 && originValue(ci.Call.Args[0]) == ssa.Value(del.Params[1])
+		pos, found := sites[role]
+		if !found {
+			pos = del.Pos()
 		}
-		first := del.Blocks[0].Instrs[0]
-		ok := isDel(first) || len(LeakingExits(PathQuery{Start: first, Stop: isDel, IgnorePanics: true})) == 0
-		for _, c := range CallsIn(del, false) {
-			if isDel(c.Instr) {
-				site = c.Instr
-			}
-		}
-		pos := del.Pos()
-		if site != nil {
-			pos = site.Pos()
-		}
-		r.Check(ok && site != nil, "V-buffer-locks", FuncKey(del)+"#deletes-"+role, p.Pos(pos),
+		r.Check(found && !missing[role] && !w.Overflow, "V-buffer-locks", FuncKey(del)+"#deletes-"+role, p.Pos(pos),
 			"every path through Delete deletes the key from "+role,
 			"some path through Delete does not delete the key from "+role+": a key deleted only from one layer reappears from the other (back) or after the next flush")
 	}
 	// batch deletes
 	cb := p.Func(c10BufRel, "KeyValue", "CommitBatch")
+	croot := c10NewRoot(cb)
+	calls := c10EffCalls(croot)
+	keyOf := func(fr *c10Frame, v ssa.Value) string {
+		if b, i, ok := c10FieldLoad(v); ok {
+			e := c10Ident(fr, b)
+			return fmt.Sprintf("fld:%p/%p.%d", e.fr, e.v, i)
+		}
+		e := c10Res(fr, v)
+		if b, i, ok := c10FieldLoad(e.v); ok {
+			e2 := c10Ident(e.fr, b)
+			return fmt.Sprintf("fld:%p/%p.%d", e2.fr, e2.v, i)
+		}
+		return fmt.Sprintf("val:%p/%p", e.fr, e.v)
+	}
+	type bd struct {
+		role, key string
+	}
+	bdAt := map[c10At]bd{}
+	boundary := map[c10At]bool{}
 	n := 0
-	for _, c := range CallsIn(cb, false) {
-		if !c.Common().IsInvoke() || c.MethodName() != "Delete" || bi.batchRole(cb, c.Common().Value, 0) != "buf" {
+	var bdPos token.Pos
+	for _, c := range calls {
+		cc := c.Common()
+		if !cc.IsInvoke() || cc.Method.Name() != "Delete" || len(cc.Args) != 1 {
 			continue
 		}
-		n++
-		key := c.Common().Args[0]
-		kb, ki, kok := c10FieldLoad(key)
-		stop := func(in ssa.Instruction) bool {
-			ci, ok := in.(*ssa.Call)
-			if !ok || !ci.Call.IsInvoke() || ci.Call.Method.Name() != "Delete" || bi.batchRole(cb, ci.Call.Value, 0) != "back" {
-				return false
-			}
-			b2, i2, ok2 := c10FieldLoad(ci.Call.Args[0])
-			return ci.Call.Args[0] == key || kok && ok2 && i2 == ki && sameOrigin(b2, kb)
+		role := bi.batchRole(c.fr, cc.Value)
+		if role == "" {
+			continue
 		}
-		ok := c10PassesBefore(c.Instr, stop, c10LoopHeader(c.Block()))
-		r.Check(ok, "V-buffer-locks", FuncKey(cb)+"#batch-delete-both", p.Pos(c.Pos()),
-			"a batched delete put into buf's batch is, on every path of that iteration, also put into back's batch",
-			"a batched delete is applied to buf only: the key would reappear from the backing store")
+		bdAt[c10At{c.fr, c.Instr}] = bd{role, keyOf(c.fr, cc.Args[0])}
+		if role == "buf" {
+			n++
+			bdPos = c.Pos()
+			if lf, h := c10EffLoop(c.fr, c.Block()); h != nil {
+				for b := range c10ContinuePoints(h) {
+					if in := c10FirstInstr(b); in != nil {
+						boundary[c10At{lf, in}] = true
+					}
+				}
+			}
+		}
 	}
 	if n == 0 {
 		r.Violation("V-buffer-locks", FuncKey(cb)+"#batch-delete-both", p.Pos(cb.Pos()), "CommitBatch no longer forwards deletes to buf's batch")
+	} else {
+		bad := false
+		w2 := &c10Walk[c10DelSt]{
+			Clone: func(s c10DelSt) c10DelSt { return s },
+			Key:   func(s c10DelSt) string { return s.pending },
+		}
+		w2.Visit = func(pa *c10Path[c10DelSt], ev c10Ev) bool {
+			here := c10At{ev.fr, ev.in}
+			if boundary[here] && pa.St.pending != "" {
+				bad = true
+				pa.St.pending = ""
+			}
+			if d, ok := bdAt[here]; ok {
+				switch d.role {
+				case "buf":
+					if pa.St.pending != "" && pa.St.pending != d.key {
+						bad = true
+					}
+					pa.St.pending = d.key
+				case "back":
+					if pa.St.pending == d.key {
+						pa.St.pending = ""
+					}
+				}
+			}
+			return false
+		}
+		w2.Exit = func(pa *c10Path[c10DelSt], fr *c10Frame, in ssa.Instruction) {
+			if pa.St.pending != "" {
+				bad = true
+			}
+		}
+		w2.Run(croot, c10DelSt{})
+		r.Check(!bad && !w2.Overflow, "V-buffer-locks", FuncKey(cb)+"#batch-delete-both", p.Pos(bdPos),
+			"a batched delete put into buf's batch is, on every path of that iteration, also put into back's batch",
+			"a batched delete is applied to buf only: the key would reappear from the backing store")
 	}
 	// both batches are committed to their own store
 	seen := map[string]bool{}
-	for _, c := range CallsIn(cb, false) {
+	for _, c := range calls {
 		if c.Common().IsInvoke() && c.MethodName() == "CommitBatch" {
-			role := bi.role(cb, c.Common().Value)
-			brole := bi.batchRole(cb, c.Common().Args[0], 0)
+			role := bi.role(c.fr, c.Common().Value)
+			brole := bi.batchRole(c.fr, c.Common().Args[0])
 			if role != "" && role == brole {
 				seen[role] = true
 			} else {
@@ -1895,15 +3906,38 @@ func c10BothDeletes(p *Program, r *Reporter, bi *c10BufInfo) {
 		"CommitBatch commits buf's batch to buf and back's (delete) batch to back", "CommitBatch no longer commits a batch to each of buf and back")
 }
 
+// c10EFact is a branch condition known at a site of the effective body: the
+// dominating tests in the site's own function and in every caller up to the root.
+type c10EFact struct {
+	fr *c10Frame
+	CondFact
+}
+
+func c10FactsAt(fr *c10Frame, b *ssa.BasicBlock) []c10EFact {
+	var out []c10EFact
+	for fr != nil && b != nil {
+		for _, f := range FactsAt(b) {
+			out = append(out, c10EFact{fr, f})
+		}
+		if fr.site == nil || fr.parent == nil {
+			break
+		}
+		b, fr = fr.site.Block(), fr.parent
+	}
+	return out
+}
+
 func c10GetShadow(p *Program, r *Reporter, bi *c10BufInfo) {
 	get := p.Func(c10BufRel, "KeyValue", "Get")
-	var bufGet *ssa.Call
-	var backGets []CallSite
-	for _, c := range CallsIn(get, false) {
-		if c.Common().IsInvoke() && c.MethodName() == "Get" {
-			switch bi.role(get, c.Common().Value) {
+	root := c10NewRoot(get)
+	var bufGet *c10ECall
+	var backGets []c10ECall
+	calls := c10EffCalls(root)
+	for i, c := range calls {
+		if c.Common().IsInvoke() && c.MethodName() == "Get" && c.Value() != nil {
+			switch bi.role(c.fr, c.Common().Value) {
 			case "buf":
-				bufGet = c.Value()
+				bufGet = &calls[i]
 			case "back":
 				backGets = append(backGets, c)
 			}
@@ -1913,20 +3947,56 @@ func c10GetShadow(p *Program, r *Reporter, bi *c10BufInfo) {
 		r.Violation("V-buffer-locks", FuncKey(get)+"#shadow", p.Pos(get.Pos()), "Get no longer consults both buf and back")
 		return
 	}
-	ev, _, _ := ErrValue(bufGet)
+	ev, _, _ := ErrValue(bufGet.Value())
+	isBufErr := func(fr *c10Frame, v ssa.Value) bool {
+		if ev == nil {
+			return false
+		}
+		for _, o := range c10Origins(fr, v) {
+			if c10Same(o, c10EV{bufGet.fr, ev}) {
+				return true
+			}
+		}
+		return false
+	}
+	// saysNotFound: condition cond (of activation fr) having truth value val means "buf.Get's error is sorted.ErrNotFound"
+	var saysNotFound func(fr *c10Frame, cond ssa.Value, val bool, d int) bool
+	saysNotFound = func(fr *c10Frame, cond ssa.Value, val bool, d int) bool {
+		if d > 4 {
+			return false
+		}
+		switch x := cond.(type) {
+		case *ssa.UnOp:
+			if x.Op == token.NOT {
+				return saysNotFound(fr, x.X, !val, d+1)
+			}
+		case *ssa.BinOp:
+			if x.Op == token.EQL && val || x.Op == token.NEQ && !val {
+				return isBufErr(fr, x.X) && c10IsErrNotFound(x.Y) || isBufErr(fr, x.Y) && c10IsErrNotFound(x.X)
+			}
+		case *ssa.Call:
+			cs := CallSite{fr.fn, x}
+			if cs.IsStatic("errors", "", "Is") && len(x.Call.Args) == 2 {
+				return val && isBufErr(fr, x.Call.Args[0]) && c10IsErrNotFound(x.Call.Args[1])
+			}
+			// a predicate helper of the effective body: every return is the same kind of test on its parameter
+			if kid := fr.child(x); kid != nil {
+				rets := Returns(kid.fn)
+				for _, ri := range rets {
+					if len(ri.Results) != 1 || !saysNotFound(kid, ri.Results[0], val, d+1) {
+						return false
+					}
+				}
+				return len(rets) > 0
+			}
+		}
+		return false
+	}
 	for _, bg := range backGets {
 		ok := false
-		for _, f := range FactsAt(bg.Block()) {
-			if bo, isBo := f.Cond.(*ssa.BinOp); isBo && (bo.Op == token.EQL && f.Val || bo.Op == token.NEQ && !f.Val) {
-				if (sameOrigin(bo.X, ev) && c10IsErrNotFound(bo.Y)) || (sameOrigin(bo.Y, ev) && c10IsErrNotFound(bo.X)) {
-					ok = true
-				}
-			}
-			if call, isCall := f.Cond.(*ssa.Call); isCall && f.Val {
-				cs := CallSite{get, call}
-				if cs.IsStatic("errors", "", "Is") && sameOrigin(call.Call.Args[0], ev) && c10IsErrNotFound(call.Call.Args[1]) {
-					ok = true
-				}
+		for _, f := range c10FactsAt(bg.fr, bg.Block()) {
+			if saysNotFound(f.fr, f.Cond, f.Val, 0) {
+				ok = true
 			}
 		}
 		r.Check(ok, "V-buffer-locks", FuncKey(get)+"#shadow", p.Pos(bg.Pos()),
@@ -1948,235 +4018,324 @@ func c10IsErrNotFound(v ssa.Value) bool {
 // V-iter
 
 func c10RuleIter(p *Program, r *Reporter) {
-	c10IterEOF(p, r)
-	c10IterCloseBoth(p, r)
+	mi := c10MergeIter(p)
+	c10IterEOF(p, r, mi)
+	c10IterCloseBoth(p, r, mi)
 	c10IterCloseErr(p, r)
 	c10FindClosed(p, r)
 	c10EndBound(p, r)
 	r.Floor("V-iter", 20)
 }
 
-// c10SubIterInfo: the wrapper type whose `next` maintains an eof flag.
-type c10SubIterInfo struct {
-	typ    *types.Named
-	next   *ssa.Function
-	eofIdx int
+// c10ChainE follows loads and field selections from v back to the value the
+// chain starts at, through helper parameters: for `*(&it.Iterator)` in a
+// method called on &iter.buf it returns (iter, [idx(buf), idx(Iterator)]).
+func c10ChainE(fr *c10Frame, v ssa.Value) (c10EV, []int) {
+	var idx []int
+	for i := 0; i < 24 && v != nil; i++ {
+		switch x := v.(type) {
+		case *ssa.UnOp:
+			if x.Op != token.MUL {
+				return c10EV{fr, v}, idx
+			}
+			if _, ok := x.X.(*ssa.FieldAddr); ok {
+				v = x.X
+				continue
+			}
+			if o := originValue(x); o != ssa.Value(x) {
+				fr, v = fr.frameFor(o), o
+				continue
+			}
+			return c10EV{fr, v}, idx
+		case *ssa.FieldAddr:
+			idx = append([]int{x.Field}, idx...)
+			v = x.X
+		case *ssa.Field:
+			idx = append([]int{x.Field}, idx...)
+			v = x.X
+		case *ssa.ChangeType:
+			v = x.X
+		case *ssa.Parameter:
+			pf, a, ok := fr.argFor(x)
+			if !ok {
+				return c10EV{fr, v}, idx
+			}
+			fr, v = pf, a
+		default:
+			return c10EV{fr, v}, idx
+		}
+	}
+	return c10EV{fr, v}, idx
 }
 
-func c10SubIter(p *Program, r *Reporter) *c10SubIterInfo {
-	next := p.Func(c10BufRel, "subIter", "next")
-	si := &c10SubIterInfo{typ: p.NamedType(c10BufRel, "subIter"), next: next, eofIdx: -1}
-	// summary of next: "returns false" blocks set a bool field to true; "returns true" blocks do not
-	ok := true
-	for _, ri := range Returns(next) {
-		c, isConst := ri.Results[0].(*ssa.Const)
-		if !isConst || c.Value == nil {
-			ok = false
+// c10MergeInfo: the two-way merge iterator of the write buffer, found by
+// role: the concrete type buffer.(*KeyValue).Find returns; its sub-iterators
+// are its fields of a struct type that embeds sorted.Iterator; the eof flag is
+// the bool field of that struct.
+type c10MergeInfo struct {
+	typ         *types.Named
+	next, close *ssa.Function
+	sub         *types.Named
+	roles       []int // field indices of the sub-iterators in typ
+	embIdx      int   // the embedded sorted.Iterator in sub
+	eofIdx      int   // the bool flag in sub
+}
+
+func c10MergeIter(p *Program) *c10MergeInfo {
+	find := p.Func(c10BufRel, "KeyValue", "Find")
+	t := NamedOf(c10BatchConcrete(find, 0))
+	if t == nil {
+		brokenf("anchor unresolved: concrete iterator type returned by buffer.(*KeyValue).Find")
+	}
+	mi := &c10MergeInfo{typ: t, embIdx: -1, eofIdx: -1}
+	var d1, d2 bool
+	mi.next, d1 = c10Method(p, t, "Next")
+	mi.close, d2 = c10Method(p, t, "Close")
+	if mi.next == nil || mi.close == nil || !d1 || !d2 {
+		brokenf("anchor unresolved: declared Next/Close of %s", typeKey(t))
+	}
+	st, _ := t.Underlying().(*types.Struct)
+	itIface := p.Iface("pkg/sorted", "Iterator")
+	for i := 0; st != nil && i < st.NumFields(); i++ {
+		n := NamedOf(st.Field(i).Type())
+		if n == nil {
 			continue
 		}
-		setsEOF := -1
-		for b := ri.Ret.Block(); b != nil; b = b.Idom() {
-			for _, in := range b.Instrs {
-				if st, isSt := in.(*ssa.Store); isSt {
-					if fa, isFA := st.Addr.(*ssa.FieldAddr); isFA && fa.X == ssa.Value(next.Params[0]) {
-						if cv, isC := st.Val.(*ssa.Const); isC && cv.Value != nil && cv.Value.String() == "true" {
-							setsEOF = fa.Field
+		if _, isPtr := st.Field(i).Type().(*types.Pointer); isPtr {
+			continue
+		}
+		ss, ok := n.Underlying().(*types.Struct)
+		if !ok {
+			continue
+		}
+		emb := -1
+		for j := 0; j < ss.NumFields(); j++ {
+			if ss.Field(j).Embedded() && types.Identical(ss.Field(j).Type().Underlying(), itIface) {
+				emb = j
+			}
+		}
+		if emb < 0 {
+			continue
+		}
+		if mi.sub != nil && mi.sub != n {
+			brokenf("anchor unresolved: %s has sub-iterators of two different types", typeKey(t))
+		}
+		mi.sub, mi.embIdx = n, emb
+		mi.roles = append(mi.roles, i)
+	}
+	if mi.sub == nil || len(mi.roles) > 4 {
+		brokenf("anchor unresolved: %s has no (or more than four) fields of a struct type embedding sorted.Iterator", typeKey(t))
+	}
+	ss := mi.sub.Underlying().(*types.Struct)
+	var bools []int
+	for j := 0; j < ss.NumFields(); j++ {
+		if c10IsBool(ss.Field(j).Type()) {
+			bools = append(bools, j)
+		}
+	}
+	if len(bools) > 1 {
+		// the one that is set to true somewhere in the package
+		var set []int
+		for _, j := range bools {
+			for _, fn := range p.FuncsIn(c10BufRel) {
+				for _, b := range fn.Blocks {
+					for _, in := range b.Instrs {
+						if s, ok := in.(*ssa.Store); ok {
+							if fa, ok := s.Addr.(*ssa.FieldAddr); ok && NamedOf(fa.X.Type()) == mi.sub && fa.Field == j {
+								if c, ok := s.Val.(*ssa.Const); ok && c.Value != nil && c.Value.String() == "true" && (len(set) == 0 || set[len(set)-1] != j) {
+									set = append(set, j)
+								}
+							}
 						}
 					}
 				}
 			}
-			if b == next.Blocks[0] {
-				break
-			}
 		}
-		if c.Value.String() == "false" {
-			if setsEOF < 0 || si.eofIdx >= 0 && si.eofIdx != setsEOF {
-				ok = false
-			}
-			si.eofIdx = setsEOF
-		} else if setsEOF >= 0 {
-			ok = false
-		}
+		bools = set
 	}
-	if !ok || si.eofIdx < 0 {
-		r.Undecided("V-iter", FuncKey(next)+"#summary", p.Pos(next.Pos()), "cannot summarise subIter.next as 'returns false exactly when it sets the eof flag'")
-		return nil
+	if len(bools) != 1 {
+		brokenf("anchor unresolved: %s has no single bool (eof) field", typeKey(mi.sub))
 	}
-	r.OK("V-iter", FuncKey(next)+"#summary", p.Pos(next.Pos()), "returns false exactly on the paths that set the eof flag ("+fieldName(next.Params[0].Type(), si.eofIdx)+"), true otherwise")
-	return si
+	mi.eofIdx = bools[0]
+	return mi
 }
 
-// c10IterEOF: abstract interpretation of buffer.(*iter).Next over the eof
-// flags of its sub-iterators: a sub-iterator is advanced only where its eof
-// flag is known false (sorted.Iterator does not promise that Next may be called
-// again after it returned false; kvfile's panics).
-func c10IterEOF(p *Program, r *Reporter) {
-	si := c10SubIter(p, r)
-	if si == nil {
-		return
-	}
-	fn := p.Func(c10BufRel, "iter", "Next")
-	recv := fn.Params[0]
-	// role of an address/value: index of the subIter-typed field of *iter it denotes
-	roleOf := func(v ssa.Value) (int, []int) {
-		root, idx := c10FieldChain(v)
-		if root != ssa.Value(recv) || len(idx) == 0 {
-			return -1, nil
+type c10EOFSt struct {
+	exh [4]int8 // per sub-iterator: 0 unknown, 1 its Next returned false on this path, 2 returned true
+}
+
+// c10IterEOF interprets the paths of the merge iterator's Next (helpers such
+// as subIter.next in place): a sub-iterator's underlying Next is called only
+// where that sub-iterator's eof flag is known false, and whenever an
+// underlying Next has returned false the flag is true when Next returns
+// (sorted.Iterator does not promise that Next may be called again after it
+// returned false; kvfile's panics).
+func c10IterEOF(p *Program, r *Reporter, mi *c10MergeInfo) {
+	fn := mi.next
+	root := c10NewRoot(fn)
+	recv := ssa.Value(fn.Params[0])
+	st := mi.typ.Underlying().(*types.Struct)
+	eofName := fieldName(mi.sub, mi.eofIdx)
+	line := func(pos token.Pos) int { return p.Fset.Position(pos).Line }
+	advAt := map[c10At]int{}
+	sites := map[int]int{}
+	firstPos := map[int]token.Pos{}
+	var unresolved []string
+	for _, c := range c10EffCalls(root) {
+		cc := c.Common()
+		if !cc.IsInvoke() || cc.Method.Name() != "Next" || !IsNamed(cc.Value.Type(), c10SortedPath, "Iterator") || c.Value() == nil {
+			continue
 		}
-		return idx[0], idx[1:]
-	}
-	type state struct {
-		eof map[int]int8      // role -> 0 false, 1 true, -1 unknown
-		res map[ssa.Value]int // result of next() -> role
-	}
-	clone := func(s state) state {
-		o := state{eof: map[int]int8{}, res: map[ssa.Value]int{}}
-		for k, v := range s.eof {
-			o.eof[k] = v
+		base, idx := c10ChainE(c.fr, cc.Value)
+		ri := -1
+		if base.v == recv && len(idx) == 2 && idx[1] == mi.embIdx {
+			for k, role := range mi.roles {
+				if role == idx[0] {
+					ri = k
+				}
+			}
 		}
-		for k, v := range s.res {
-			o.res[k] = v
+		if ri < 0 {
+			unresolved = append(unresolved, fmt.Sprintf("line %d: cannot tell which sub-iterator is advanced", line(c.Pos())))
+			continue
 		}
-		return o
-	}
-	keyOf := func(b *ssa.BasicBlock, s state) string {
-		var parts []string
-		for k, v := range s.eof {
-			parts = append(parts, fmt.Sprintf("%d=%d", k, v))
+		advAt[c10At{c.fr, c.Instr}] = ri
+		sites[ri]++
+		if _, ok := firstPos[ri]; !ok {
+			firstPos[ri] = c.Pos()
 		}
-		for k, v := range s.res {
-			parts = append(parts, fmt.Sprintf("%p>%d", k, v))
-		}
-		sort.Strings(parts)
-		return fmt.Sprintf("%d|%s", b.Index, strings.Join(parts, ","))
 	}
 	bad := map[int][]string{}
-	sites := map[int]int{}
-	var firstPos = map[int]token.Pos{}
-	seen := map[string]bool{}
-	var walk func(b *ssa.BasicBlock, s state)
-	get := func(s state, role int) int8 {
-		if v, ok := s.eof[role]; ok {
-			return v
-		}
-		return -1
+	var flagBad []string
+	w := &c10Walk[c10EOFSt]{
+		Clone: func(s c10EOFSt) c10EOFSt { return s },
+		Key:   func(s c10EOFSt) string { return fmt.Sprint(s.exh) },
 	}
-	walk = func(b *ssa.BasicBlock, s state) {
-		k := keyOf(b, s)
-		if seen[k] {
-			return
+	w.Visit = func(pa *c10Path[c10EOFSt], ev c10Ev) bool {
+		ri, ok := advAt[c10At{ev.fr, ev.in}]
+		if !ok || ev.run {
+			return false
 		}
-		seen[k] = true
-		s = clone(s)
-		for _, in := range b.Instrs {
-			switch x := in.(type) {
-			case *ssa.Call:
-				if x.Call.StaticCallee() == si.next {
-					role, rest := roleOf(x.Call.Args[0])
-					if role < 0 || len(rest) != 0 {
-						bad[-1] = append(bad[-1], fmt.Sprintf("line %d: cannot tell which sub-iterator is advanced", p.Fset.Position(x.Pos()).Line))
-						continue
-					}
-					if _, ok := firstPos[role]; !ok {
-						firstPos[role] = x.Pos()
-					}
-					sites[role]++
-					if get(s, role) != 0 {
-						if len(bad[role]) == 0 {
-							firstPos[role] = x.Pos() // report the offending call site
-						}
-						bad[role] = append(bad[role], fmt.Sprintf("line %d", p.Fset.Position(x.Pos()).Line))
-					}
-					s.eof[role] = -1
-					s.res[x] = role
-				}
-			case *ssa.If:
-				cond, neg := x.Cond, false
-				for {
-					if u, ok := cond.(*ssa.UnOp); ok && u.Op == token.NOT {
-						cond, neg = u.X, !neg
-						continue
-					}
-					break
-				}
-				role, isFlag := -1, false
-				if rl, ok := s.res[cond]; ok {
-					role, neg = rl, !neg // next() true <=> eof false
-				} else if ld, ok := cond.(*ssa.UnOp); ok && ld.Op == token.MUL {
-					if rl, rest := roleOf(ld); rl >= 0 && len(rest) == 1 && rest[0] == si.eofIdx {
-						role, isFlag = rl, true
-					}
-				}
-				_ = isFlag
-				if role < 0 {
-					break
-				}
-				for i, succ := range b.Succs {
-					eofVal := int8(1)
-					if (i == 0) == neg {
-						eofVal = 0
-					}
-					// i==0 is the branch where cond is true: eof = !neg
-					if cur := get(s, role); cur >= 0 && cur != eofVal {
-						continue // infeasible
-					}
-					ns := clone(s)
-					ns.eof[role] = eofVal
-					walk(succ, ns)
-				}
-				return
+		flag := pa.mem[c10FieldCell(recv, mi.roles[ri], mi.eofIdx)]
+		if flag != c10Zero || pa.St.exh[ri] == 1 {
+			if len(bad[ri]) == 0 {
+				firstPos[ri] = ev.in.Pos()
+			}
+			bad[ri] = append(bad[ri], fmt.Sprintf("line %d", line(ev.in.Pos())))
+		}
+		return false
+	}
+	w.Fork = func(pa *c10Path[c10EOFSt], ev c10Ev) ssa.Value {
+		if _, ok := advAt[c10At{ev.fr, ev.in}]; ok {
+			return ev.in.(ssa.Value)
+		}
+		return nil
+	}
+	w.Forked = func(pa *c10Path[c10EOFSt], ev c10Ev, k c10K) {
+		ri := advAt[c10At{ev.fr, ev.in}]
+		if k == c10Zero {
+			pa.St.exh[ri] = 1
+		} else {
+			pa.St.exh[ri] = 2
+		}
+	}
+	w.Exit = func(pa *c10Path[c10EOFSt], fr *c10Frame, in ssa.Instruction) {
+		for ri, role := range mi.roles {
+			if pa.St.exh[ri] == 1 && pa.mem[c10FieldCell(recv, role, mi.eofIdx)] != c10NonZero {
+				flagBad = append(flagBad, fmt.Sprintf("the return at line %d is reached after %s's Next returned false without %s.%s having been set", line(in.Pos()), st.Field(role).Name(), st.Field(role).Name(), eofName))
 			}
 		}
-		for _, succ := range b.Succs {
-			walk(succ, s)
+	}
+	w.Run(root, c10EOFSt{})
+	// the flag is never reset
+	for _, f := range p.FuncsIn(c10BufRel) {
+		for _, b := range f.Blocks {
+			for _, in := range b.Instrs {
+				if s, ok := in.(*ssa.Store); ok {
+					if fa, ok := s.Addr.(*ssa.FieldAddr); ok && NamedOf(fa.X.Type()) == mi.sub && fa.Field == mi.eofIdx {
+						if c, ok := s.Val.(*ssa.Const); !ok || c.Value == nil || c.Value.String() != "true" {
+							flagBad = append(flagBad, fmt.Sprintf("%s.%s is assigned something other than true at line %d", mi.sub.Obj().Name(), eofName, line(s.Pos())))
+						}
+					}
+				}
+			}
 		}
 	}
-	walk(fn.Blocks[0], state{eof: map[int]int8{}, res: map[ssa.Value]int{}})
-	for _, m := range bad[-1] {
+	construct := FuncKey(fn) + "#eof-recorded"
+	switch {
+	case w.Overflow:
+		r.Undecided("V-iter", construct, p.Pos(fn.Pos()), "too many paths through Next to interpret")
+		return
+	case len(flagBad) > 0:
+		r.Violation("V-iter", construct, p.Pos(fn.Pos()), strings.Join(dedupe(flagBad), "; ")+": a later Next would advance an exhausted iterator")
+	default:
+		r.OK("V-iter", construct, p.Pos(fn.Pos()), "on every path of Next on which a sub-iterator's Next returned false, its "+eofName+" flag is true at the return; the flag is never reset")
+	}
+	for _, m := range unresolved {
 		r.Undecided("V-iter", FuncKey(fn)+"#advance", p.Pos(fn.Pos()), m)
 	}
-	st, _ := recv.Type().(*types.Pointer).Elem().Underlying().(*types.Struct)
-	nRoles := 0
-	for i := 0; st != nil && i < st.NumFields(); i++ {
-		if NamedOf(st.Field(i).Type()) != si.typ {
-			continue
-		}
-		nRoles++
-		name := st.Field(i).Name()
-		if sites[i] == 0 {
+	for ri, role := range mi.roles {
+		name := st.Field(role).Name()
+		if sites[ri] == 0 {
 			r.Violation("V-iter", FuncKey(fn)+"#advance:"+name, p.Pos(fn.Pos()), "sub-iterator "+name+" is never advanced")
 			continue
 		}
-		r.Check(len(bad[i]) == 0, "V-iter", FuncKey(fn)+"#advance:"+name, p.Pos(firstPos[i]),
-			fmt.Sprintf("all %d call sites advance %s only on paths where %s.%s is known false", sites[i], name, name, fieldName(si.next.Params[0].Type(), si.eofIdx)),
-			fmt.Sprintf("%s.next() is called at %s on a path where %s's eof flag is not known false: the underlying iterator's Next is called again after it returned false (kvfile's iterator panics: 'Next called after Next returned value')", name, strings.Join(dedupe(bad[i]), ", "), name))
+		r.Check(len(bad[ri]) == 0, "V-iter", FuncKey(fn)+"#advance:"+name, p.Pos(firstPos[ri]),
+			fmt.Sprintf("all %d call site(s) advance %s only on paths where %s.%s is known false", sites[ri], name, name, eofName),
+			fmt.Sprintf("%s's Next is called at %s on a path where %s's eof flag is not known false: the underlying iterator's Next is called again after it returned false (kvfile's iterator panics: 'Next called after Next returned value')", name, strings.Join(dedupe(bad[ri]), ", "), name))
 	}
-	if nRoles < 2 {
+	if len(mi.roles) < 2 {
 		r.Violation("V-iter", FuncKey(fn)+"#advance", p.Pos(fn.Pos()), "the merge iterator no longer has two sub-iterators")
 	}
 }
 
-// c10IterCloseBoth: buffer.(*iter).Close closes every sub-iterator on every path.
-func c10IterCloseBoth(p *Program, r *Reporter) {
-	fn := p.Func(c10BufRel, "iter", "Close")
-	sub := p.NamedType(c10BufRel, "subIter")
-	st, _ := fn.Params[0].Type().(*types.Pointer).Elem().Underlying().(*types.Struct)
-	for i := 0; st != nil && i < st.NumFields(); i++ {
-		if NamedOf(st.Field(i).Type()) != sub {
+// c10IterCloseBoth: the merge iterator's Close closes every sub-iterator on every path.
+func c10IterCloseBoth(p *Program, r *Reporter, mi *c10MergeInfo) {
+	fn := mi.close
+	root := c10NewRoot(fn)
+	recv := ssa.Value(fn.Params[0])
+	st := mi.typ.Underlying().(*types.Struct)
+	closeAt := map[c10At]int{}
+	for _, c := range c10EffCalls(root) {
+		cc := c.Common()
+		if !cc.IsInvoke() || cc.Method.Name() != "Close" || c.IsGo() {
 			continue
 		}
-		name := st.Field(i).Name()
-		stop := func(in ssa.Instruction) bool {
-			ci, ok := in.(*ssa.Call)
-			if !ok || !ci.Call.IsInvoke() || ci.Call.Method.Name() != "Close" {
-				return false
-			}
-			root, idx := c10FieldChain(ci.Call.Value)
-			return root == ssa.Value(fn.Params[0]) && len(idx) >= 1 && idx[0] == i
+		base, idx := c10ChainE(c.fr, cc.Value)
+		if base.v != recv || len(idx) == 0 {
+			continue
 		}
-		first := fn.Blocks[0].Instrs[0]
-		ok := stop(first) || len(LeakingExits(PathQuery{Start: first, Stop: stop, IgnorePanics: true})) == 0
-		r.Check(ok, "V-iter", FuncKey(fn)+"#closes:"+name, p.Pos(fn.Pos()),
+		for k, role := range mi.roles {
+			if role == idx[0] {
+				closeAt[c10At{c.fr, c.Instr}] = k
+			}
+		}
+	}
+	missing := map[int]bool{}
+	w := &c10Walk[[4]bool]{
+		Clone: func(s [4]bool) [4]bool { return s },
+		Key:   func(s [4]bool) string { return fmt.Sprint(s) },
+	}
+	w.Visit = func(pa *c10Path[[4]bool], ev c10Ev) bool {
+		if _, isDefer := ev.in.(*ssa.Defer); isDefer && !ev.run {
+			return false
+		}
+		if k, ok := closeAt[c10At{ev.fr, ev.in}]; ok {
+			pa.St[k] = true
+		}
+		return false
+	}
+	w.Exit = func(pa *c10Path[[4]bool], fr *c10Frame, in ssa.Instruction) {
+		for k := range mi.roles {
+			if !pa.St[k] {
+				missing[k] = true
+			}
+		}
+	}
+	w.Run(root, [4]bool{})
+	for k, role := range mi.roles {
+		name := st.Field(role).Name()
+		r.Check(!missing[k] && !w.Overflow, "V-iter", FuncKey(fn)+"#closes:"+name, p.Pos(fn.Pos()),
 			"every path through Close closes sub-iterator "+name,
 			"some path through Close returns without closing sub-iterator "+name+": its cursor (for sqlkv: the gate slot, which serialises all access to an sqlite store) is never released")
 	}
@@ -2202,7 +4361,7 @@ func c10IterCloseErr(p *Program, r *Reporter) {
 		n++
 		bad := ""
 		for _, ri := range Returns(fn) {
-			if c10AlwaysNil(ri.Results[0], 0) {
+			if c10AlwaysNil(fn, ri.Results[0], 0) {
 				bad = fmt.Sprintf("the return at line %d yields a constant nil", p.Fset.Position(ri.Ret.Pos()).Line)
 			}
 		}
@@ -2216,87 +4375,161 @@ func c10IterCloseErr(p *Program, r *Reporter) {
 	}
 }
 
-func c10AlwaysNil(v ssa.Value, depth int) bool {
+// c10AlwaysNil: v (in function from) is a constant nil on every path, also
+// when it is what a helper of the effective body returns.
+func c10AlwaysNil(from *ssa.Function, v ssa.Value, depth int) bool {
 	if IsNilConst(v) {
 		return true
 	}
-	if ph, ok := v.(*ssa.Phi); ok && depth < 4 {
-		for _, e := range ph.Edges {
-			if !c10AlwaysNil(e, depth+1) {
+	if depth > 4 {
+		return false
+	}
+	switch x := v.(type) {
+	case *ssa.Phi:
+		for _, e := range x.Edges {
+			if !c10AlwaysNil(from, e, depth+1) {
 				return false
 			}
 		}
 		return true
+	case *ssa.Call:
+		f := x.Call.StaticCallee()
+		if !c10IsHelper(from, f) || ErrResultIndex(f) < 0 {
+			return false
+		}
+		rets := Returns(f)
+		for _, ri := range rets {
+			if !c10AlwaysNil(f, ri.Results[ErrResultIndex(f)], depth+1) {
+				return false
+			}
+		}
+		return len(rets) > 0
 	}
 	return false
 }
 
 // c10FindClosed: an iterator obtained from Find inside pkg/sorted is closed on
-// every path, or handed over (stored / returned).
+// every path of the entry function in whose effective body it is obtained, or
+// handed over (stored in an object / returned by the entry function).
 func c10FindClosed(p *Program, r *Reporter) {
 	n := 0
+	line := func(pos token.Pos) int { return p.Fset.Position(pos).Line }
+	type verdict struct {
+		site, ok, bad string
+		und           bool
+	}
+	var order []string
+	verdicts := map[string]*verdict{}
+	var fns []*ssa.Function
 	for _, fn := range p.FuncsUnder("pkg/sorted") {
-		if IsTestSupportPkg(RelPkg(fn.Pkg.Pkg)) {
-			continue
+		if top := TopFunc(fn); top.Pkg != nil && !IsTestSupportPkg(RelPkg(top.Pkg.Pkg)) {
+			fns = append(fns, fn)
 		}
-		for _, c := range CallsIn(fn, false) {
+	}
+	for _, root := range c10Roots(p, fns) {
+		fn := root.fn
+		calls := c10EffCalls(root)
+		for _, c := range calls {
 			call := c.Value()
 			if call == nil || !c.Common().IsInvoke() || c.MethodName() != "Find" || !IsNamed(call.Type(), c10SortedPath, "Iterator") {
 				continue
 			}
-			n++
-			construct := FuncKey(fn) + "#Find"
-			if c10HandedOver(call, 0) {
-				r.OK("V-iter", construct, p.Pos(c.Pos()), "iterator is handed over (stored in the returned object / returned): the receiver's Close closes it (see #closes)")
+			find := c10EV{c.fr, call}
+			from := func(fr *c10Frame, v ssa.Value) bool {
+				for _, o := range c10Origins(fr, v) {
+					if o.v == find.v && (o.fr == find.fr || o.fr == nil) {
+						return true
+					}
+				}
+				return false
+			}
+			key := fmt.Sprintf("%s#Find@%d", FuncKey(c.fr.fn), c.Pos())
+			v := verdicts[key]
+			if v == nil {
+				v = &verdict{site: p.Pos(c.Pos())}
+				verdicts[key] = v
+				order = append(order, key)
+				n++
+			}
+			handed := false
+			c10EachInstr(root, func(fr *c10Frame, in ssa.Instruction) {
+				switch x := in.(type) {
+				case *ssa.Store:
+					if _, isVar := x.Addr.(*ssa.Alloc); !isVar && from(fr, x.Val) {
+						if _, isFV := x.Addr.(*ssa.FreeVar); !isFV {
+							handed = true
+						}
+					}
+				case *ssa.Return:
+					if fr == root {
+						for _, res := range x.Results {
+							if from(fr, res) {
+								handed = true
+							}
+						}
+					}
+				}
+			})
+			if handed {
+				if v.ok == "" {
+					v.ok = "iterator is handed over (stored in the returned object / returned): the receiver's Close closes it (see #closes)"
+				}
 				continue
 			}
-			stop := func(in ssa.Instruction) bool {
-				ci, ok := in.(ssa.CallInstruction)
-				if !ok {
+			closeAt := map[c10At]bool{}
+			for _, cc := range calls {
+				if cc.Common().IsInvoke() && cc.MethodName() == "Close" && !cc.IsGo() && from(cc.fr, cc.Common().Value) {
+					closeAt[c10At{cc.fr, cc.Instr}] = true
+				}
+			}
+			var leaks []string
+			w := &c10Walk[bool]{
+				Clone: func(b bool) bool { return b },
+				Key:   func(b bool) string { return fmt.Sprint(b) },
+			}
+			w.Visit = func(pa *c10Path[bool], ev c10Ev) bool {
+				if _, isDefer := ev.in.(*ssa.Defer); isDefer && !ev.run {
 					return false
 				}
-				cc := ci.Common()
-				return cc.IsInvoke() && cc.Method.Name() == "Close" && sameOrigin(cc.Value, call)
+				if ev.fr == c.fr && ev.in == ssa.Instruction(call) {
+					pa.St = true
+				} else if closeAt[c10At{ev.fr, ev.in}] {
+					pa.St = false
+				}
+				return false
 			}
-			leaks := LeakingExits(PathQuery{Start: call, Stop: stop, IgnorePanics: true})
-			var where []string
-			for _, l := range leaks {
-				where = append(where, fmt.Sprintf("line %d", p.Fset.Position(l.Exit.Pos()).Line))
+			w.Exit = func(pa *c10Path[bool], fr *c10Frame, in ssa.Instruction) {
+				if pa.St {
+					leaks = append(leaks, fmt.Sprintf("line %d", line(in.Pos())))
+				}
 			}
-			r.Check(len(leaks) == 0, "V-iter", construct, p.Pos(c.Pos()), "iterator closed on every path to every exit",
-				"iterator from Find is not closed on the exit(s) at "+strings.Join(dedupe(where), ", ")+": the cursor and, for sql stores, the gate slot leak; Close is also the only place a scan error is reported")
+			w.Run(root, false)
+			switch {
+			case w.Overflow:
+				v.und = true
+			case len(leaks) > 0:
+				v.bad = "iterator from Find is not closed on the exit(s) of " + FuncKey(fn) + " at " + strings.Join(dedupe(leaks), ", ") + ": the cursor and, for sql stores, the gate slot leak; Close is also the only place a scan error is reported"
+			case v.ok == "":
+				v.ok = "iterator closed on every path to every exit"
+			}
+		}
+	}
+	for _, k := range order {
+		v := verdicts[k]
+		construct := k[:strings.LastIndex(k, "@")]
+		switch {
+		case v.bad != "":
+			r.Violation("V-iter", construct, v.site, v.bad)
+		case v.und:
+			r.Undecided("V-iter", construct, v.site, "too many paths to interpret")
+		default:
+			r.OK("V-iter", construct, v.site, v.ok)
 		}
 	}
 	r.Analysed("find_sites_in_pkg_sorted", n)
 	if n < 3 {
 		r.Violation("V-iter", "pkg/sorted#Find-sites", "pkg/sorted", fmt.Sprintf("only %d Find call sites found inside pkg/sorted (4 on the pinned tree)", n))
 	}
-}
-
-func c10HandedOver(v ssa.Value, depth int) bool {
-	refs := v.Referrers()
-	if refs == nil || depth > 3 {
-		return false
-	}
-	for _, u := range *refs {
-		switch x := u.(type) {
-		case *ssa.Store:
-			if x.Val == v {
-				return true
-			}
-		case *ssa.Return:
-			return true
-		case *ssa.MakeInterface:
-			if c10HandedOver(x, depth+1) {
-				return true
-			}
-		case *ssa.ChangeInterface:
-			if c10HandedOver(x, depth+1) {
-				return true
-			}
-		}
-	}
-	return false
 }
 
 // ---------------------------------------------------------------------------
@@ -2319,7 +4552,7 @@ func c10EndBound(p *Program, r *Reporter) {
 		}
 		n++
 		var notes, bad, und []string
-		c10EndUses(p, fn, fn.Params[2], 0, &notes, &bad, &und)
+		c10EndUses(p, c10NewRoot(fn), fn.Params[2], 0, &notes, &bad, &und)
 		construct := FuncKey(fn) + "#end-bound"
 		switch {
 		case len(bad) > 0:
@@ -2338,22 +4571,25 @@ func c10EndBound(p *Program, r *Reporter) {
 	}
 }
 
-// c10NonEmptyFact: do the facts at block b exclude s == "" ?
-func c10NonEmptyFact(b *ssa.BasicBlock, s ssa.Value) bool {
-	for _, f := range FactsAt(b) {
+// c10NonEmptyFact: do the tests that dominate block b of activation fr — in
+// its own function or in a caller, at the call that leads here — exclude s == "" ?
+func c10NonEmptyFact(fr *c10Frame, b *ssa.BasicBlock, s ssa.Value) bool {
+	se := c10EV{fr, s}
+	for _, f := range c10FactsAt(fr, b) {
 		bo, ok := f.Cond.(*ssa.BinOp)
 		if !ok {
 			continue
 		}
+		isS := func(v ssa.Value) bool { return c10Same(c10EV{f.fr, v}, se) }
 		// s == "" / s != ""
-		if cs, isC := ConstString(bo.Y); isC && cs == "" && sameOrigin(bo.X, s) || func() bool { cs, isC := ConstString(bo.X); return isC && cs == "" && sameOrigin(bo.Y, s) }() {
+		if cs, isC := ConstString(bo.Y); isC && cs == "" && isS(bo.X) || func() bool { cs, isC := ConstString(bo.X); return isC && cs == "" && isS(bo.Y) }() {
 			if bo.Op == token.NEQ && f.Val || bo.Op == token.EQL && !f.Val {
 				return true
 			}
 			continue
 		}
 		// len(s) OP c
-		if c10LenExcludesZero(bo, f.Val, func(arg ssa.Value) bool { return sameOrigin(arg, s) }) {
+		if c10LenExcludesZero(bo, f.Val, isS) {
 			return true
 		}
 	}
@@ -2406,7 +4642,22 @@ func c10EvalCmp(op token.Token, x, y int64) (res, ok bool) {
 	return false, false
 }
 
-func c10EndUses(p *Program, fn *ssa.Function, end ssa.Value, depth int, notes, bad, und *[]string) {
+// c10EnterCallee: the activation of module function f entered at call ci of
+// fr — a helper of the effective body, or (for the end-bound rule, which
+// follows the parameter wherever it is passed inside the module) any callee.
+func c10EnterCallee(fr *c10Frame, ci ssa.CallInstruction, f *ssa.Function) *c10Frame {
+	if k := fr.child(ci); k != nil {
+		return k
+	}
+	for a := fr; a != nil; a = a.parent {
+		if a.fn == f {
+			return nil
+		}
+	}
+	return &c10Frame{fn: f, parent: fr, site: ci, depth: fr.depth + 1, kids: map[ssa.CallInstruction]*c10Frame{}}
+}
+
+func c10EndUses(p *Program, fr *c10Frame, end ssa.Value, depth int, notes, bad, und *[]string) {
 	if depth > 3 {
 		*und = append(*und, "end is passed through more than 3 functions")
 		return
@@ -2415,6 +4666,7 @@ func c10EndUses(p *Program, fn *ssa.Function, end ssa.Value, depth int, notes, b
 	if refs == nil {
 		return
 	}
+	fn := fr.fn
 	where := FuncKey(fn)
 	for _, u := range nonDebug(*refs) {
 		switch x := u.(type) {
@@ -2422,7 +4674,7 @@ func c10EndUses(p *Program, fn *ssa.Function, end ssa.Value, depth int, notes, b
 			// comparison with "" is the guard itself
 		case *ssa.Convert, *ssa.MakeInterface:
 			v := x.(ssa.Value)
-			if c10NonEmptyFact(x.Block(), end) {
+			if c10NonEmptyFact(fr, x.Block(), end) {
 				*notes = append(*notes, where+": end is used as a bound only on the end != \"\" edge")
 				continue
 			}
@@ -2451,12 +4703,32 @@ func c10EndUses(p *Program, fn *ssa.Function, end ssa.Value, depth int, notes, b
 			if fa, ok := x.Addr.(*ssa.FieldAddr); ok && x.Val == end && NamedOf(fa.X.Type()) != nil && c10IsIterator(p, NamedOf(fa.X.Type())) {
 				c10ClientBound(p, NamedOf(fa.X.Type()), fa.Field, notes, bad, und)
 			} else if al, ok := x.Addr.(*ssa.Alloc); ok && x.Val == end {
-				// parameter spilled (captured by a literal): follow the loads in this function
-				for _, lu := range nonDebug(*al.Referrers()) {
-					if ld, ok := lu.(*ssa.UnOp); ok && ld.Op == token.MUL {
-						c10EndUses(p, fn, ld, depth, notes, bad, und)
+				// parameter spilled (captured by a literal) or a local copy: follow the loads, in this function and in its literals
+				followVar(al, func(ld *ssa.UnOp) {
+					if ld.Parent() == fn {
+						c10EndUses(p, fr, ld, depth, notes, bad, und)
+						return
 					}
-				}
+					// a literal of this function: only when it is part of the effective body (called here)
+					var kid *c10Frame
+					for ci, k := range fr.kids {
+						if k != nil && k.fn == ld.Parent() && ci.Parent() == fn {
+							kid = k
+						}
+					}
+					if kid == nil {
+						for _, c := range CallsIn(fn, false) {
+							if k := fr.child(c.Instr); k != nil && k.fn == ld.Parent() {
+								kid = k
+							}
+						}
+					}
+					if kid == nil {
+						*und = append(*und, where+": end is captured by a function literal that is not called in "+where)
+						return
+					}
+					c10EndUses(p, kid, ld, depth, notes, bad, und)
+				})
 			} else {
 				*und = append(*und, where+": end is stored into an unrecognised place")
 			}
@@ -2470,10 +4742,15 @@ func c10EndUses(p *Program, fn *ssa.Function, end ssa.Value, depth int, notes, b
 				*notes = append(*notes, where+": end is passed unchanged as the end of another Find")
 				continue
 			}
-			if f := c.Callee(); f != nil && InModule(f) {
+			if f := c.Callee(); f != nil && (InModule(f) || f.Parent() != nil && InModule(TopFunc(f))) && len(f.Blocks) > 0 {
+				kid := c10EnterCallee(fr, x, f)
+				if kid == nil {
+					*und = append(*und, where+": end is passed into a recursive call")
+					continue
+				}
 				for i, a := range c.Args() {
 					if a == end && i < len(f.Params) {
-						c10EndUses(p, f, f.Params[i], depth+1, notes, bad, und)
+						c10EndUses(p, kid, f.Params[i], depth+1, notes, bad, und)
 					}
 				}
 				continue
@@ -2481,11 +4758,14 @@ func c10EndUses(p *Program, fn *ssa.Function, end ssa.Value, depth int, notes, b
 			if c10Harmless(c) {
 				continue
 			}
-			if c10NonEmptyFact(x.Block(), end) {
+			if c10NonEmptyFact(fr, x.Block(), end) {
 				*notes = append(*notes, where+": end is handed to "+c.CalleeKey()+" only on the end != \"\" edge")
 				continue
 			}
 			*bad = append(*bad, fmt.Sprintf("%s: end is handed to %s without an end != \"\" test", where, c.CalleeKey()))
+		case *ssa.MakeClosure:
+			// captured by value? parameters are captured through their spill slot (handled at the Store); anything else cannot be followed
+			*und = append(*und, fmt.Sprintf("%s: end is captured by a function literal at line %d", where, p.Fset.Position(u.Pos()).Line))
 		default:
 			*und = append(*und, fmt.Sprintf("%s: unrecognised use of end at line %d", where, p.Fset.Position(u.Pos()).Line))
 		}
@@ -2497,9 +4777,16 @@ func c10IsIterator(p *Program, n *types.Named) bool {
 	return types.Implements(n, it) || types.Implements(types.NewPointer(n), it)
 }
 
+type c10BoundSt struct {
+	after bool // the comparison with the end bound has happened on this path
+}
+
 // c10ClientBound checks the reader of an end bound stored in field fld of
-// iterator type t: its Next compares the current key with bytes.Compare(key,
-// end), only when len(end) > 0, and stops exactly when the result is >= 0.
+// iterator type t: its Next (with the helpers it calls) compares the current
+// key with bytes.Compare(key, end) only where len(end) > 0 is known, and —
+// interpreting the paths after the comparison for each of its possible
+// results -1, 0, +1 — every path returns false for results >= 0 (the bound is
+// exclusive) while some path returns true for -1.
 func c10ClientBound(p *Program, t *types.Named, fld int, notes, bad, und *[]string) {
 	next, declared := c10Method(p, t, "Next")
 	if next == nil || !declared {
@@ -2507,24 +4794,22 @@ func c10ClientBound(p *Program, t *types.Named, fld int, notes, bad, und *[]stri
 		return
 	}
 	where := FuncKey(next)
-	isEnd := func(v ssa.Value) bool {
-		_, idx, ok := c10FieldLoad(v)
-		if !ok {
-			return false
-		}
-		root, chain := c10FieldChain(v)
-		return root == ssa.Value(next.Params[0]) && len(chain) == 1 && idx == fld
+	root := c10NewRoot(next)
+	recv := ssa.Value(next.Params[0])
+	isEnd := func(fr *c10Frame, v ssa.Value) bool {
+		base, idx := c10ChainE(fr, v)
+		return base.v == recv && len(idx) == 1 && idx[0] == fld
 	}
 	found := 0
-	for _, c := range CallsIn(next, false) {
+	for _, c := range c10EffCalls(root) {
 		if !c.IsStatic("bytes", "", "Compare") || c.Value() == nil {
 			continue
 		}
 		a := c.Args()
 		flip := false
 		switch {
-		case isEnd(a[1]):
-		case isEnd(a[0]):
+		case isEnd(c.fr, a[1]):
+		case isEnd(c.fr, a[0]):
 			flip = true
 		default:
 			continue
@@ -2532,66 +4817,67 @@ func c10ClientBound(p *Program, t *types.Named, fld int, notes, bad, und *[]stri
 		found++
 		// guard: len(end) == 0 excluded
 		guarded := false
-		for _, f := range FactsAt(c.Block()) {
-			if bo, ok := f.Cond.(*ssa.BinOp); ok && c10LenExcludesZero(bo, f.Val, isEnd) {
+		for _, f := range c10FactsAt(c.fr, c.Block()) {
+			ffr := f.fr
+			if bo, ok := f.Cond.(*ssa.BinOp); ok && c10LenExcludesZero(bo, f.Val, func(v ssa.Value) bool { return isEnd(ffr, v) }) {
 				guarded = true
 			}
 		}
 		if !guarded {
 			*bad = append(*bad, where+": the key is compared with the end bound also when the bound is empty: a Find with end \"\" would return nothing")
 		}
-		// exclusivity: evaluate the branch on the comparison result for -1, 0, +1
-		var ifi *ssa.If
-		var bo *ssa.BinOp
-		for _, u := range nonDebug(*c.Value().Referrers()) {
-			if b, ok := u.(*ssa.BinOp); ok {
-				for _, bu := range nonDebug(*b.Referrers()) {
-					if i, ok := bu.(*ssa.If); ok {
-						ifi, bo = i, b
-					}
-				}
-			}
-		}
-		if ifi == nil {
-			*und = append(*und, where+": cannot find the branch on bytes.Compare(key, end)")
-			continue
-		}
+		// exclusivity: interpret what follows the comparison for each of its results
 		okExcl := true
 		for _, cmp := range []int64{-1, 0, 1} {
 			val := cmp
 			if flip {
 				val = -cmp
 			}
-			var res, okE bool
-			if k, isC := ConstInt(bo.Y); isC && bo.X == ssa.Value(c.Value()) {
-				res, okE = c10EvalCmp(bo.Op, val, k)
-			} else if k, isC := ConstInt(bo.X); isC && bo.Y == ssa.Value(c.Value()) {
-				res, okE = c10EvalCmp(bo.Op, k, val)
+			sawTrue, sawFalse, sawUnk := false, false, false
+			w := &c10Walk[c10BoundSt]{
+				Clone: func(s c10BoundSt) c10BoundSt { return s },
+				Key:   func(s c10BoundSt) string { return fmt.Sprint(s.after) },
 			}
-			if !okE {
-				*und = append(*und, where+": comparison of bytes.Compare's result is not against a constant")
+			w.Post = func(pa *c10Path[c10BoundSt], ev c10Ev) {
+				if ev.fr == c.fr && ev.in == ssa.Instruction(c.Value()) {
+					pa.ints[c.Value()] = val
+					pa.St.after = true
+				}
+			}
+			w.Exit = func(pa *c10Path[c10BoundSt], fr *c10Frame, in ssa.Instruction) {
+				ret, ok := in.(*ssa.Return)
+				if !ok || !pa.St.after || len(ret.Results) != 1 {
+					return
+				}
+				switch pa.Eval(fr, ret.Results[0]) {
+				case c10NonZero:
+					sawTrue = true
+				case c10Zero:
+					sawFalse = true
+				default:
+					sawUnk = true
+				}
+			}
+			w.Run(root, c10BoundSt{})
+			switch {
+			case w.Overflow:
+				*und = append(*und, where+": too many paths to interpret")
 				okExcl = false
-				break
-			}
-			succ := ifi.Block().Succs[1]
-			if res {
-				succ = ifi.Block().Succs[0]
-			}
-			stops, known := c10BlockReturnsBool(succ)
-			if !known {
-				*und = append(*und, where+": cannot tell whether the branch after the end comparison stops the iteration")
-				okExcl = false
-				break
-			}
-			wantStop := cmp >= 0 // key >= end: out of range
-			if stops != wantStop {
+			case cmp >= 0 && sawTrue:
 				okExcl = false
 				if cmp == 0 {
 					*bad = append(*bad, where+": a key equal to end is returned: the end bound must be exclusive, as in every sibling implementation")
 				} else {
-					*bad = append(*bad, fmt.Sprintf("%s: the end comparison is wrong for key %s end", where, map[int64]string{-1: "<", 1: ">"}[cmp]))
+					*bad = append(*bad, where+": the end comparison is wrong for key > end")
 				}
+			case cmp >= 0 && sawUnk:
+				*und = append(*und, where+": cannot tell whether Next stops when the key has reached the end bound")
+				okExcl = false
+			case cmp < 0 && !sawTrue && !sawUnk:
+				okExcl = false
+				*bad = append(*bad, where+": the end comparison is wrong for key < end")
 			}
+			_ = sawFalse
 		}
 		if okExcl && guarded {
 			*notes = append(*notes, where+": stops exactly when len(end) > 0 and bytes.Compare(key, end) >= 0")
@@ -2602,59 +4888,14 @@ func c10ClientBound(p *Program, t *types.Named, fld int, notes, bad, und *[]stri
 	}
 }
 
-// c10BlockReturnsBool: the block ends in a return of a constant bool (directly
-// or through a static callee all of whose returns are the same constant):
-// stops = returns false.
-func c10BlockReturnsBool(b *ssa.BasicBlock) (stops, known bool) {
-	for i := 0; i < 4 && b != nil; i++ {
-		if len(b.Instrs) == 0 {
-			return false, false
-		}
-		switch t := b.Instrs[len(b.Instrs)-1].(type) {
-		case *ssa.Return:
-			if len(t.Results) != 1 {
-				return false, false
-			}
-			v, ok := c10ConstBool(t.Results[0], 0)
-			return !v, ok
-		case *ssa.Jump:
-			b = b.Succs[0]
-		default:
-			return false, false
-		}
-	}
-	return false, false
-}
-
-func c10ConstBool(v ssa.Value, depth int) (val, ok bool) {
-	if c, isC := v.(*ssa.Const); isC && c.Value != nil {
-		return c.Value.String() == "true", true
-	}
-	if call, isCall := v.(*ssa.Call); isCall && depth < 2 {
-		if f := call.Call.StaticCallee(); f != nil && f.Blocks != nil {
-			first := true
-			for _, ri := range Returns(f) {
-				if len(ri.Results) != 1 {
-					return false, false
-				}
-				x, k := c10ConstBool(ri.Results[0], depth+1)
-				if !k || !first && x != val {
-					return false, false
-				}
-				val, first = x, false
-			}
-			return val, !first
-		}
-	}
-	return false, false
-}
-
 // ===========================================================================
 // V-notfound: absent keys look the same in every implementation
 
 // c10SentinelCmp lists the package-level error variables that error value ev
-// is compared with (==, != or errors.Is) inside its function.
-func c10SentinelCmp(ev ssa.Value) []*ssa.Global {
+// (of activation fr) is compared with (==, != or errors.Is) in the effective
+// body: in its own function, in a helper it is passed to, or — when a helper
+// returns it — in the caller, on the helper's result.
+func c10SentinelCmp(fr *c10Frame, ev ssa.Value) []*ssa.Global {
 	var out []*ssa.Global
 	glob := func(v ssa.Value) *ssa.Global {
 		if u, ok := v.(*ssa.UnOp); ok && u.Op == token.MUL {
@@ -2664,13 +4905,17 @@ func c10SentinelCmp(ev ssa.Value) []*ssa.Global {
 		}
 		return nil
 	}
-	seen := map[ssa.Value]bool{}
-	var visit func(v ssa.Value)
-	visit = func(v ssa.Value) {
-		if v == nil || seen[v] || v.Referrers() == nil {
+	type key struct {
+		fr *c10Frame
+		v  ssa.Value
+	}
+	seen := map[key]bool{}
+	var visit func(fr *c10Frame, v ssa.Value)
+	visit = func(fr *c10Frame, v ssa.Value) {
+		if v == nil || seen[key{fr, v}] || v.Referrers() == nil {
 			return
 		}
-		seen[v] = true
+		seen[key{fr, v}] = true
 		for _, u := range *v.Referrers() {
 			switch x := u.(type) {
 			case *ssa.BinOp:
@@ -2687,13 +4932,50 @@ func c10SentinelCmp(ev ssa.Value) []*ssa.Global {
 					if g := glob(x.Call.Args[1]); g != nil {
 						out = append(out, g)
 					}
+					continue
+				}
+				if fr != nil {
+					if kid := fr.child(x); kid != nil {
+						for i, a := range (CallSite{x.Parent(), x}).Args() {
+							if a == v && i < len(kid.fn.Params) {
+								visit(kid, kid.fn.Params[i])
+							}
+						}
+					}
 				}
 			case *ssa.Phi:
-				visit(x)
+				visit(fr, x)
+			case *ssa.Store:
+				// a local variable (named result, spilled value): its loads
+				if al, ok := x.Addr.(*ssa.Alloc); ok && x.Val == v {
+					followVar(al, func(ld *ssa.UnOp) {
+						if ld.Parent() == x.Parent() {
+							visit(fr, ld)
+						}
+					})
+				}
+			case *ssa.Return:
+				if fr == nil || fr.parent == nil {
+					continue
+				}
+				call, ok := fr.site.(*ssa.Call)
+				if !ok {
+					continue
+				}
+				for i, res := range x.Results {
+					if res != v {
+						continue
+					}
+					if len(x.Results) == 1 {
+						visit(fr.parent, call)
+					} else if ex := ResultValue(call, i); ex != nil {
+						visit(fr.parent, ex)
+					}
+				}
 			}
 		}
 	}
-	visit(ev)
+	visit(fr, ev)
 	return out
 }
 
@@ -2714,7 +4996,8 @@ func c10RuleNotFound(p *Program, r *Reporter) {
 		if del == nil || cb == nil || !d1 || !d2 {
 			continue
 		}
-		for _, c := range CallsIn(del, false) {
+		cbCalls := c10EffCalls(c10NewRoot(cb))
+		for _, c := range c10EffCalls(c10NewRoot(del)) {
 			f := c.Callee()
 			if f == nil || InModule(f) || c.Value() == nil {
 				continue
@@ -2723,16 +5006,16 @@ func c10RuleNotFound(p *Program, r *Reporter) {
 			if !hasErr || ev == nil {
 				continue
 			}
-			for _, g := range c10SentinelCmp(ev) {
-				// the same backend call in CommitBatch
-				for _, c2 := range CallsIn(cb, false) {
+			for _, g := range c10SentinelCmp(c.fr, ev) {
+				// the same backend call in the effective body of CommitBatch
+				for _, c2 := range cbCalls {
 					if c2.Callee() != f || c2.Value() == nil {
 						continue
 					}
 					ev2, _, _ := ErrValue(c2.Value())
 					same := false
 					if ev2 != nil {
-						for _, g2 := range c10SentinelCmp(ev2) {
+						for _, g2 := range c10SentinelCmp(c2.fr, ev2) {
 							if g2 == g {
 								same = true
 							}
@@ -2863,6 +5146,7 @@ type c10OSite struct {
 	bits   c10OBits
 	loops  map[*ssa.BasicBlock]bool
 	helper *c10OrderSum // the callee replays the whole slice itself
+	elemTo *c10OrderSum // the callee is a helper of the effective body that receives the mutation: what it does with it
 }
 
 // c10OrderSum: result of following the recorded slice through one function.
@@ -2876,6 +5160,7 @@ type c10OrderSum struct {
 	ret    c10OBits
 	nSeeds int
 	passes int
+	chans  map[string]map[string]bool // underlying store (root terms) -> channels its mutations travel through
 }
 
 func (s *c10OrderSum) addTo(m map[string][]string, clause, msg string) {
@@ -2889,8 +5174,11 @@ func (s *c10OrderSum) addTo(m map[string][]string, clause, msg string) {
 
 type c10OFlow struct {
 	ctx      *c10OrderCtx
+	fr       *c10Frame // the activation analysed (a root for a CommitBatch, a child for helpers)
 	fn       *ssa.Function
 	depth    int
+	elemLoop *ssa.BasicBlock // pseudo loop header for mutations received as parameters (the caller's loop)
+	subs     []*c10OrderSum  // helpers/literals of the effective body that read the recorded slice themselves
 	lab      map[ssa.Value]c10OBits
 	loops    map[ssa.Value]map[*ssa.BasicBlock]bool
 	work     []ssa.Value
@@ -3429,9 +5717,21 @@ func (f *c10OFlow) call(x ssa.CallInstruction, v ssa.Value, bits c10OBits, loops
 		case !cc.IsInvoke() && cc.Value == v:
 			f.undec("pass", "a function literal that captured a mutation is called at line %d", f.line(x.Pos()))
 		default:
-			f.site(x, &c, bits, loops)
+			s := f.site(x, &c, bits, loops)
 			if carries {
 				f.add(call, eb, loops)
+			}
+			// a helper of the effective body: what it does with the mutation counts as done here
+			if _, isGo := x.(*ssa.Go); !isGo && s.elemTo == nil && f.depth < c10MaxDepth {
+				if kid := f.fr.child(x); kid != nil {
+					elems := map[int]bool{}
+					for i, a := range c.Args() {
+						if (a == v || f.lab[a]&c10oElemMask != 0) && i < len(kid.fn.Params) {
+							elems[i] = true
+						}
+					}
+					s.elemTo = f.ctx.analyseFr(kid, nil, elems, f.depth+1)
+				}
 			}
 		}
 	}
@@ -3465,7 +5765,7 @@ func (f *c10OFlow) seqCall(x ssa.CallInstruction, c CallSite, v ssa.Value, bits 
 		return
 	}
 	callee := c.Callee()
-	if callee != nil && callee.Blocks != nil && InModule(callee) && callee.Parent() == nil && f.depth < 2 && !cc.IsInvoke() {
+	if callee != nil && callee.Blocks != nil && InModule(callee) && callee.Parent() == nil && f.depth < c10MaxDepth && !cc.IsInvoke() {
 		seeds := map[int]c10OBits{}
 		key := FuncKey(callee)
 		for i, a := range cc.Args {
@@ -3474,9 +5774,14 @@ func (f *c10OFlow) seqCall(x ssa.CallInstruction, c CallSite, v ssa.Value, bits 
 				key += fmt.Sprintf("|%d:%d", i, b)
 			}
 		}
+		key += fmt.Sprintf("@%p", x)
 		sub := f.ctx.helpers[key]
 		if sub == nil {
-			sub = f.ctx.analyse(callee, seeds, f.depth+1)
+			if kid := c10EnterCallee(f.fr, x, callee); kid != nil {
+				sub = f.ctx.analyseFr(kid, seeds, nil, f.depth+1)
+			} else {
+				sub = f.ctx.analyse(callee, seeds, f.depth+1)
+			}
 			f.ctx.helpers[key] = sub
 		}
 		for cl, ms := range sub.viol {
@@ -3695,12 +6000,27 @@ func (f *c10OFlow) seed() {
 }
 
 func (ctx *c10OrderCtx) analyse(fn *ssa.Function, paramSeeds map[int]c10OBits, depth int) *c10OrderSum {
-	sum := &c10OrderSum{fn: fn, viol: map[string][]string{}, und: map[string][]string{}, notes: map[string][]string{}}
-	f := &c10OFlow{ctx: ctx, fn: fn, depth: depth, lab: map[ssa.Value]c10OBits{}, loops: map[ssa.Value]map[*ssa.BasicBlock]bool{},
+	return ctx.analyseFr(c10NewRoot(fn), paramSeeds, nil, depth)
+}
+
+// analyseFr follows the recorded slice (paramSeeds: parameters that carry it)
+// and single mutations handed in by the caller's replay loop (elemSeeds)
+// through activation fr.
+func (ctx *c10OrderCtx) analyseFr(fr *c10Frame, paramSeeds map[int]c10OBits, elemSeeds map[int]bool, depth int) *c10OrderSum {
+	fn := fr.fn
+	sum := &c10OrderSum{fn: fn, viol: map[string][]string{}, und: map[string][]string{}, notes: map[string][]string{}, chans: map[string]map[string]bool{}}
+	f := &c10OFlow{ctx: ctx, fr: fr, fn: fn, depth: depth, lab: map[ssa.Value]c10OBits{}, loops: map[ssa.Value]map[*ssa.BasicBlock]bool{},
 		sum: sum, siteOf: map[ssa.Instruction]*c10OSite{}, idxWhy: map[ssa.Value]string{}}
 	for i, b := range paramSeeds {
 		f.add(fn.Params[i], b, nil)
 		sum.nSeeds++
+	}
+	if len(elemSeeds) > 0 && len(fn.Blocks) > 0 {
+		f.elemLoop = fn.Blocks[0]
+		for i := range elemSeeds {
+			f.add(fn.Params[i], c10oElem, map[*ssa.BasicBlock]bool{f.elemLoop: true})
+			sum.nSeeds++
+		}
 	}
 	f.seed()
 	for len(f.work) > 0 {
@@ -3716,7 +6036,31 @@ func (ctx *c10OrderCtx) analyse(fn *ssa.Function, paramSeeds map[int]c10OBits, d
 			}
 		}
 	}
+	// helpers and literals of the effective body that were not handed the slice
+	// or a mutation may read the recorded slice themselves
+	if depth < c10MaxDepth {
+		handled := map[ssa.Instruction]bool{}
+		for _, s := range sum.sites {
+			if s.helper != nil || s.elemTo != nil {
+				handled[s.instr] = true
+			}
+		}
+		for _, c := range CallsIn(fn, false) {
+			if handled[c.Instr] || c.IsGo() {
+				continue
+			}
+			if kid := fr.child(c.Instr); kid != nil {
+				if sub := ctx.analyseFr(kid, nil, nil, depth+1); sub.nSeeds > 0 {
+					f.subs = append(f.subs, sub)
+					sum.nSeeds += sub.nSeeds
+				}
+			}
+		}
+	}
 	f.finish()
+	for _, sub := range f.subs {
+		sum.sites = append(sum.sites, sub.sites...)
+	}
 	return sum
 }
 
@@ -3750,6 +6094,19 @@ func (f *c10OFlow) finish() {
 		if s.call != nil {
 			what = s.call.CalleeKey()
 			ln = f.line(s.call.Pos())
+		}
+		if s.elemTo != nil {
+			sub := s.elemTo
+			for cl, ms := range sub.viol {
+				for _, m := range ms {
+					f.viol(cl, "in %s: %s", FuncKey(sub.fn), m)
+				}
+			}
+			for cl, ms := range sub.und {
+				for _, m := range ms {
+					f.undec(cl, "in %s: %s", FuncKey(sub.fn), m)
+				}
+			}
 		}
 		if s.helper != nil {
 			passes[s.instr] = true
@@ -3785,11 +6142,48 @@ func (f *c10OFlow) finish() {
 				continue
 			}
 			for h := range s.loops {
-				if !c10InLoopOf(h, s.instr.Block()) {
+				switch {
+				case h == f.elemLoop && h != nil:
+					// the mutation is a parameter: this activation runs once per iteration of the caller's loop
+					if c10LoopHeader(s.instr.Block()) != nil {
+						f.undec("pass", "%s at line %d hands on, inside a loop of its own, a mutation received as a parameter", what, ln)
+					}
+				case !c10InLoopOf(h, s.instr.Block()):
 					f.undec("pass", "%s at line %d uses a mutation outside the loop that read it", what, ln)
-				} else {
+				default:
 					passes[h] = true
 				}
+			}
+		}
+	}
+	for _, sub := range f.subs {
+		for cl, ms := range sub.viol {
+			for _, m := range ms {
+				f.viol(cl, "in %s: %s", FuncKey(sub.fn), m)
+			}
+		}
+		for cl, ms := range sub.und {
+			for _, m := range ms {
+				f.undec(cl, "in %s: %s", FuncKey(sub.fn), m)
+			}
+		}
+		for cl, ms := range sub.notes {
+			if cl == "channels" {
+				continue
+			}
+			for _, m := range ms {
+				f.note(cl, "in %s: %s", FuncKey(sub.fn), m)
+			}
+		}
+		for i := 0; i < sub.passes; i++ {
+			passes[fmt.Sprintf("%p#%d", sub, i)] = true
+		}
+		for store, chs := range sub.chans {
+			if f.sum.chans[store] == nil {
+				f.sum.chans[store] = map[string]bool{}
+			}
+			for ch := range chs {
+				f.sum.chans[store][ch] = true
 			}
 		}
 	}
@@ -3798,12 +6192,24 @@ func (f *c10OFlow) finish() {
 		f.viol("pass", "the mutations are handed on in %d separate passes over the recorded slice: a pass that applies some mutations (e.g. all deletes) before another pass applies the rest changes the relative order of a set and a delete of one key", len(passes))
 	}
 	// clause 4: one channel per underlying store
-	chans := map[string]map[string]bool{}
+	chans := f.sum.chans
 	for _, s := range f.sum.sites {
 		if s.call == nil || s.bits&c10oElem == 0 {
 			continue
 		}
-		store, ch, ok := c10Channel(*s.call, f.line)
+		if s.elemTo != nil {
+			// the helper's own hand-overs are the channels (already in the root's terms)
+			for store, chs := range s.elemTo.chans {
+				if chans[store] == nil {
+					chans[store] = map[string]bool{}
+				}
+				for ch := range chs {
+					chans[store][ch] = true
+				}
+			}
+			continue
+		}
+		store, ch, ok := c10Channel(f.fr, *s.call, f.line)
 		if !ok {
 			continue
 		}
@@ -3811,6 +6217,9 @@ func (f *c10OFlow) finish() {
 			chans[store] = map[string]bool{}
 		}
 		chans[store][ch] = true
+	}
+	if f.fr.parent != nil && f.elemLoop != nil {
+		return // a helper: its caller judges the channels of the whole effective body
 	}
 	var stores []string
 	for st := range chans {
@@ -3834,7 +6243,7 @@ func (f *c10OFlow) finish() {
 // c10Channel names the way one mutation reaches an underlying store: store =
 // access path of the store (for a batch: of the store BeginBatch was called
 // on), ch = "direct" or the batch it is queued in.
-func c10Channel(c CallSite, line func(token.Pos) int) (store, ch string, ok bool) {
+func c10Channel(fr *c10Frame, c CallSite, line func(token.Pos) int) (store, ch string, ok bool) {
 	cc := c.Common()
 	var recv ssa.Value
 	switch {
@@ -3846,55 +6255,28 @@ func c10Channel(c CallSite, line func(token.Pos) int) (store, ch string, ok bool
 		return "", "", false
 	}
 	// a batch obtained from BeginBatch of some store?
-	var begins []*ssa.Call
+	var begins []c10EV
 	clean := true
-	seen := map[ssa.Value]bool{}
-	var walk func(v ssa.Value)
-	walk = func(v ssa.Value) {
-		if v == nil || seen[v] || IsNilConst(v) {
-			return
-		}
-		seen[v] = true
-		switch x := v.(type) {
-		case *ssa.Call:
-			if x.Call.IsInvoke() && x.Call.Method.Name() == "BeginBatch" || x.Call.StaticCallee() != nil && x.Call.StaticCallee().Name() == "BeginBatch" {
-				begins = append(begins, x)
-				return
-			}
-		case *ssa.Phi:
-			for _, e := range x.Edges {
-				walk(e)
-			}
-			return
-		case *ssa.ChangeInterface:
-			walk(x.X)
-			return
-		case *ssa.MakeInterface:
-			walk(x.X)
-			return
-		case *ssa.UnOp:
-			if x.Op == token.MUL {
-				if cell, ok := varOf(x.X); ok {
-					if sts := storesTo(cell); len(sts) > 0 {
-						for _, st := range sts {
-							walk(st.Val)
-						}
-						return
-					}
-				}
-			}
+	for _, o := range c10Origins(fr, recv) {
+		if x, isCall := o.v.(*ssa.Call); isCall && (x.Call.IsInvoke() && x.Call.Method.Name() == "BeginBatch" || x.Call.StaticCallee() != nil && x.Call.StaticCallee().Name() == "BeginBatch") {
+			begins = append(begins, o)
+			continue
 		}
 		clean = false
 	}
-	walk(recv)
 	if len(begins) > 0 && clean {
 		var paths, ids []string
-		for _, b := range begins {
-			a := CallSite{c.Fn, b}.Args()
+		for _, o := range begins {
+			b := o.v.(*ssa.Call)
+			fn := c.Fn
+			if o.fr != nil {
+				fn = o.fr.fn
+			}
+			a := CallSite{fn, b}.Args()
 			if len(a) == 0 {
 				return "", "", false
 			}
-			paths = append(paths, AccessPath(a[0]))
+			paths = append(paths, c10PathOf(o.fr, a[0]))
 			ids = append(ids, fmt.Sprintf("the batch %s begun at line %d", b.Name(), line(b.Pos())))
 		}
 		paths = dedupe(paths)
@@ -3904,7 +6286,7 @@ func c10Channel(c CallSite, line func(token.Pos) int) (store, ch string, ok bool
 		sort.Strings(ids)
 		return paths[0], strings.Join(ids, "+"), true
 	}
-	return AccessPath(recv), "direct calls", true
+	return c10PathOf(fr, recv), "direct calls", true
 }
 
 // c10RecordRes: what one Set/Delete method of a batch type does with its key.
@@ -3921,13 +6303,14 @@ type c10RecordRes struct {
 // (also through one helper that receives the batch) to where it is recorded
 // or forwarded.
 func c10RecordAnalysis(p *Program, fn *ssa.Function, recvIdx int, seeds map[int]string, depth int, res *c10RecordRes) {
-	recv := ssa.Value(fn.Params[recvIdx])
-	f := c10NewFlow(fn)
+	rootFr := c10NewRoot(fn)
+	recv := c10EV{rootFr, fn.Params[recvIdx]}
+	fs := c10NewFlowSet(rootFr)
 	for i, l := range seeds {
-		f.source(fn.Params[i], l)
+		fs.root.source(fn.Params[i], l)
 	}
-	f.run()
-	for k, v := range f.fieldStores {
+	fs.run()
+	for k, v := range fs.fieldStores {
 		if res.keyFlds[k] == nil {
 			res.keyFlds[k] = map[byte]bool{}
 		}
@@ -3935,14 +6318,18 @@ func c10RecordAnalysis(p *Program, fn *ssa.Function, recvIdx int, seeds map[int]
 			res.keyFlds[k][b] = true
 		}
 	}
-	for _, e := range f.escapes {
-		res.und = append(res.und, "cannot follow the key in "+FuncKey(fn)+": "+e)
+	for _, f := range fs.flows {
+		for _, e := range f.escapes {
+			res.und = append(res.und, "cannot follow the key in "+FuncKey(f.fn)+": "+e)
+		}
 	}
 	line := func(pos token.Pos) int { return p.Fset.Position(pos).Line }
-	for _, s := range f.sinks {
+	for _, s := range fs.allSinks() {
 		if len(c10Kinds(s.labels, 'K')) == 0 {
 			continue
 		}
+		f := s.fl
+		isRecv := func(v ssa.Value) bool { return c10Same(c10EV{f.fr, v}, recv) }
 		if s.call != nil {
 			c := *s.call
 			if c10IsCheckSizes(c) || c10Harmless(c) {
@@ -3953,14 +6340,14 @@ func c10RecordAnalysis(p *Program, fn *ssa.Function, recvIdx int, seeds map[int]
 				continue
 			}
 			cc := c.Common()
-			// a helper that receives the batch itself
+			// a module function outside the effective body (exported, other package) that receives the batch itself
 			if callee := cc.StaticCallee(); callee != nil && InModule(callee) && callee.Blocks != nil && depth < 1 {
 				ri, sub := -1, map[int]string{}
 				for i, a := range cc.Args {
 					if i >= len(callee.Params) {
 						break
 					}
-					if sameOrigin(a, recv) {
+					if isRecv(a) {
 						ri = i
 					}
 					for l := range f.lab[a] {
@@ -3978,7 +6365,7 @@ func c10RecordAnalysis(p *Program, fn *ssa.Function, recvIdx int, seeds map[int]
 			}
 			flds := map[int]bool{}
 			for _, o := range ops {
-				if root, idx := c10FieldChain(o); len(idx) > 0 && sameOrigin(root, recv) {
+				if root, idx := c10FieldChain(o); len(idx) > 0 && isRecv(root) {
 					flds[idx[0]] = true
 				}
 			}
@@ -4004,7 +6391,7 @@ func c10RecordAnalysis(p *Program, fn *ssa.Function, recvIdx int, seeds map[int]
 			continue
 		}
 		fa, ok := st.Addr.(*ssa.FieldAddr)
-		if !ok || !sameOrigin(fa.X, recv) || !c10IsSlice(st.Val.Type()) || c10IsBytesCarrier(st.Val.Type()) {
+		if !ok || !isRecv(fa.X) || !c10IsSlice(st.Val.Type()) || c10IsBytesCarrier(st.Val.Type()) {
 			res.und = append(res.und, fmt.Sprintf("stores the key at %s (line %d), not in a slice field of the batch; cannot tell the order in which it comes back out", s.what, line(st.Pos())))
 			continue
 		}
@@ -4027,7 +6414,7 @@ func c10RecordAnalysis(p *Program, fn *ssa.Function, recvIdx int, seeds map[int]
 		}
 		ok = false
 		if ld, isLd := call.Call.Args[0].(*ssa.UnOp); isLd && ld.Op == token.MUL {
-			if fa0, isFA := ld.X.(*ssa.FieldAddr); isFA && fa0.Field == fa.Field && sameOrigin(fa0.X, recv) {
+			if fa0, isFA := ld.X.(*ssa.FieldAddr); isFA && fa0.Field == fa.Field && isRecv(fa0.X) {
 				ok = true
 			}
 		}
